@@ -16,1689 +16,1998 @@ Definition terms (ts : list tok) (t : pt) : string :=
   digest (show_toks (Some ts)) ++ " " ++ digest (show_pt (Some t)) ++ " " ++ digest (show_pt (parse ts)).
 Definition terms_full (ts : list tok) (t : pt) : string :=
   show_toks (Some ts) ++ nl ++ show_pt (Some t) ++ nl ++ show_pt (parse ts).
-Eval vm_compute in ("<<<M24>>>" ++ check (runes_of_ascii "root // c
-packet msg_type	{ repeat// packet A { u8 x, }
-A { repeat a1
-    { repeat  len// trailing space 
-, }
-    ,pack string_,	zchar[ 7 ] msg_type  @lengthOf(u
-) , } ,
-    repeat
-zchar[ // `tick` ""quote"" 'q'
-00] tag, u64 o@calculatedFrom(""a\\""
+Eval vm_compute in ("<<<M24>>>" ++ check (runes_of_ascii "packet // " ++ [27880; 37322]%N ++ runes_of_ascii "
+BodyLength { f64	body@lengthOf( o ), }
+")).
+Eval vm_compute in ("<<<M56>>>" ++ check (runes_of_ascii "packet MetaDataX {i8
+u128
+    @lengthOf( Z9_
+)  `line1
+line2`  ,@calculatedFrom(
+""1"") match Foo as body
+    {
+42 :
+lengthOf ,
+""`tick`"" : trueish, }, @tag(10 ) @leftPad ( ) char[] T
+    @lengthOf(
+body )	`" ++ [28040; 24687; 31867; 22411]%N ++ runes_of_ascii "`,
+zchar[ 0123456789 ]matchKey `{ , }`
+,
+    }options {
+    u8x
+= true ; zchar=int32 ; o
+    =
+""a\\""
+; body
+=false; } root
+    packet
+//	t
+// a // b
+rootA
+    { @tag(
+    3) @tag(4294967296
+)@lengthOf( // @lengthOf(
+f32a) _x
+    Foo `say ""hi""` , } packet Foo
     // trailing space 
-    ) ,  }
-    packet charz {@tag( 0
-) // c
-repeat
+    {@tag( 7 ) @lengthOf( u128
+)u16 u128@calculatedFrom(	""a\""b""
+) // " ++ [128512]%N ++ runes_of_ascii " emoji
+`u8 x,`
+,
+    //x
+    @lengthOf(
+    Pad ) @lengthOf(
+    f32a )
+@calculatedFrom( """ ++ [28040; 24687]%N ++ runes_of_ascii """ )
+uint16 a1	, @leftPad
+(' ' )
+A
+    {	int64
+Pad
+`crlf
+line` , uint64 Z9_ @calculatedFrom(""a	b"")
+,
     // a // b
-    u {
-char[007 ] T,}, repeatCount @calculatedFrom( ""\n""
+    repeat options1
+,
+char[// " ++ [128512]%N ++ runes_of_ascii " emoji
+4294967296 ]falsey , } ,
+zchar[
+    65535 ]
+chars	``,
+    @calculatedFrom(
+    """"
+// " ++ [27880; 37322]%N ++ runes_of_ascii "
+// " ++ [27880; 37322]%N ++ runes_of_ascii "
+)
+    @calculatedFrom( ""1""
+) uint8 a1
+,//x
+}
+")).
+Eval vm_compute in ("<<<M88>>>" ++ check (runes_of_ascii "MetaData uint8x { }
+")).
+Eval vm_compute in ("<<<M120>>>" ++ check (runes_of_ascii "packet crc{
+    } packet pack {repeat _x Foo // `tick` ""quote"" 'q'
+,@lengthOf( string_
+    )
+    @rightPad ( ) @calculatedFrom( ""\n"")
+charz  { char[ 42 ]
+a1 , //x
+repeat T // `tick` ""quote"" 'q'
+{ repeat zchar[ 3
+    ] T , } , match  i64_  as	trueish { ""`tick`""
+:
+/// triple
+// packet A { u8 x, }
+trueish , [""" ++ [233]%N ++ runes_of_ascii "t" ++ [233]%N ++ runes_of_ascii """, 0123456789] : Foo
+,
+    """"
+    :
+    x_y_z [ ""\" ++ [233]%N ++ runes_of_ascii """ // trailing space 
+, 3
+, ""a	b"" , ""\" ++ [233]%N ++ runes_of_ascii """
+    ,
+""x y""
+    , ""1"" , ""a	b""
+, ""CRC32"" ] : asx [
+    255 ] : leftPad  ,
+42 :
+    u8x
+, }
+    , } ,
+    o ,}
+")).
+Eval vm_compute in ("<<<M152>>>" ++ check (runes_of_ascii "root packet  i64_ { uint8x
+`tab	here` ,  }
+MetaData// " ++ [27880; 37322]%N ++ runes_of_ascii "
+zchar{ falsey lengthOf  ,
+// a // b
+// @lengthOf(
+i64 asx
+`a\` , } packet
+    _x{ @tag(
+    // " ++ [27880; 37322]%N ++ runes_of_ascii "
+    007 )repeat
+f64 string_ `" ++ [28040; 24687; 31867; 22411]%N ++ runes_of_ascii "` ,
+int64 charz,
+    // trailing space 
+    match a1  as Pad {
+    7:trueish, 0 : i64_
+, 65535: calculatedFrom
+,
+1
+: chars
+,  4294967296: u
+,
+    42:f32a , } // trailing space 
+,	i32 string_@calculatedFrom( """ ++ [28040; 24687]%N ++ runes_of_ascii """ ) ,
+    @lengthOf( matchKey ) repeat asx trueish , string
+zchar
+, uint16
+    Z9_
+, }  MetaData len /// triple
+{T// 50% %s
+stringy // " ++ [27880; 37322]%N ++ runes_of_ascii "
+`100% of %d`
+    , As string_ ,Header MetaDataX,  stringy x // packet A { u8 x, }
+, int chars ,
+} packet pack {  @lengthOf(
+    T
+    ) @leftPad
+    ( ) A @lengthOf(
+    roots)
+    `doc` ,  @lengthOf( body
+    )
+repeat
+    zchar { char[ 42 ] o,
+match uint8x as MetaDataX
+{ 7
+    :
+// 50% %s
+//x
+chars , 4294967296 : Pad ,[ 42 , 007
+    ] : u128} ,// @lengthOf(
+uint16 charz ,// a // b
+},
+@leftPad(
+// a // b
+// packet A { u8 x, }
+'0') repeat A , Logon@lengthOf(Packet) `say ""hi""` , trueish { chars @lengthOf(A ) ,
+repeat u64 chars	,  leftPad@calculatedFrom(""`tick`""// c
+) , asx , } , char[ 65535
+    ] falsey `a\` // `tick` ""quote"" 'q'
+,
+    @rightPad (
+'0'
+    )	int
+    { crc @lengthOf(
+crc ) `say ""hi""` ,
+options1 // packet A { u8 x, }
+packetx `" ++ [233]%N ++ runes_of_ascii "`,} , @rightPad( ' ') falsey
+    // 50% %s
+    @lengthOf(BodyLength ) ,}")).
+Eval vm_compute in ("<<<M184>>>" ++ check (runes_of_ascii "packet Pad {	repeat uint8x { char[]
+Z9_, }
+    , repeat zchar[	10
+    ] i8i8,
+    x, repeat
+    string_
+    { // @lengthOf(
+repeat asx Foo ,int16	i8i8 ,  char[]matchKey, match
+calculatedFrom
+as roots { 3//
+:x_y_z , }
+, } , @lengthOf( x // packet A { u8 x, }
+)
+repeat // trailing space 
+o`a\` , char[] /// triple
+string_
+    `{ , }` ,} options{ f32a
+=false A= false } packet u128{
+@calculatedFrom( """ ++ [128512]%N ++ runes_of_ascii """ ) string a1,@tag( 00 )
+char[
+10
+]  A
+`" ++ [233]%N ++ runes_of_ascii "`,char[65535 ] len , @tag(	00 ) @rightPad ( '\x00' )@calculatedFrom( ""1"" )
+zchar[ 7
+] // trailing space 
+body ,
+    @calculatedFrom( ""{,}"") i64_ { repeat
+    // a // b
+    uint8x tag	`u8 x,` ,
+}, string_ A  , @calculatedFrom( ""x y"" )  @tag( 42 )
+i16 pack // a // b
+,	@rightPad (
+)A{ Z9_
+,  }
+// packet A { u8 x, }
+// @lengthOf(
+,
+tag
+BodyLength ,
+    }")).
+Eval vm_compute in ("<<<M216>>>" ++ check (runes_of_ascii "  packet
+asx { float @calculatedFrom( ""a\""b"" ) // packet A { u8 x, }
+,
+Pad msg_type ,
+@calculatedFrom(
+    ""CRC32"" // " ++ [128512]%N ++ runes_of_ascii " emoji
+) match chars	as //
+Foo
+    { ""1"" :	x_y_z , ""1""
+:	o , 4294967296  : tag 7
+:
+trueish  ,
+""" ++ [28040; 24687]%N ++ runes_of_ascii """ // " ++ [27880; 37322]%N ++ runes_of_ascii "
+:
+Header },}MetaData trueish { u msg_type
+,	zchar[
+// 50% %s
+// 50% %s
+00 ] crc , f32
+    A `` ,
+    //	t
+    uint32 options1 , char[]
+    zchar `
+`	, // packet A { u8 x, }
+}")).
+Eval vm_compute in ("<<<T216>>>" ++ terms [mkTok 35 "packet" 1 2 false; mkTok 42 "asx" 2 0 false; mkTok 2 "{" 2 4 false; mkTok 42 "float" 2 6 false; mkTok 5 "@calculatedFrom(" 2 12 false; mkTok 31 """a\""b""" 2 29 false; mkTok 6 ")" 2 36 false; mkTok 44 "// packet A { u8 x, }" 2 38 true; mkTok 40 "," 3 0 false; mkTok 42 "Pad" 4 0 false; mkTok 42 "msg_type" 4 4 false; mkTok 40 "," 4 13 false; mkTok 5 "@calculatedFrom(" 5 0 false; mkTok 31 """CRC32""" 6 4 false; mkTok 44 (string_of_bytes [47; 47; 32; 240; 159; 152; 128; 32; 101; 109; 111; 106; 105]%N) 6 12 true; mkTok 6 ")" 7 0 false; mkTok 38 "match" 7 2 false; mkTok 42 "chars" 7 8 false; mkTok 17 "as" 7 14 false; mkTok 44 "//" 7 17 true; mkTok 42 "Foo" 8 0 false; mkTok 2 "{" 9 4 false; mkTok 31 """1""" 9 6 false; mkTok 39 ":" 9 10 false; mkTok 42 "x_y_z" 9 12 false; mkTok 40 "," 9 18 false; mkTok 31 """1""" 9 20 false; mkTok 39 ":" 10 0 false; mkTok 42 "o" 10 2 false; mkTok 40 "," 10 4 false; mkTok 30 "4294967296" 10 6 false; mkTok 39 ":" 10 18 false; mkTok 42 "tag" 10 20 false; mkTok 30 "7" 10 24 false; mkTok 39 ":" 11 0 false; mkTok 42 "trueish" 12 0 false; mkTok 40 "," 12 9 false; mkTok 31 (string_of_bytes [34; 230; 182; 136; 230; 129; 175; 34]%N) 13 0 false; mkTok 44 (string_of_bytes [47; 47; 32; 230; 179; 168; 233; 135; 138]%N) 13 5 true; mkTok 39 ":" 14 0 false; mkTok 42 "Header" 15 0 false; mkTok 3 "}" 15 7 false; mkTok 40 "," 15 8 false; mkTok 3 "}" 15 9 false; mkTok 37 "MetaData" 15 10 false; mkTok 42 "trueish" 15 19 false; mkTok 2 "{" 15 27 false; mkTok 42 "u" 15 29 false; mkTok 42 "msg_type" 15 31 false; mkTok 40 "," 16 0 false; mkTok 14 "zchar[" 16 2 false; mkTok 44 "// 50% %s" 17 0 true; mkTok 44 "// 50% %s" 18 0 true; mkTok 30 "00" 19 0 false; mkTok 13 "]" 19 3 false; mkTok 42 "crc" 19 5 false; mkTok 40 "," 19 9 false; mkTok 28 "f32" 19 11 false; mkTok 42 "A" 20 4 false; mkTok 43 "``" 20 6 false; mkTok 40 "," 20 9 false; mkTok 44 (string_of_bytes [47; 47; 9; 116]%N) 21 4 true; mkTok 22 "uint32" 22 4 false; mkTok 42 "options1" 22 11 false; mkTok 40 "," 22 20 false; mkTok 16 "char[]" 22 22 false; mkTok 42 "zchar" 23 4 false; mkTok 43 (string_of_bytes [96; 10; 96]%N) 23 10 false; mkTok 40 "," 24 2 false; mkTok 44 "// packet A { u8 x, }" 24 4 true; mkTok 3 "}" 25 0 false; mkTok 0 "<EOF>" 25 1 false] (mkPacket (mkPtok 35 "packet" 1 2 0) (Some (mkPtok 3 "}" 25 0 70)) [(DPacket (mkPacketDef (mkSpan (mkPtok 35 "packet" 1 2 0) (mkPtok 3 "}" 15 9 43)) None (mkPtok 35 "packet" 1 2 0) (mkPtok 42 "asx" 2 0 1) (mkPtok 2 "{" 2 4 2) [(mkFieldWithAttr (mkSpan (mkPtok 42 "float" 2 6 3) (mkPtok 40 "," 3 0 8)) [] (CheckSumField (mkSpan (mkPtok 42 "float" 2 6 3) (mkPtok 40 "," 3 0 8)) (mkChecksumFieldDecl (mkSpan (mkPtok 42 "float" 2 6 3) (mkPtok 40 "," 3 0 8)) None (mkPtok 42 "float" 2 6 3) (mkCalculatedFrom (mkSpan (mkPtok 5 "@calculatedFrom(" 2 12 4) (mkPtok 6 ")" 2 36 6)) (mkPtok 5 "@calculatedFrom(" 2 12 4) (mkPtok 31 """a\""b""" 2 29 5) (mkPtok 6 ")" 2 36 6)) None (mkPtok 40 "," 3 0 8)))); (mkFieldWithAttr (mkSpan (mkPtok 42 "Pad" 4 0 9) (mkPtok 40 "," 4 13 11)) [] (ObjectField (mkSpan (mkPtok 42 "Pad" 4 0 9) (mkPtok 40 "," 4 13 11)) None (mkPtok 42 "Pad" 4 0 9) (Some (mkPtok 42 "msg_type" 4 4 10)) None (mkPtok 40 "," 4 13 11))); (mkFieldWithAttr (mkSpan (mkPtok 5 "@calculatedFrom(" 5 0 12) (mkPtok 40 "," 15 8 42)) [(FACalculatedFrom (mkSpan (mkPtok 5 "@calculatedFrom(" 5 0 12) (mkPtok 6 ")" 7 0 15)) (mkCalculatedFrom (mkSpan (mkPtok 5 "@calculatedFrom(" 5 0 12) (mkPtok 6 ")" 7 0 15)) (mkPtok 5 "@calculatedFrom(" 5 0 12) (mkPtok 31 """CRC32""" 6 4 13) (mkPtok 6 ")" 7 0 15)))] (MatchField (mkSpan (mkPtok 38 "match" 7 2 16) (mkPtok 40 "," 15 8 42)) (mkMatchFieldDecl (mkSpan (mkPtok 38 "match" 7 2 16) (mkPtok 3 "}" 15 7 41)) (mkPtok 38 "match" 7 2 16) (mkPtok 42 "chars" 7 8 17) (mkPtok 17 "as" 7 14 18) (mkPtok 42 "Foo" 8 0 20) (mkPtok 2 "{" 9 4 21) [(mkMatchPair (mkSpan (mkPtok 31 """1""" 9 6 22) (mkPtok 40 "," 9 18 25)) (MKString (mkPtok 31 """1""" 9 6 22)) (mkPtok 39 ":" 9 10 23) (mkPtok 42 "x_y_z" 9 12 24) (Some (mkPtok 40 "," 9 18 25))); (mkMatchPair (mkSpan (mkPtok 31 """1""" 9 20 26) (mkPtok 40 "," 10 4 29)) (MKString (mkPtok 31 """1""" 9 20 26)) (mkPtok 39 ":" 10 0 27) (mkPtok 42 "o" 10 2 28) (Some (mkPtok 40 "," 10 4 29))); (mkMatchPair (mkSpan (mkPtok 30 "4294967296" 10 6 30) (mkPtok 42 "tag" 10 20 32)) (MKDigits (mkPtok 30 "4294967296" 10 6 30)) (mkPtok 39 ":" 10 18 31) (mkPtok 42 "tag" 10 20 32) None); (mkMatchPair (mkSpan (mkPtok 30 "7" 10 24 33) (mkPtok 40 "," 12 9 36)) (MKDigits (mkPtok 30 "7" 10 24 33)) (mkPtok 39 ":" 11 0 34) (mkPtok 42 "trueish" 12 0 35) (Some (mkPtok 40 "," 12 9 36))); (mkMatchPair (mkSpan (mkPtok 31 (string_of_bytes [34; 230; 182; 136; 230; 129; 175; 34]%N) 13 0 37) (mkPtok 42 "Header" 15 0 40)) (MKString (mkPtok 31 (string_of_bytes [34; 230; 182; 136; 230; 129; 175; 34]%N) 13 0 37)) (mkPtok 39 ":" 14 0 39) (mkPtok 42 "Header" 15 0 40) None)] (mkPtok 3 "}" 15 7 41)) (mkPtok 40 "," 15 8 42)))] (mkPtok 3 "}" 15 9 43))); (DMeta (mkMetaDef (mkSpan (mkPtok 37 "MetaData" 15 10 44) (mkPtok 3 "}" 25 0 70)) (mkPtok 37 "MetaData" 15 10 44) (mkPtok 42 "trueish" 15 19 45) (mkPtok 2 "{" 15 27 46) [(MIRef (mkRefMetaDecl (mkSpan (mkPtok 42 "u" 15 29 47) (mkPtok 40 "," 16 0 49)) (mkPtok 42 "u" 15 29 47) (mkPtok 42 "msg_type" 15 31 48) None (mkPtok 40 "," 16 0 49))); (MIDecl (mkMetaDecl (mkSpan (mkPtok 14 "zchar[" 16 2 50) (mkPtok 40 "," 19 9 56)) (TyFixed (mkSpan (mkPtok 14 "zchar[" 16 2 50) (mkPtok 13 "]" 19 3 54)) (mkFixedString (mkSpan (mkPtok 14 "zchar[" 16 2 50) (mkPtok 13 "]" 19 3 54)) (mkPtok 14 "zchar[" 16 2 50) (mkPtok 30 "00" 19 0 53) (mkPtok 13 "]" 19 3 54))) (mkPtok 42 "crc" 19 5 55) None (mkPtok 40 "," 19 9 56))); (MIDecl (mkMetaDecl (mkSpan (mkPtok 28 "f32" 19 11 57) (mkPtok 40 "," 20 9 60)) (TyBasic (mkSpan (mkPtok 28 "f32" 19 11 57) (mkPtok 28 "f32" 19 11 57)) (mkBasicType (mkSpan (mkPtok 28 "f32" 19 11 57) (mkPtok 28 "f32" 19 11 57)) (mkPtok 28 "f32" 19 11 57))) (mkPtok 42 "A" 20 4 58) (Some (mkPtok 43 "``" 20 6 59)) (mkPtok 40 "," 20 9 60))); (MIDecl (mkMetaDecl (mkSpan (mkPtok 22 "uint32" 22 4 62) (mkPtok 40 "," 22 20 64)) (TyBasic (mkSpan (mkPtok 22 "uint32" 22 4 62) (mkPtok 22 "uint32" 22 4 62)) (mkBasicType (mkSpan (mkPtok 22 "uint32" 22 4 62) (mkPtok 22 "uint32" 22 4 62)) (mkPtok 22 "uint32" 22 4 62))) (mkPtok 42 "options1" 22 11 63) None (mkPtok 40 "," 22 20 64))); (MIDecl (mkMetaDecl (mkSpan (mkPtok 16 "char[]" 22 22 65) (mkPtok 40 "," 24 2 68)) (TyDynamic (mkSpan (mkPtok 16 "char[]" 22 22 65) (mkPtok 16 "char[]" 22 22 65)) (mkDynamicString (mkSpan (mkPtok 16 "char[]" 22 22 65) (mkPtok 16 "char[]" 22 22 65)) (mkPtok 16 "char[]" 22 22 65))) (mkPtok 42 "zchar" 23 4 66) (Some (mkPtok 43 (string_of_bytes [96; 10; 96]%N) 23 10 67)) (mkPtok 40 "," 24 2 68)))] (mkPtok 3 "}" 25 0 70)))])).
+Eval vm_compute in ("<<<M248>>>" ++ check (runes_of_ascii "root packet charz
+    {
+o A , } root packet charz
+{char[] repeatCount  @lengthOf(  tag )	`line1
+line2` , repeat pack`two words`
+,	T { // packet A { u8 x, }
+string rootA @calculatedFrom( ""{,}"" ) ,}, repeat
+// " ++ [27880; 37322]%N ++ runes_of_ascii "
+// " ++ [128512]%N ++ runes_of_ascii " emoji
+As Foo ,
+// packet A { u8 x, }
+// c
+char[
+    3 ]trueish , @calculatedFrom( """"  ) @lengthOf( metadata )
+@leftPad (
+    '0' )  repeat u64 float`u8 x,`
+, stringy{ metadata {//x
+u8 f32a
+// c
+// " ++ [27880; 37322]%N ++ runes_of_ascii "
+`" ++ [28040; 24687; 31867; 22411]%N ++ runes_of_ascii "`, repeat char[
+    /// triple
+    007
+    ] f32a`two words`,  } , asx , float64
+i8i8
+    ,
+//x
+// packet A { u8 x, }
+} , match lengthOf
+as zchar {	00 // c
+:
+o
+,
+}, }options // packet A { u8 x, }
+{
+tag
+    =65535;
+/// triple
+// 50% %s
+float = 0}	packet T {
+repeat
+    // 50% %s
+    x_y_z o
+`it's` ,A { Pad@calculatedFrom(	""\n"" ),	zchar[00
+    ]i64_
+@lengthOf( Z9_ )
+`u8 x,` ,
+u64 u8x
+@calculatedFrom(
+    // trailing space 
+    ""it's"" )
+, }
+, match
+Header as f32a { [
+    1
+    , // " ++ [27880; 37322]%N ++ runes_of_ascii "
+0123456789  ] : int } , // packet A { u8 x, }
+char[]
+    roots @calculatedFrom("""" )`say ""hi""` ,
+    @leftPad ( ) a1 chars , }
+//	t
+")).
+Eval vm_compute in ("<<<M280>>>" ++ check (runes_of_ascii "// trailing space 
+root packet
+    matchKey {u128 // c
+, uint8 x
+@calculatedFrom( """ ++ [233]%N ++ runes_of_ascii "t" ++ [233]%N ++ runes_of_ascii """ // " ++ [27880; 37322]%N ++ runes_of_ascii "
 )
 ,
-}packet
-trueish {
-@calculatedFrom( ""a\\"") @rightPad
-    ('0' ) // `tick` ""quote"" 'q'
-@lengthOf( BodyLength
-) string asx @lengthOf( A	),
-//x
-/// triple
-@rightPad (
-' '
-) match pack
-    // @lengthOf(
-    as leftPad
-{  [
-1 ]// a // b
-:
-body , [ ""a	b""]
-:msg_type , // `tick` ""quote"" 'q'
-10 :calculatedFrom ,7 : packetx,
-""" ++ [233]%N ++ runes_of_ascii "t" ++ [233]%N ++ runes_of_ascii """
-: roots ,	}
-    ,@calculatedFrom(""1""
-    )  repeat roots
-    // c
-    u8x
-    ,}
-")).
-Eval vm_compute in ("<<<M56>>>" ++ check (runes_of_ascii "root packet calculatedFrom
-{ /// triple
-@calculatedFrom( // packet A { u8 x, }
-""{,}"" ) match asx
-as i8i8 { ""CRC32"" :f32a	,
-    ""// no comment""	:Packet
-    ,// trailing space 
-}
-,
-    repeat zchar[ 7 ] len , //
-match	options1// c
-as string_	{""" ++ [128512]%N ++ runes_of_ascii """ : metadata ,	[""\n""
-// `tick` ""quote"" 'q'
-//
-,
-    ""CRC32"" , ""a\""b""]
-:
-// " ++ [128512]%N ++ runes_of_ascii " emoji
-// " ++ [128512]%N ++ runes_of_ascii " emoji
-x_y_z // " ++ [27880; 37322]%N ++ runes_of_ascii "
-, 42
-: string_	},@lengthOf(
-msg_type) string Pad
-// trailing space 
-// @lengthOf(
-`tab	here` ,
-f32a
-, match  Logon as stringy { 007
-    :
-    metadata	, [ 255 , 10 ] : matchKey, [
-10 ,""1"",	""`tick`"" , 0]:roots , 255
-// @lengthOf(
-// c
-: o,	[ 1 ]
-: msg_type  , 0123456789
-: falsey	} , } root packet
-crc { }
-    options
-    { falsey =
-false ;len =
-""\" ++ [233]%N ++ runes_of_ascii """// " ++ [27880; 37322]%N ++ runes_of_ascii "
-;A
-=
-""a	b""	lengthOf	= ""1""}
-")).
-Eval vm_compute in ("<<<M88>>>" ++ check (runes_of_ascii "MetaData rootA
-    {}
-options{ rootA= '\x00' zchar
-    ='0' rootA= float64 ;  trueish	= 3 i64_
-= float64 ; } options{
-    body
-= '0'
-    ;T= ""CRC32"";matchKey = char[] ; }	packet
-rootA {
-    // " ++ [128512]%N ++ runes_of_ascii " emoji
-    @lengthOf( //
-Z9_)
-    @rightPad('0' ) Packet calculatedFrom , }packet
-body
-    { match metadata
-as asx {
-    3 : Header 3: packetx	, [  10]
-:	Packet, """"
+i64
+    f32a @calculatedFrom(
+    """ ++ [28040; 24687]%N ++ runes_of_ascii """
+)
+`crlf
+line`  ,}
+    MetaData
+    zchar // packet A { u8 x, }
+{ // a // b
+char[4294967296 ]
 // " ++ [27880; 37322]%N ++ runes_of_ascii "
-// @lengthOf(
-: pack
-,
-10  :
-    // packet A { u8 x, }
-    pack [  255 // `tick` ""quote"" 'q'
-, // `tick` ""quote"" 'q'
-""""
-    , 00 // a // b
-,""it's""] :
-x } ,
-}
-
-")).
-Eval vm_compute in ("<<<M120>>>" ++ check (runes_of_ascii "
-MetaData stringy
-{
-    i16
-    f32a , string  crc `crlf
-line`
-, f32 o `doc` , float64
-calculatedFrom , }	packet o
-{ @leftPad // `tick` ""quote"" 'q'
-( )string_
-    @lengthOf(packetx // `tick` ""quote"" 'q'
-), }
-")).
-Eval vm_compute in ("<<<M152>>>" ++ check (@nil rune)).
-Eval vm_compute in ("<<<M184>>>" ++ check (runes_of_ascii "root packet
-repeatCount{ } // trailing space ")).
-Eval vm_compute in ("<<<M216>>>" ++ check (runes_of_ascii "
-")).
-Eval vm_compute in ("<<<T216>>>" ++ terms [mkTok 0 "<EOF>" 2 0 false] (mkPacket (mkPtok 0 "<EOF>" 2 0 0) None [])).
-Eval vm_compute in ("<<<M248>>>" ++ check (runes_of_ascii "packet
-//
-// " ++ [128512]%N ++ runes_of_ascii " emoji
-body	{ @calculatedFrom(""" ++ [233]%N ++ runes_of_ascii "t" ++ [233]%N ++ runes_of_ascii """
-) body {o@calculatedFrom(  """ ++ [233]%N ++ runes_of_ascii "t" ++ [233]%N ++ runes_of_ascii """ ), }
-,  char  i8i8 @lengthOf(	int ) `doc` ,	@rightPad ( )
-char[0 ] tag@lengthOf( repeatCount ), @calculatedFrom("""" ) x
-@calculatedFrom(""" ++ [28040; 24687]%N ++ runes_of_ascii """ )
-, @calculatedFrom( """"
-)// c
-Packet `u8 x,`
-    , // trailing space 
-string x_y_z, string_ charz
-    `doc` ,	match packetx as
-string_ {
-    00  : asx , [  ""\n""] // " ++ [128512]%N ++ runes_of_ascii " emoji
-: float , [""" ++ [28040; 24687]%N ++ runes_of_ascii """
-// @lengthOf(
 /// triple
-, 3
-] :
-    Foo, [ 0123456789 ,  ""1""
-] : o	""\" ++ [233]%N ++ runes_of_ascii """
-    : _x  ,  0123456789
-: matchKey
-} , @rightPad (
-' ')stringy
-    { match calculatedFrom as o	{// c
-1
-:
-x_y_z
-, 007:pack
-    ,3 : asx
+string_ , x
+i8i8
+    , char[ 7 ]// " ++ [27880; 37322]%N ++ runes_of_ascii "
+Z9_
+    `tab	here`, }
     // trailing space 
-    , // " ++ [27880; 37322]%N ++ runes_of_ascii "
-} ,
-} , @calculatedFrom( """"
-    ) @tag(  4294967296 ) repeat i64// packet A { u8 x, }
-chars  ,	} packet roots { }root
-packet	rootA { @tag( 255 ) pack
-`it's`, @lengthOf( f32a ) @tag(
-    // a // b
-    1 )
-    @tag(
-    7)
-    // " ++ [128512]%N ++ runes_of_ascii " emoji
-    Foo	@calculatedFrom(
+    root packet
+o{@leftPad
+    ('\x00'
+)
 //x
-//
-""" ++ [128512]%N ++ runes_of_ascii """ ) , repeat calculatedFrom { string leftPad
-    `doc` ,repeat
-crc{ pack @calculatedFrom( ""\" ++ [233]%N ++ runes_of_ascii """) ,
-    } , }, string_ { match
-i64_ as u8x  { 0 :
-    _x
-, } ,
-}	, @lengthOf( u128
-    ) // trailing space 
-match asx as charz
-{ [ """" ,	4294967296 ] : A,// trailing space 
-1 : options1 , 4294967296 :  pack 42 :charz
-, [ ""`tick`"" , // a // b
-""x y"" /// triple
-, // " ++ [27880; 37322]%N ++ runes_of_ascii "
-255
-] // packet A { u8 x, }
-: stringy ,} ,
-@rightPad (' ' ) @lengthOf(// c
-Packet
-    ) repeat uint8x trueish ,
-} MetaData i8i8
-    { zchar[
-10]Z9_ , zchar[ 0 ] Header
-    `a\`, stringy roots // " ++ [27880; 37322]%N ++ runes_of_ascii "
-,}
-    packet options1 // c
+// 50% %s
+@tag( 10 ) @tag(
+    10) string // " ++ [128512]%N ++ runes_of_ascii " emoji
+u`doc` ,
+    @leftPad( )char[65535
+// trailing space 
+// packet A { u8 x, }
+]
+    //	t
+    body ,
+/// triple
+// 50% %s
+repeat pack  {rootA ``,//	t
+repeat body // packet A { u8 x, }
+, string Packet// trailing space 
+, }
+    , @lengthOf( stringy )
+    // trailing space 
+    repeat _x { BodyLength// trailing space 
 {
-    char[10
-] Pad @calculatedFrom( ""\n"") `// not a comment` , roots , @calculatedFrom( ""x y""
-)	zchar, @rightPad ( '0' )
-    repeat
-string
-//x
-//
-roots`say ""hi""` ,}
-")).
-Eval vm_compute in ("<<<M280>>>" ++ check (runes_of_ascii "  packet
-chars	{ }
-")).
-Eval vm_compute in ("<<<M312>>>" ++ check (runes_of_ascii "MetaData  metadata
-{	char[65535]	x ,
-    // c
-    char[]
-    u128, pack Z9_ , }
-    packet // " ++ [27880; 37322]%N ++ runes_of_ascii "
-a1{ repeat float repeatCount, }
-")).
-Eval vm_compute in ("<<<M344>>>" ++ check (runes_of_ascii "packet
-pack
-    { pack calculatedFrom, len, u16	T,
-@lengthOf( trueish) repeat
-leftPad ,
-@calculatedFrom( """ ++ [233]%N ++ runes_of_ascii "t" ++ [233]%N ++ runes_of_ascii """	) @rightPad	( '0' ) f64 a1,repeat
-trueish Header , } 	 ")).
-Eval vm_compute in ("<<<M376>>>" ++ check (runes_of_ascii "options
-{
-// @lengthOf(
-// " ++ [128512]%N ++ runes_of_ascii " emoji
-x = 10//
-; x_y_z//
-=
-    true	;
-Logon =
-    i32 T =
-    0 }
-MetaData
-f32a	{ zchar len,
-    }
-    options {string_
+    repeatCount
 // c
+/// triple
+{zchar[65535 ] As
+,
+// @lengthOf(
+// c
+options1  ,
+float32
+    len, zchar[7
+// packet A { u8 x, }
+// c
+]
+rootA
+`u8 x,` // `tick` ""quote"" 'q'
+,
+}, i64  falsey @lengthOf(uint8x ) ,
+char[
+    00 ]
+crc
+,
+}  , } , tag
+@calculatedFrom(
+""// no comment""
+)	`100% of %d`, }
+packet
+Pad { f32
+    Logon`
+`, body
+    @lengthOf(
+u8x)
+    `" ++ [28040; 24687; 31867; 22411]%N ++ runes_of_ascii "` , @lengthOf( Z9_// " ++ [128512]%N ++ runes_of_ascii " emoji
+) packetx @calculatedFrom( """ ++ [28040; 24687]%N ++ runes_of_ascii """
+)  ,x
+{ zchar[
+    3 ]
+    body
+,Header
+@calculatedFrom(""a	b""), char[]	u128 `it's` // @lengthOf(
+, i8 metadata ,}
+    , match i64_ as string_ { [ 3 ,
+255 // c
+,
+    007
+    , ""packet""
+    ,65535
+// @lengthOf(
+// 50% %s
+,""// no comment"",
+""a	b"" ,// packet A { u8 x, }
+007] // trailing space 
+:options1 4294967296
+    // " ++ [27880; 37322]%N ++ runes_of_ascii "
+    : len,
+""CRC32""	:pack
+""" ++ [28040; 24687]%N ++ runes_of_ascii """
+    : options1
+    , [0 // `tick` ""quote"" 'q'
+]
+    // `tick` ""quote"" 'q'
+    : Header ,[ 00 ]
+    : As // trailing space 
+, }
+,@lengthOf(
+    // c
+    tag ) metadata @calculatedFrom(
+""CRC32"" )
+    ,//	t
+@tag( // packet A { u8 x, }
+3)repeat //x
+string pack , Pad ,@rightPad ( )  tag { leftPad @calculatedFrom(  """ ++ [233]%N ++ runes_of_ascii "t" ++ [233]%N ++ runes_of_ascii """	),
+string chars ,
+    char[
+4294967296 ]
+i64_
+`" ++ [233]%N ++ runes_of_ascii "` , repeat charz
+zchar,  }
+    ,} options { pack
+=""abc"" ;pack = i8// packet A { u8 x, }
+; }")).
+Eval vm_compute in ("<<<M312>>>" ++ check (runes_of_ascii "options	{ zchar//
+=
+false  i64_= ' ' ; x = //
+true ; Z9_	= zchar[
+10 ] ;msg_type = i64 }  root packet
+// `tick` ""quote"" 'q'
+// @lengthOf(
+lengthOf { repeat zchar[ 007]  A /// triple
+,
+// `tick` ""quote"" 'q'
+// `tick` ""quote"" 'q'
+} options {
+options1 =
+0123456789}
+")).
+Eval vm_compute in ("<<<M344>>>" ++ check (runes_of_ascii "
+packet charz { i64 MetaDataX `doc` // " ++ [27880; 37322]%N ++ runes_of_ascii "
+, } options
+{lengthOf = ' ' ; A = 3}// @lengthOf(
+packet packetx { @lengthOf( Z9_) string
+    // c
+    x ,	} packet msg_type { }
+//	t
 //
-= zchar[
-007 ] ;
-x_y_z = '0'
-    ;
-}MetaData msg_type // " ++ [27880; 37322]%N ++ runes_of_ascii "
-{ lengthOf msg_type `two words`
-    ,	i64 crc , packetx  zchar
-`// not a comment`
-, string// c
-falsey `tab	here` , }
+packet As {
+//	t
+// packet A { u8 x, }
+repeat Pad
+{ f64
+    o@calculatedFrom(
+    ""a	b"" ),},}
+")).
+Eval vm_compute in ("<<<M376>>>" ++ check (runes_of_ascii "options { asx
+= true //
+Header = char[4294967296
+    ]
+;pack
+    // " ++ [128512]%N ++ runes_of_ascii " emoji
+    =//x
+1;
+    x_y_z =
+42 ;
+//
+// " ++ [128512]%N ++ runes_of_ascii " emoji
+Z9_
+    =
+    zchar[ 7 ] }
 ")).
 Eval vm_compute in ("<<<M408>>>" ++ check (runes_of_ascii "
-options{ }MetaData len {	crc Foo,
-    char[]
-x_y_z `// not a comment` ,  } options  {a1= """ ++ [128512]%N ++ runes_of_ascii """ ; _x  =
-0123456789 _x =
-true u8x
-    = ""packet"" trueish=string// " ++ [27880; 37322]%N ++ runes_of_ascii "
-;} //")).
-Eval vm_compute in ("<<<M440>>>" ++ check (runes_of_ascii "MetaData T { char[] packetx //	t
-,//
-Packet
-    u ,i32 _x , uint16
-    asx, }
-")).
-Eval vm_compute in ("<<<T440>>>" ++ terms [mkTok 37 "MetaData" 1 0 false; mkTok 42 "T" 1 9 false; mkTok 2 "{" 1 11 false; mkTok 16 "char[]" 1 13 false; mkTok 42 "packetx" 1 20 false; mkTok 44 (string_of_bytes [47; 47; 9; 116]%N) 1 28 true; mkTok 40 "," 2 0 false; mkTok 44 "//" 2 1 true; mkTok 42 "Packet" 3 0 false; mkTok 42 "u" 4 4 false; mkTok 40 "," 4 6 false; mkTok 26 "i32" 4 7 false; mkTok 42 "_x" 4 11 false; mkTok 40 "," 4 14 false; mkTok 21 "uint16" 4 16 false; mkTok 42 "asx" 5 4 false; mkTok 40 "," 5 7 false; mkTok 3 "}" 5 9 false; mkTok 0 "<EOF>" 6 0 false] (mkPacket (mkPtok 37 "MetaData" 1 0 0) (Some (mkPtok 3 "}" 5 9 17)) [(DMeta (mkMetaDef (mkSpan (mkPtok 37 "MetaData" 1 0 0) (mkPtok 3 "}" 5 9 17)) (mkPtok 37 "MetaData" 1 0 0) (mkPtok 42 "T" 1 9 1) (mkPtok 2 "{" 1 11 2) [(MIDecl (mkMetaDecl (mkSpan (mkPtok 16 "char[]" 1 13 3) (mkPtok 40 "," 2 0 6)) (TyDynamic (mkSpan (mkPtok 16 "char[]" 1 13 3) (mkPtok 16 "char[]" 1 13 3)) (mkDynamicString (mkSpan (mkPtok 16 "char[]" 1 13 3) (mkPtok 16 "char[]" 1 13 3)) (mkPtok 16 "char[]" 1 13 3))) (mkPtok 42 "packetx" 1 20 4) None (mkPtok 40 "," 2 0 6))); (MIRef (mkRefMetaDecl (mkSpan (mkPtok 42 "Packet" 3 0 8) (mkPtok 40 "," 4 6 10)) (mkPtok 42 "Packet" 3 0 8) (mkPtok 42 "u" 4 4 9) None (mkPtok 40 "," 4 6 10))); (MIDecl (mkMetaDecl (mkSpan (mkPtok 26 "i32" 4 7 11) (mkPtok 40 "," 4 14 13)) (TyBasic (mkSpan (mkPtok 26 "i32" 4 7 11) (mkPtok 26 "i32" 4 7 11)) (mkBasicType (mkSpan (mkPtok 26 "i32" 4 7 11) (mkPtok 26 "i32" 4 7 11)) (mkPtok 26 "i32" 4 7 11))) (mkPtok 42 "_x" 4 11 12) None (mkPtok 40 "," 4 14 13))); (MIDecl (mkMetaDecl (mkSpan (mkPtok 21 "uint16" 4 16 14) (mkPtok 40 "," 5 7 16)) (TyBasic (mkSpan (mkPtok 21 "uint16" 4 16 14) (mkPtok 21 "uint16" 4 16 14)) (mkBasicType (mkSpan (mkPtok 21 "uint16" 4 16 14) (mkPtok 21 "uint16" 4 16 14)) (mkPtok 21 "uint16" 4 16 14))) (mkPtok 42 "asx" 5 4 15) None (mkPtok 40 "," 5 7 16)))] (mkPtok 3 "}" 5 9 17)))])).
-Eval vm_compute in ("<<<M472>>>" ++ check (runes_of_ascii "// trailing space 
-options{	tag =""1""	; } // @lengthOf(")).
-Eval vm_compute in ("<<<M504>>>" ++ check (runes_of_ascii "packet
-    o {  asx @calculatedFrom( ""CRC32""	)// " ++ [27880; 37322]%N ++ runes_of_ascii "
-`it's`
-    ,// @lengthOf(
-@tag( 255 )
-int16 T	, string
-msg_type `
-`
-, } // trailing space 
-packet Z9_ {	}
-")).
-Eval vm_compute in ("<<<M536>>>" ++ check (runes_of_ascii "options {tag =	false
-    ;  } root packet MetaDataX {repeat a1 { // packet A { u8 x, }
-match options1 as _x { [ ""1""
-    ] :
-    //	t
-    leftPad
-, """" :Z9_ ,  ""a	b"" :leftPad ,
-/// triple
-// " ++ [128512]%N ++ runes_of_ascii " emoji
-},
-} , o , // @lengthOf(
-@lengthOf( x ) calculatedFrom { repeat charz ,char[ 0123456789 ]
-Pad , } , } // a // b
-MetaData roots
-{ }
-packet
-// `tick` ""quote"" 'q'
-//	t
-T {
-match metadata // " ++ [128512]%N ++ runes_of_ascii " emoji
-as BodyLength {
-    0 : Packet ,
-""" ++ [233]%N ++ runes_of_ascii "t" ++ [233]%N ++ runes_of_ascii """
-: f32a, //x
-""// no comment""
-: float ,
-// packet A { u8 x, }
-//	t
-}, }
-")).
-Eval vm_compute in ("<<<M568>>>" ++ check (runes_of_ascii "
-packet repeatCount {uint64
-stringy, } options {
-crc
-    = '0' } //x
-packet int{ repeat
-a1 charz ,
-    }options { matchKey = """ ++ [28040; 24687]%N ++ runes_of_ascii """  ;
-    crc = """ ++ [28040; 24687]%N ++ runes_of_ascii """ ;roots= // `tick` ""quote"" 'q'
-'\x00'
-;
-// packet A { u8 x, }
-//x
-} packet i8i8{ @calculatedFrom( ""abc""
-) char[]_x `
-`
-,/// triple
-uint8 Packet// a // b
-`crlf
-line` , string_ `{ , }` // " ++ [27880; 37322]%N ++ runes_of_ascii "
-,
-/// triple
-// " ++ [128512]%N ++ runes_of_ascii " emoji
-}")).
-Eval vm_compute in ("<<<M600>>>" ++ check (runes_of_ascii "root packet a1
-{ repeat
-    /// triple
-    zchar[
-    42 ] x_y_z
-,@tag( 65535 )@tag(
-    // c
-    7
-    )// " ++ [128512]%N ++ runes_of_ascii " emoji
-@lengthOf( // c
-A	)	string
-//
-// " ++ [27880; 37322]%N ++ runes_of_ascii "
-calculatedFrom ,
-    string
-    uint8x
-    ,
-    } MetaData
-    // trailing space 
-    MetaDataX
+packet u // " ++ [27880; 37322]%N ++ runes_of_ascii "
+{ @calculatedFrom( """ ++ [28040; 24687]%N ++ runes_of_ascii """) repeat leftPad
 {
-}")).
-Eval vm_compute in ("<<<M632>>>" ++ check (runes_of_ascii "MetaData
-As  {BodyLength roots	, uint8x
-    uint8x
-    , } packet pack
+// `tick` ""quote"" 'q'
+//x
+zchar[
+    7]
+    u
+    ,	}
+    , @calculatedFrom( ""\n"" )
+    @lengthOf(  matchKey
+    // a // b
+    )
+    BodyLength
+    @lengthOf(calculatedFrom
     /// triple
-    { lengthOf `crlf
-line` , char
-i8i8 ,
-@tag( 4294967296) zchar[ 1 ] Header `say ""hi""` , @tag(4294967296 )
-    string chars,	}
-// trailing space 
-")).
-Eval vm_compute in ("<<<M664>>>" ++ check (runes_of_ascii "  options { u8x =/// triple
-zchar[ 00 ] ; }")).
-Eval vm_compute in ("<<<T664>>>" ++ terms [mkTok 1 "options" 1 2 false; mkTok 2 "{" 1 10 false; mkTok 42 "u8x" 1 12 false; mkTok 4 "=" 1 16 false; mkTok 44 "/// triple" 1 17 true; mkTok 14 "zchar[" 2 0 false; mkTok 30 "00" 2 7 false; mkTok 13 "]" 2 10 false; mkTok 41 ";" 2 12 false; mkTok 3 "}" 2 14 false; mkTok 0 "<EOF>" 2 15 false] (mkPacket (mkPtok 1 "options" 1 2 0) (Some (mkPtok 3 "}" 2 14 9)) [(DOption (mkOptionDef (mkSpan (mkPtok 1 "options" 1 2 0) (mkPtok 3 "}" 2 14 9)) (mkPtok 1 "options" 1 2 0) (mkPtok 2 "{" 1 10 1) [(mkOptionDecl (mkSpan (mkPtok 42 "u8x" 1 12 2) (mkPtok 41 ";" 2 12 8)) (mkPtok 42 "u8x" 1 12 2) (mkPtok 4 "=" 1 16 3) (VType (mkSpan (mkPtok 14 "zchar[" 2 0 5) (mkPtok 13 "]" 2 10 7)) (TyFixed (mkSpan (mkPtok 14 "zchar[" 2 0 5) (mkPtok 13 "]" 2 10 7)) (mkFixedString (mkSpan (mkPtok 14 "zchar[" 2 0 5) (mkPtok 13 "]" 2 10 7)) (mkPtok 14 "zchar[" 2 0 5) (mkPtok 30 "00" 2 7 6) (mkPtok 13 "]" 2 10 7)))) (Some (mkPtok 41 ";" 2 12 8)))] (mkPtok 3 "}" 2 14 9)))])).
-Eval vm_compute in ("<<<M696>>>" ++ check (runes_of_ascii "packet trueish {repeat As,	repeat uint8 repeatCount
-, @tag( 255) match a1 as x_y_z{  3
-    : i8i8 ,
-    ""abc""
-    : Z9_, 007
-/// triple
+    ) `say ""hi""`, len
+roots`it's` , match string_ as
+    Z9_  {
+""abc"" //x
+: repeatCount // packet A { u8 x, }
+,
 //
-: leftPad 65535
-    : x_y_z ""a\""b"" :matchKey, } , @rightPad(' '
-) // `tick` ""quote"" 'q'
-string packetx , // " ++ [128512]%N ++ runes_of_ascii " emoji
-}
+// c
+""abc"" :
+lengthOf  7:
+Packet , ""a\""b""  :
+    falsey
+0123456789 :
+// " ++ [128512]%N ++ runes_of_ascii " emoji
+//x
+_x , ""\" ++ [233]%N ++ runes_of_ascii """:
+    f32a	} , } MetaData u { // 50% %s
+int//	t
+uint8x `" ++ [233]%N ++ runes_of_ascii "`	, char[ 1
+] roots, char[] _x `it's` ,	BodyLength
+trueish `say ""hi""`
+    ,}")).
+Eval vm_compute in ("<<<M440>>>" ++ check (runes_of_ascii "
+root packet leftPad {
+    repeat
+    uint8x	options1 // " ++ [27880; 37322]%N ++ runes_of_ascii "
+, }
+
 ")).
-Eval vm_compute in ("<<<M728>>>" ++ check (runes_of_ascii "  MetaData
-    options1  {
+Eval vm_compute in ("<<<T440>>>" ++ terms [mkTok 34 "root" 2 0 false; mkTok 35 "packet" 2 5 false; mkTok 42 "leftPad" 2 12 false; mkTok 2 "{" 2 20 false; mkTok 36 "repeat" 3 4 false; mkTok 42 "uint8x" 4 4 false; mkTok 42 "options1" 4 11 false; mkTok 44 (string_of_bytes [47; 47; 32; 230; 179; 168; 233; 135; 138]%N) 4 20 true; mkTok 40 "," 5 0 false; mkTok 3 "}" 5 2 false; mkTok 0 "<EOF>" 7 0 false] (mkPacket (mkPtok 34 "root" 2 0 0) (Some (mkPtok 3 "}" 5 2 9)) [(DPacket (mkPacketDef (mkSpan (mkPtok 34 "root" 2 0 0) (mkPtok 3 "}" 5 2 9)) (Some (mkPtok 34 "root" 2 0 0)) (mkPtok 35 "packet" 2 5 1) (mkPtok 42 "leftPad" 2 12 2) (mkPtok 2 "{" 2 20 3) [(mkFieldWithAttr (mkSpan (mkPtok 36 "repeat" 3 4 4) (mkPtok 40 "," 5 0 8)) [] (ObjectField (mkSpan (mkPtok 36 "repeat" 3 4 4) (mkPtok 40 "," 5 0 8)) (Some (mkPtok 36 "repeat" 3 4 4)) (mkPtok 42 "uint8x" 4 4 5) (Some (mkPtok 42 "options1" 4 11 6)) None (mkPtok 40 "," 5 0 8)))] (mkPtok 3 "}" 5 2 9)))])).
+Eval vm_compute in ("<<<M472>>>" ++ check (runes_of_ascii "
+MetaData As // a // b
+{zchar[4294967296
+] T/// triple
+`doc`
+    ,
+int64 trueish
+    ,
+    // a // b
+    i8 calculatedFrom	`
+`, }
+packet packetx{ i64 crc
+    , }")).
+Eval vm_compute in ("<<<M504>>>" ++ check (runes_of_ascii "packet pack	{ i32
+    _x `" ++ [28040; 24687; 31867; 22411]%N ++ runes_of_ascii "` , u8x {
+    //
+    i8 a1 ,}
+    , @calculatedFrom( ""a\""b""
+)
+    @tag(255
+    // @lengthOf(
+    )@calculatedFrom(	""" ++ [28040; 24687]%N ++ runes_of_ascii """
+// " ++ [128512]%N ++ runes_of_ascii " emoji
+// c
+) i32 Logon  ,} options { metadata =	""" ++ [28040; 24687]%N ++ runes_of_ascii """} /// triple")).
+Eval vm_compute in ("<<<M536>>>" ++ check (runes_of_ascii "MetaData tag{
+f64
+// 50% %s
+// `tick` ""quote"" 'q'
+chars `" ++ [233]%N ++ runes_of_ascii "` ,
+    }
+packet string_
+{ @calculatedFrom(
+    """" )char[ 7 // @lengthOf(
+]metadata// @lengthOf(
+@lengthOf(// a // b
+o) , string_ ,
+    charz
+    // 50% %s
+    {
+    char[ 1 ] msg_type// " ++ [128512]%N ++ runes_of_ascii " emoji
+`two words` ,zchar[
+    65535
+] stringy,
+char[ 007 ] roots @lengthOf(
+matchKey ), }
+,// @lengthOf(
+match calculatedFrom
+as
+    // `tick` ""quote"" 'q'
+    calculatedFrom { 10 : leftPad}  , i64_ @calculatedFrom(
+""// no comment"" ),
+    match len as
+BodyLength{ [ ""CRC32"", ""\" ++ [233]%N ++ runes_of_ascii """
+    ]
+:MetaDataX , }
+    ,uint64 trueish `
+` /// triple
+,}")).
+Eval vm_compute in ("<<<M568>>>" ++ check (runes_of_ascii "MetaData Logon {
+    pack roots `{ , }`
+,
+    }packet x // `tick` ""quote"" 'q'
+{
+} options {// packet A { u8 x, }
+} packet crc
+//
+// trailing space 
+{ repeat u64
+    roots`say ""hi""` , zchar[
+    007
+] repeatCount @lengthOf( trueish // " ++ [128512]%N ++ runes_of_ascii " emoji
+),@tag( 0 )
+    charz { A { a1 falsey
+, } ,	match As	as f32a	{ 42 : u8x, } , Logon @calculatedFrom( """" )
+`100% of %d` , } ,falsey @calculatedFrom( ""x y"" ),  repeat
+char[ //
+65535
+    // `tick` ""quote"" 'q'
+    ] rootA `
+`  ,
+@calculatedFrom(
+    ""`tick`"")  @calculatedFrom(
+""a	b"" )
+repeat zchar zchar
+,}
+")).
+Eval vm_compute in ("<<<M600>>>" ++ check (runes_of_ascii "packet metadata {	@calculatedFrom(
+""" ++ [128512]%N ++ runes_of_ascii """ //
+)
+    //
+    repeat chars { repeat
+falsey o
+,
+int32 falsey @calculatedFrom(
+""`tick`"" ) ,
+}	, }	options { // packet A { u8 x, }
+falsey = ""1"" ;matchKey =
+    string ;	BodyLength =""\" ++ [233]%N ++ runes_of_ascii """
+    ;// " ++ [128512]%N ++ runes_of_ascii " emoji
+calculatedFrom =true }packet
+    Foo { _x
+    falsey,string_ x_y_z`two words`
+    , msg_type body
+`say ""hi""`, }
+
+")).
+Eval vm_compute in ("<<<M632>>>" ++ check (runes_of_ascii "options
+{ }  options
+{
+o = uint64 // " ++ [128512]%N ++ runes_of_ascii " emoji
+u =u8 ; charz
+=  00// c
+}packet //	t
+BodyLength{ match u// a // b
+as uint8x
+    { 65535 : // 50% %s
+MetaDataX // " ++ [27880; 37322]%N ++ runes_of_ascii "
+,[""CRC32""
+,
+0// a // b
+,
+65535 ,""CRC32"" , ""\n""	]: Foo ,[ 65535 , """ ++ [233]%N ++ runes_of_ascii "t" ++ [233]%N ++ runes_of_ascii """, ""// no comment""
+    // c
+    ,0123456789
+    ,  """ ++ [28040; 24687]%N ++ runes_of_ascii """,	0 , ""a	b"" // " ++ [128512]%N ++ runes_of_ascii " emoji
+,0123456789 ] : Logon ,
+[ ""{,}"" ,// trailing space 
+1
+]:
+a1, [ """ ++ [128512]%N ++ runes_of_ascii """ ]// a // b
+:	int, 65535 :
+    // packet A { u8 x, }
+    i8i8 , }
+    ,
+repeat
+Packet i8i8 `// not a comment` // " ++ [128512]%N ++ runes_of_ascii " emoji
+, repeat A A	`doc` ,  char[65535 ] roots
+@calculatedFrom(""packet"" ) , repeat int32 trueish ,// trailing space 
+Z9_ body `
+`
+    // " ++ [27880; 37322]%N ++ runes_of_ascii "
+    , @rightPad('0'
+// " ++ [27880; 37322]%N ++ runes_of_ascii "
+// trailing space 
+) i8i8 , }packet
+    Pad { @rightPad
+// packet A { u8 x, }
+// @lengthOf(
+(
+    '\x00'
+    ) match
+i8i8 as
+    Foo {
+//x
+//	t
+0123456789 : As , ""\" ++ [233]%N ++ runes_of_ascii """ : i64_ 3
+// 50% %s
+// a // b
+: len 42: f32a ,// packet A { u8 x, }
+[1 , """ ++ [233]%N ++ runes_of_ascii "t" ++ [233]%N ++ runes_of_ascii """, ""a\""b""
+    ,
+    42
+    ,  007
+, 4294967296 ,
+    // @lengthOf(
+    7
+    ] :o ,
+[007 , 10]
+    // " ++ [27880; 37322]%N ++ runes_of_ascii "
+    :u8x ,
+} , match _x as u128 {
+7
+    : stringy , 1
+: packetx
+, ""1""
+    :	charz , 42 : MetaDataX
+, ""\" ++ [233]%N ++ runes_of_ascii """ : _x	,	[
+3
+    ,
+""`tick`"" ] : BodyLength }
+,
+@tag( 007  )
+@tag(
+    1 )@tag( 10 )
+    u16 packetx `u8 x,` ,@rightPad
+    ( '0')
+    u128	{
+    Foo {  repeat Foo msg_type ,
+repeat char[ 7]i64_ , u@calculatedFrom( ""\" ++ [233]%N ++ runes_of_ascii """) , }
+    ,  zchar[	3
+]
+    // @lengthOf(
+    Foo `" ++ [233]%N ++ runes_of_ascii "` ,u128
+    // " ++ [128512]%N ++ runes_of_ascii " emoji
+    , }
+//	t
+// `tick` ""quote"" 'q'
+,
+char[ 10 ] // packet A { u8 x, }
+body//
+, } packet _x{ @lengthOf(
+    trueish)@leftPad('0'
+    ) int32 As // a // b
+, options1
+    {repeat //
+int  { uint16 u // " ++ [128512]%N ++ runes_of_ascii " emoji
+,zchar
+`a\`  ,char[]
+    trueish ,
+}	,
+//x
+// @lengthOf(
+},
+//
+//	t
+int ,
+@tag( 65535 ) char[] roots , }")).
+Eval vm_compute in ("<<<M664>>>" ++ check (runes_of_ascii "options	{// a // b
+} packet
+    lengthOf { // trailing space 
+u64 string_
+    @lengthOf( MetaDataX )  , } MetaData
+    _x{ char[]
+leftPad `" ++ [233]%N ++ runes_of_ascii "`
+, i64 a1
+    , float32 A `{ , }` , i16 //	t
+crc  , MetaDataX metadata `say ""hi""`,
     }
 ")).
-Eval vm_compute in ("<<<M760>>>" ++ check (runes_of_ascii "MetaData f32a
-    // " ++ [27880; 37322]%N ++ runes_of_ascii "
-    { msg_type u128 , } options {
-    } // packet A { u8 x, }
-root packet body {
-    Packet `say ""hi""` , string
-pack `doc`
-    ,
-//	t
-//	t
-@tag( 10
-)
-lengthOf{	char[]
-    MetaDataX , u16 uint8x
-    @calculatedFrom( """" )  , uint32 options1
-`{ , }`
-// a // b
-//
-, _x
-,	} ,
-} packet int{} MetaData
-u128{ x_y_z
-    As ,
-    msg_type int`two words`,
-    // c
-    pack
-repeatCount ,	tag Z9_
-    , calculatedFrom
-chars // a // b
-`crlf
-line`
-    ,
-}
+Eval vm_compute in ("<<<T664>>>" ++ terms [mkTok 1 "options" 1 0 false; mkTok 2 "{" 1 8 false; mkTok 44 "// a // b" 1 9 true; mkTok 3 "}" 2 0 false; mkTok 35 "packet" 2 2 false; mkTok 42 "lengthOf" 3 4 false; mkTok 2 "{" 3 13 false; mkTok 44 "// trailing space " 3 15 true; mkTok 23 "u64" 4 0 false; mkTok 42 "string_" 4 4 false; mkTok 7 "@lengthOf(" 5 4 false; mkTok 42 "MetaDataX" 5 15 false; mkTok 6 ")" 5 25 false; mkTok 40 "," 5 28 false; mkTok 3 "}" 5 30 false; mkTok 37 "MetaData" 5 32 false; mkTok 42 "_x" 6 4 false; mkTok 2 "{" 6 6 false; mkTok 16 "char[]" 6 8 false; mkTok 42 "leftPad" 7 0 false; mkTok 43 (string_of_bytes [96; 195; 169; 96]%N) 7 8 false; mkTok 40 "," 8 0 false; mkTok 27 "i64" 8 2 false; mkTok 42 "a1" 8 6 false; mkTok 40 "," 9 4 false; mkTok 28 "float32" 9 6 false; mkTok 42 "A" 9 14 false; mkTok 43 "`{ , }`" 9 16 false; mkTok 40 "," 9 24 false; mkTok 25 "i16" 9 26 false; mkTok 44 (string_of_bytes [47; 47; 9; 116]%N) 9 30 true; mkTok 42 "crc" 10 0 false; mkTok 40 "," 10 5 false; mkTok 42 "MetaDataX" 10 7 false; mkTok 42 "metadata" 10 17 false; mkTok 43 "`say ""hi""`" 10 26 false; mkTok 40 "," 10 36 false; mkTok 3 "}" 11 4 false; mkTok 0 "<EOF>" 12 0 false] (mkPacket (mkPtok 1 "options" 1 0 0) (Some (mkPtok 3 "}" 11 4 37)) [(DOption (mkOptionDef (mkSpan (mkPtok 1 "options" 1 0 0) (mkPtok 3 "}" 2 0 3)) (mkPtok 1 "options" 1 0 0) (mkPtok 2 "{" 1 8 1) [] (mkPtok 3 "}" 2 0 3))); (DPacket (mkPacketDef (mkSpan (mkPtok 35 "packet" 2 2 4) (mkPtok 3 "}" 5 30 14)) None (mkPtok 35 "packet" 2 2 4) (mkPtok 42 "lengthOf" 3 4 5) (mkPtok 2 "{" 3 13 6) [(mkFieldWithAttr (mkSpan (mkPtok 23 "u64" 4 0 8) (mkPtok 40 "," 5 28 13)) [] (LengthField (mkSpan (mkPtok 23 "u64" 4 0 8) (mkPtok 40 "," 5 28 13)) (mkLengthFieldDecl (mkSpan (mkPtok 23 "u64" 4 0 8) (mkPtok 40 "," 5 28 13)) (Some (TyBasic (mkSpan (mkPtok 23 "u64" 4 0 8) (mkPtok 23 "u64" 4 0 8)) (mkBasicType (mkSpan (mkPtok 23 "u64" 4 0 8) (mkPtok 23 "u64" 4 0 8)) (mkPtok 23 "u64" 4 0 8)))) (mkPtok 42 "string_" 4 4 9) (mkLengthOf (mkSpan (mkPtok 7 "@lengthOf(" 5 4 10) (mkPtok 6 ")" 5 25 12)) (mkPtok 7 "@lengthOf(" 5 4 10) (mkPtok 42 "MetaDataX" 5 15 11) (mkPtok 6 ")" 5 25 12)) None (mkPtok 40 "," 5 28 13))))] (mkPtok 3 "}" 5 30 14))); (DMeta (mkMetaDef (mkSpan (mkPtok 37 "MetaData" 5 32 15) (mkPtok 3 "}" 11 4 37)) (mkPtok 37 "MetaData" 5 32 15) (mkPtok 42 "_x" 6 4 16) (mkPtok 2 "{" 6 6 17) [(MIDecl (mkMetaDecl (mkSpan (mkPtok 16 "char[]" 6 8 18) (mkPtok 40 "," 8 0 21)) (TyDynamic (mkSpan (mkPtok 16 "char[]" 6 8 18) (mkPtok 16 "char[]" 6 8 18)) (mkDynamicString (mkSpan (mkPtok 16 "char[]" 6 8 18) (mkPtok 16 "char[]" 6 8 18)) (mkPtok 16 "char[]" 6 8 18))) (mkPtok 42 "leftPad" 7 0 19) (Some (mkPtok 43 (string_of_bytes [96; 195; 169; 96]%N) 7 8 20)) (mkPtok 40 "," 8 0 21))); (MIDecl (mkMetaDecl (mkSpan (mkPtok 27 "i64" 8 2 22) (mkPtok 40 "," 9 4 24)) (TyBasic (mkSpan (mkPtok 27 "i64" 8 2 22) (mkPtok 27 "i64" 8 2 22)) (mkBasicType (mkSpan (mkPtok 27 "i64" 8 2 22) (mkPtok 27 "i64" 8 2 22)) (mkPtok 27 "i64" 8 2 22))) (mkPtok 42 "a1" 8 6 23) None (mkPtok 40 "," 9 4 24))); (MIDecl (mkMetaDecl (mkSpan (mkPtok 28 "float32" 9 6 25) (mkPtok 40 "," 9 24 28)) (TyBasic (mkSpan (mkPtok 28 "float32" 9 6 25) (mkPtok 28 "float32" 9 6 25)) (mkBasicType (mkSpan (mkPtok 28 "float32" 9 6 25) (mkPtok 28 "float32" 9 6 25)) (mkPtok 28 "float32" 9 6 25))) (mkPtok 42 "A" 9 14 26) (Some (mkPtok 43 "`{ , }`" 9 16 27)) (mkPtok 40 "," 9 24 28))); (MIDecl (mkMetaDecl (mkSpan (mkPtok 25 "i16" 9 26 29) (mkPtok 40 "," 10 5 32)) (TyBasic (mkSpan (mkPtok 25 "i16" 9 26 29) (mkPtok 25 "i16" 9 26 29)) (mkBasicType (mkSpan (mkPtok 25 "i16" 9 26 29) (mkPtok 25 "i16" 9 26 29)) (mkPtok 25 "i16" 9 26 29))) (mkPtok 42 "crc" 10 0 31) None (mkPtok 40 "," 10 5 32))); (MIRef (mkRefMetaDecl (mkSpan (mkPtok 42 "MetaDataX" 10 7 33) (mkPtok 40 "," 10 36 36)) (mkPtok 42 "MetaDataX" 10 7 33) (mkPtok 42 "metadata" 10 17 34) (Some (mkPtok 43 "`say ""hi""`" 10 26 35)) (mkPtok 40 "," 10 36 36)))] (mkPtok 3 "}" 11 4 37)))])).
+Eval vm_compute in ("<<<M696>>>" ++ check (runes_of_ascii "
 ")).
-Eval vm_compute in ("<<<M792>>>" ++ check (runes_of_ascii "options { packetx
-=zchar[4294967296 ] ; }
-options {	} MetaData uint8x {char[ 3 ]	o `
-`
-// a // b
-// `tick` ""quote"" 'q'
-, crc string_ ,
-    char[]
-int,// trailing space 
-}")).
-Eval vm_compute in ("<<<M824>>>" ++ check (runes_of_ascii "MetaData T{
-int64	i8i8 `` , }
-
-")).
-Eval vm_compute in ("<<<M856>>>" ++ check (runes_of_ascii "MetaData
-zchar{ }
-")).
-Eval vm_compute in ("<<<M888>>>" ++ check (runes_of_ascii "packet u8x {int8 As ,}
-")).
-Eval vm_compute in ("<<<T888>>>" ++ terms [mkTok 35 "packet" 1 0 false; mkTok 42 "u8x" 1 7 false; mkTok 2 "{" 1 11 false; mkTok 24 "int8" 1 12 false; mkTok 42 "As" 1 17 false; mkTok 40 "," 1 20 false; mkTok 3 "}" 1 21 false; mkTok 0 "<EOF>" 2 0 false] (mkPacket (mkPtok 35 "packet" 1 0 0) (Some (mkPtok 3 "}" 1 21 6)) [(DPacket (mkPacketDef (mkSpan (mkPtok 35 "packet" 1 0 0) (mkPtok 3 "}" 1 21 6)) None (mkPtok 35 "packet" 1 0 0) (mkPtok 42 "u8x" 1 7 1) (mkPtok 2 "{" 1 11 2) [(mkFieldWithAttr (mkSpan (mkPtok 24 "int8" 1 12 3) (mkPtok 40 "," 1 20 5)) [] (MetaField (mkSpan (mkPtok 24 "int8" 1 12 3) (mkPtok 40 "," 1 20 5)) None (mkMetaDecl (mkSpan (mkPtok 24 "int8" 1 12 3) (mkPtok 40 "," 1 20 5)) (TyBasic (mkSpan (mkPtok 24 "int8" 1 12 3) (mkPtok 24 "int8" 1 12 3)) (mkBasicType (mkSpan (mkPtok 24 "int8" 1 12 3) (mkPtok 24 "int8" 1 12 3)) (mkPtok 24 "int8" 1 12 3))) (mkPtok 42 "As" 1 17 4) None (mkPtok 40 "," 1 20 5))))] (mkPtok 3 "}" 1 21 6)))])).
-Eval vm_compute in ("<<<M920>>>" ++ check (runes_of_ascii "  MetaData
-a1{leftPad Foo `" ++ [233]%N ++ runes_of_ascii "` , u16
-    BodyLength , } packet packetx
-    { } options{ As
-= """" string_=// c
-true ; } //	t
-packet	zchar  { u128 @lengthOf( stringy ) `" ++ [28040; 24687; 31867; 22411]%N ++ runes_of_ascii "` ,
-Z9_
-As `` ,
+Eval vm_compute in ("<<<M728>>>" ++ check (runes_of_ascii "MetaData // @lengthOf(
+options1 {
     // a // b
-    repeat u128
-body`" ++ [233]%N ++ runes_of_ascii "` , @rightPad	( ' ') @tag( 42 ) match charz
-as a1 {""packet"" :
-i64_	, } , int
-    /// triple
-    @lengthOf( As
-)  `// not a comment`
-//
-//x
-, string body,@calculatedFrom( ""\n"" ) u8 a1, @leftPad( '0'// a // b
-)repeat i64_ `a\` , pack
-    stringy  , zchar[	00 ] len @calculatedFrom(
-//x
-// `tick` ""quote"" 'q'
-""packet"" ) `
-`,// trailing space 
-}
-")).
-Eval vm_compute in ("<<<M952>>>" ++ check (runes_of_ascii "MetaData T {
-// c
-//	t
-trueish i64_ `" ++ [233]%N ++ runes_of_ascii "` // c
-, f64 a1	`doc` ,int A, u32
-crc `" ++ [28040; 24687; 31867; 22411]%N ++ runes_of_ascii "`, charz _x
-/// triple
-// trailing space 
-,
-    // trailing space 
-    char[// packet A { u8 x, }
-255 ] msg_type `" ++ [28040; 24687; 31867; 22411]%N ++ runes_of_ascii "` , }
-")).
-Eval vm_compute in ("<<<M984>>>" ++ check (runes_of_ascii "  packet
-// `tick` ""quote"" 'q'
-//x
-uint8x{zchar[
-    007
-] Header @calculatedFrom( ""a	b"")
-,	}packet i64_{ @lengthOf(
-crc ) /// triple
-string metadata`
-`//	t
-, // trailing space 
-uint8x // " ++ [128512]%N ++ runes_of_ascii " emoji
-{ repeat
-u16
-string_ ,} , // `tick` ""quote"" 'q'
-packetx
-{ zchar[
-    0123456789]calculatedFrom
-@calculatedFrom(
-""" ++ [28040; 24687]%N ++ runes_of_ascii """ ) `crlf
-line`	, tag { zchar[  007 ] tag @calculatedFrom(""1"" )
-, string u ,	repeat
-A
-T
-,
-roots
-@lengthOf( Logon
-    ) ,
-    // `tick` ""quote"" 'q'
-    } , u8x `` , int64 metadata `tab	here` , }
-,
-}  packet rootA{
-@lengthOf( string_) Header A`doc` ,
-match stringy as x {// c
-0123456789: metadata,0 : rootA
-,
-42
-:
-A
-, [ 00 ,""abc"" ]
-:
-T	4294967296 : a1 , // @lengthOf(
-},
-@rightPad
-    (	'0' ) @tag(4294967296 )
-    @tag( 00) char[] Foo @calculatedFrom( ""1"" ) `crlf
-line`, }")).
-Eval vm_compute in ("<<<M1016>>>" ++ check (runes_of_ascii "options {  Packet
-=	0 trueish =
-i8
-;	}
-")).
-Eval vm_compute in ("<<<M1048>>>" ++ check (runes_of_ascii "options
-    { As
-= false}packet
-stringy { @calculatedFrom( """ ++ [128512]%N ++ runes_of_ascii """ ) @calculatedFrom( ""\n"" ) MetaDataX metadata
-, @tag(
-7 ) u64
-    packetx
-, u
-    // trailing space 
-    charz `// not a comment` , @rightPad
-(
-    ) repeat
-    i16	As`{ , }`
-// c
-//	t
-,@rightPad
-    (  ' '
-) /// triple
-@lengthOf(
-uint8x )
-msg_type { repeat options1 // " ++ [27880; 37322]%N ++ runes_of_ascii "
-{ //	t
-string
-body , } , repeat int8 T//
-,float32 len ,  pack
-/// triple
-// trailing space 
-{repeat u16 lengthOf `line1
-line2` ,  i32 len@lengthOf(	MetaDataX)
-    `" ++ [233]%N ++ runes_of_ascii "`
-,uint8x	{ BodyLength
-    @lengthOf(
-x
-) , zchar[255]falsey	@lengthOf(Logon ) `crlf
-line` , /// triple
-},u8x
-, } , /// triple
-}
-    // " ++ [27880; 37322]%N ++ runes_of_ascii "
-    , @lengthOf( matchKey
-) int ,} root packet Packet { uint16 u `a\`
-,
-    @leftPad ( '0'  )repeat
-//x
-// c
-msg_type
-{ falsey { repeatCount { uint32 As /// triple
-, char[] repeatCount ,} ,}
-, }
-    ,@leftPad (
-'0' )
-@tag(
-3) match
-    calculatedFrom as asx { ""{,}""  : float, 1 : MetaDataX
-""\" ++ [233]%N ++ runes_of_ascii """ // " ++ [27880; 37322]%N ++ runes_of_ascii "
-:	_x
-, 10
-    :
-string_ 0 : lengthOf
-} /// triple
-, u body
-    , f32 Pad
-    @lengthOf( MetaDataX )
-    // c
-    `" ++ [28040; 24687; 31867; 22411]%N ++ runes_of_ascii "` ,
-    zchar[ 42 ]
-u `{ , }`	, @calculatedFrom( ""\n"" )
-    // c
-    string
-T
-@lengthOf( tag //x
-)
-`say ""hi""` , // c
-@rightPad // c
-('0'
-    )
-match body as uint8x { [4294967296
-, 1 , 00,
-""x y""]
-    : a1 ,} , } packet
-a1 {@tag(
-    42
-)
-    u16 tag @lengthOf(MetaDataX
-    )
-,
-    uint64 int `tab	here` , string float
-    @lengthOf( packetx )// " ++ [128512]%N ++ runes_of_ascii " emoji
-`crlf
-line`
-    , float32 options1`it's` , @calculatedFrom( ""CRC32""	) uint8 crc , @tag( 1
-) metadata f32a
-    `" ++ [233]%N ++ runes_of_ascii "`
-, @rightPad( // packet A { u8 x, }
-'\x00'
-)
-@lengthOf(pack)	@tag( 0123456789 )float32 uint8x
-    @lengthOf(
-    u ) // packet A { u8 x, }
-,
-    //
-    } root packet i8i8
-{
-    match
-MetaDataX
-as
-o { ""// no comment""
-: options1
-,
-7
-: i8i8 [""{,}"", ""// no comment"",
-""" ++ [128512]%N ++ runes_of_ascii """ , 10 , ""\n""	,  ""// no comment"" ,
-""abc""
-    ] : As ,
-[ ""packet""
-    /// triple
-    ,  ""a\""b"", 10,""x y"",	""{,}"" ,
-007
-, 1,
-""// no comment""
-    ] :
-BodyLength ,
-} , // `tick` ""quote"" 'q'
-@tag( 42 )
-repeat string x_y_z	, f32a @calculatedFrom(
-""""	) ,match u128 // a // b
-as // a // b
-Z9_ { """ ++ [28040; 24687]%N ++ runes_of_ascii """ : lengthOf ""\" ++ [233]%N ++ runes_of_ascii """
-//
-// `tick` ""quote"" 'q'
-: string_ ,}, @tag( 4294967296	)  u64 f32a , string	roots@calculatedFrom(	""\" ++ [233]%N ++ runes_of_ascii """ ) // `tick` ""quote"" 'q'
-`// not a comment`
-, //	t
-}
-")).
-Eval vm_compute in ("<<<M1080>>>" ++ check (runes_of_ascii " /// triple")).
-Eval vm_compute in ("<<<M1112>>>" ++ check (runes_of_ascii "root packet
-BodyLength{ rootA
-//x
-// " ++ [128512]%N ++ runes_of_ascii " emoji
-roots , }")).
-Eval vm_compute in ("<<<T1112>>>" ++ terms [mkTok 34 "root" 1 0 false; mkTok 35 "packet" 1 5 false; mkTok 42 "BodyLength" 2 0 false; mkTok 2 "{" 2 10 false; mkTok 42 "rootA" 2 12 false; mkTok 44 "//x" 3 0 true; mkTok 44 (string_of_bytes [47; 47; 32; 240; 159; 152; 128; 32; 101; 109; 111; 106; 105]%N) 4 0 true; mkTok 42 "roots" 5 0 false; mkTok 40 "," 5 6 false; mkTok 3 "}" 5 8 false; mkTok 0 "<EOF>" 5 9 false] (mkPacket (mkPtok 34 "root" 1 0 0) (Some (mkPtok 3 "}" 5 8 9)) [(DPacket (mkPacketDef (mkSpan (mkPtok 34 "root" 1 0 0) (mkPtok 3 "}" 5 8 9)) (Some (mkPtok 34 "root" 1 0 0)) (mkPtok 35 "packet" 1 5 1) (mkPtok 42 "BodyLength" 2 0 2) (mkPtok 2 "{" 2 10 3) [(mkFieldWithAttr (mkSpan (mkPtok 42 "rootA" 2 12 4) (mkPtok 40 "," 5 6 8)) [] (ObjectField (mkSpan (mkPtok 42 "rootA" 2 12 4) (mkPtok 40 "," 5 6 8)) None (mkPtok 42 "rootA" 2 12 4) (Some (mkPtok 42 "roots" 5 0 7)) None (mkPtok 40 "," 5 6 8)))] (mkPtok 3 "}" 5 8 9)))])).
-Eval vm_compute in ("<<<M1144>>>" ++ check (runes_of_ascii "MetaData uint8x // trailing space 
-{	}")).
-Eval vm_compute in ("<<<M1176>>>" ++ check (runes_of_ascii "root packet MetaDataX
-{@leftPad ( '\x00' ) i8i8 @lengthOf( charz
-) ,repeat
-u8x `crlf
-line` ,
-    zchar
-    `line1
-line2`
-, @lengthOf( stringy
-    )repeat
-char[ 00] // trailing space 
-packetx , }
-    /// triple
-    root packet
-charz { match
-    repeatCount
-    as
-float {
-    //	t
-    0123456789
-    // a // b
-    : Packet ,	}
-    , string
-    // trailing space 
-    x_y_z	@calculatedFrom(
-    ""\n"" )
-,
-    }  options
-{ }")).
-Eval vm_compute in ("<<<M1208>>>" ++ check (runes_of_ascii "MetaData
-    // a // b
-    options1 { Pad
-options1	,// " ++ [27880; 37322]%N ++ runes_of_ascii "
-}
-// " ++ [128512]%N ++ runes_of_ascii " emoji
-")).
-Eval vm_compute in ("<<<M1240>>>" ++ check (runes_of_ascii "
-")).
-Eval vm_compute in ("<<<M1272>>>" ++ check (runes_of_ascii "packet // @lengthOf(
-o{ }options
-{Logon /// triple
-=
-    00 }
-")).
-Eval vm_compute in ("<<<M1304>>>" ++ check (runes_of_ascii "packet body { As
-    @lengthOf(	string_ ) `two words`	, zchar[ 10 ] i8i8@calculatedFrom( ""`tick`""),
-zchar[ 0 ]
-    pack
-@calculatedFrom(
-""x y"" ) ,uint8 rootA @calculatedFrom( ""a\\""), i32
-    msg_type ,
-    u8 repeatCount ,}")).
-Eval vm_compute in ("<<<M1336>>>" ++ check (runes_of_ascii "
-packet
-roots
-    {f32 zchar @calculatedFrom( ""a	b""	) `crlf
-line`
-,
-// @lengthOf(
-/// triple
-uint8x
-`tab	here`// `tick` ""quote"" 'q'
-, @rightPad ( // a // b
-)
-@rightPad ( '\x00' ) string int
-@lengthOf( body
-// " ++ [128512]%N ++ runes_of_ascii " emoji
-//	t
-)
-,charz { repeat zchar{BodyLength
-// " ++ [27880; 37322]%N ++ runes_of_ascii "
-// c
-@lengthOf( int // a // b
-) , } , }	, @rightPad (
-' ' ) repeat
-    asx metadata  `it's`
-    ,
-float64 trueish ,repeat//	t
-char[ 42] // " ++ [128512]%N ++ runes_of_ascii " emoji
-body`a\` ,	@rightPad
-    (
-'0' )u32  body
-    `tab	here` , } // `tick` ""quote"" 'q'
-packet chars { @calculatedFrom(
-    ""packet"" ) zchar[ 65535
-]_x , float
-    As`line1
-line2`// c
-, u64 asx @calculatedFrom(
-""1"")
-`u8 x,`
-,crc	@lengthOf(  msg_type ) ,
-    @tag(
-    00 ) //x
-@rightPad
-    (// @lengthOf(
-' ' // c
-) /// triple
-@calculatedFrom( """ ++ [233]%N ++ runes_of_ascii "t" ++ [233]%N ++ runes_of_ascii """ // " ++ [128512]%N ++ runes_of_ascii " emoji
-) uint8
-    calculatedFrom , }options {  Packet =' '
-; Logon
-/// triple
-// trailing space 
-=255
-BodyLength =""// no comment""
-} options { float =
-""a	b"" ; f32a= """ ++ [28040; 24687]%N ++ runes_of_ascii """
-    //	t
-    len =
-    uint64 ;
-    calculatedFrom='0' // " ++ [27880; 37322]%N ++ runes_of_ascii "
-; }")).
-Eval vm_compute in ("<<<T1336>>>" ++ terms [mkTok 35 "packet" 2 0 false; mkTok 42 "roots" 3 0 false; mkTok 2 "{" 4 4 false; mkTok 28 "f32" 4 5 false; mkTok 42 "zchar" 4 9 false; mkTok 5 "@calculatedFrom(" 4 15 false; mkTok 31 (string_of_bytes [34; 97; 9; 98; 34]%N) 4 32 false; mkTok 6 ")" 4 38 false; mkTok 43 (string_of_bytes [96; 99; 114; 108; 102; 13; 10; 108; 105; 110; 101; 96]%N) 4 40 false; mkTok 40 "," 6 0 false; mkTok 44 "// @lengthOf(" 7 0 true; mkTok 44 "/// triple" 8 0 true; mkTok 42 "uint8x" 9 0 false; mkTok 43 (string_of_bytes [96; 116; 97; 98; 9; 104; 101; 114; 101; 96]%N) 10 0 false; mkTok 44 "// `tick` ""quote"" 'q'" 10 10 true; mkTok 40 "," 11 0 false; mkTok 32 "@rightPad" 11 2 false; mkTok 8 "(" 11 12 false; mkTok 44 "// a // b" 11 14 true; mkTok 6 ")" 12 0 false; mkTok 32 "@rightPad" 13 0 false; mkTok 8 "(" 13 10 false; mkTok 33 "'\x00'" 13 12 false; mkTok 6 ")" 13 19 false; mkTok 15 "string" 13 21 false; mkTok 42 "int" 13 28 false; mkTok 7 "@lengthOf(" 14 0 false; mkTok 42 "body" 14 11 false; mkTok 44 (string_of_bytes [47; 47; 32; 240; 159; 152; 128; 32; 101; 109; 111; 106; 105]%N) 15 0 true; mkTok 44 (string_of_bytes [47; 47; 9; 116]%N) 16 0 true; mkTok 6 ")" 17 0 false; mkTok 40 "," 18 0 false; mkTok 42 "charz" 18 1 false; mkTok 2 "{" 18 7 false; mkTok 36 "repeat" 18 9 false; mkTok 42 "zchar" 18 16 false; mkTok 2 "{" 18 21 false; mkTok 42 "BodyLength" 18 22 false; mkTok 44 (string_of_bytes [47; 47; 32; 230; 179; 168; 233; 135; 138]%N) 19 0 true; mkTok 44 "// c" 20 0 true; mkTok 7 "@lengthOf(" 21 0 false; mkTok 42 "int" 21 11 false; mkTok 44 "// a // b" 21 15 true; mkTok 6 ")" 22 0 false; mkTok 40 "," 22 2 false; mkTok 3 "}" 22 4 false; mkTok 40 "," 22 6 false; mkTok 3 "}" 22 8 false; mkTok 40 "," 22 10 false; mkTok 32 "@rightPad" 22 12 false; mkTok 8 "(" 22 22 false; mkTok 33 "' '" 23 0 false; mkTok 6 ")" 23 4 false; mkTok 36 "repeat" 23 6 false; mkTok 42 "asx" 24 4 false; mkTok 42 "metadata" 24 8 false; mkTok 43 "`it's`" 24 18 false; mkTok 40 "," 25 4 false; mkTok 29 "float64" 26 0 false; mkTok 42 "trueish" 26 8 false; mkTok 40 "," 26 16 false; mkTok 36 "repeat" 26 17 false; mkTok 44 (string_of_bytes [47; 47; 9; 116]%N) 26 23 true; mkTok 12 "char[" 27 0 false; mkTok 30 "42" 27 6 false; mkTok 13 "]" 27 8 false; mkTok 44 (string_of_bytes [47; 47; 32; 240; 159; 152; 128; 32; 101; 109; 111; 106; 105]%N) 27 10 true; mkTok 42 "body" 28 0 false; mkTok 43 "`a\`" 28 4 false; mkTok 40 "," 28 9 false; mkTok 32 "@rightPad" 28 11 false; mkTok 8 "(" 29 4 false; mkTok 33 "'0'" 30 0 false; mkTok 6 ")" 30 4 false; mkTok 22 "u32" 30 5 false; mkTok 42 "body" 30 10 false; mkTok 43 (string_of_bytes [96; 116; 97; 98; 9; 104; 101; 114; 101; 96]%N) 31 4 false; mkTok 40 "," 31 15 false; mkTok 3 "}" 31 17 false; mkTok 44 "// `tick` ""quote"" 'q'" 31 19 true; mkTok 35 "packet" 32 0 false; mkTok 42 "chars" 32 7 false; mkTok 2 "{" 32 13 false; mkTok 5 "@calculatedFrom(" 32 15 false; mkTok 31 """packet""" 33 4 false; mkTok 6 ")" 33 13 false; mkTok 14 "zchar[" 33 15 false; mkTok 30 "65535" 33 22 false; mkTok 13 "]" 34 0 false; mkTok 42 "_x" 34 1 false; mkTok 40 "," 34 4 false; mkTok 42 "float" 34 6 false; mkTok 42 "As" 35 4 false; mkTok 43 (string_of_bytes [96; 108; 105; 110; 101; 49; 10; 108; 105; 110; 101; 50; 96]%N) 35 6 false; mkTok 44 "// c" 36 6 true; mkTok 40 "," 37 0 false; mkTok 23 "u64" 37 2 false; mkTok 42 "asx" 37 6 false; mkTok 5 "@calculatedFrom(" 37 10 false; mkTok 31 """1""" 38 0 false; mkTok 6 ")" 38 3 false; mkTok 43 "`u8 x,`" 39 0 false; mkTok 40 "," 40 0 false; mkTok 42 "crc" 40 1 false; mkTok 7 "@lengthOf(" 40 5 false; mkTok 42 "msg_type" 40 17 false; mkTok 6 ")" 40 26 false; mkTok 40 "," 40 28 false; mkTok 9 "@tag(" 41 4 false; mkTok 30 "00" 42 4 false; mkTok 6 ")" 42 7 false; mkTok 44 "//x" 42 9 true; mkTok 32 "@rightPad" 43 0 false; mkTok 8 "(" 44 4 false; mkTok 44 "// @lengthOf(" 44 5 true; mkTok 33 "' '" 45 0 false; mkTok 44 "// c" 45 4 true; mkTok 6 ")" 46 0 false; mkTok 44 "/// triple" 46 2 true; mkTok 5 "@calculatedFrom(" 47 0 false; mkTok 31 (string_of_bytes [34; 195; 169; 116; 195; 169; 34]%N) 47 17 false; mkTok 44 (string_of_bytes [47; 47; 32; 240; 159; 152; 128; 32; 101; 109; 111; 106; 105]%N) 47 23 true; mkTok 6 ")" 48 0 false; mkTok 20 "uint8" 48 2 false; mkTok 42 "calculatedFrom" 49 4 false; mkTok 40 "," 49 19 false; mkTok 3 "}" 49 21 false; mkTok 1 "options" 49 22 false; mkTok 2 "{" 49 30 false; mkTok 42 "Packet" 49 33 false; mkTok 4 "=" 49 40 false; mkTok 33 "' '" 49 41 false; mkTok 41 ";" 50 0 false; mkTok 42 "Logon" 50 2 false; mkTok 44 "/// triple" 51 0 true; mkTok 44 "// trailing space " 52 0 true; mkTok 4 "=" 53 0 false; mkTok 30 "255" 53 1 false; mkTok 42 "BodyLength" 54 0 false; mkTok 4 "=" 54 11 false; mkTok 31 """// no comment""" 54 12 false; mkTok 3 "}" 55 0 false; mkTok 1 "options" 55 2 false; mkTok 2 "{" 55 10 false; mkTok 42 "float" 55 12 false; mkTok 4 "=" 55 18 false; mkTok 31 (string_of_bytes [34; 97; 9; 98; 34]%N) 56 0 false; mkTok 41 ";" 56 6 false; mkTok 42 "f32a" 56 8 false; mkTok 4 "=" 56 12 false; mkTok 31 (string_of_bytes [34; 230; 182; 136; 230; 129; 175; 34]%N) 56 14 false; mkTok 44 (string_of_bytes [47; 47; 9; 116]%N) 57 4 true; mkTok 42 "len" 58 4 false; mkTok 4 "=" 58 8 false; mkTok 23 "uint64" 59 4 false; mkTok 41 ";" 59 11 false; mkTok 42 "calculatedFrom" 60 4 false; mkTok 4 "=" 60 18 false; mkTok 33 "'0'" 60 19 false; mkTok 44 (string_of_bytes [47; 47; 32; 230; 179; 168; 233; 135; 138]%N) 60 23 true; mkTok 41 ";" 61 0 false; mkTok 3 "}" 61 2 false; mkTok 0 "<EOF>" 61 3 false] (mkPacket (mkPtok 35 "packet" 2 0 0) (Some (mkPtok 3 "}" 61 2 161)) [(DPacket (mkPacketDef (mkSpan (mkPtok 35 "packet" 2 0 0) (mkPtok 3 "}" 31 17 78)) None (mkPtok 35 "packet" 2 0 0) (mkPtok 42 "roots" 3 0 1) (mkPtok 2 "{" 4 4 2) [(mkFieldWithAttr (mkSpan (mkPtok 28 "f32" 4 5 3) (mkPtok 40 "," 6 0 9)) [] (CheckSumField (mkSpan (mkPtok 28 "f32" 4 5 3) (mkPtok 40 "," 6 0 9)) (mkChecksumFieldDecl (mkSpan (mkPtok 28 "f32" 4 5 3) (mkPtok 40 "," 6 0 9)) (Some (TyBasic (mkSpan (mkPtok 28 "f32" 4 5 3) (mkPtok 28 "f32" 4 5 3)) (mkBasicType (mkSpan (mkPtok 28 "f32" 4 5 3) (mkPtok 28 "f32" 4 5 3)) (mkPtok 28 "f32" 4 5 3)))) (mkPtok 42 "zchar" 4 9 4) (mkCalculatedFrom (mkSpan (mkPtok 5 "@calculatedFrom(" 4 15 5) (mkPtok 6 ")" 4 38 7)) (mkPtok 5 "@calculatedFrom(" 4 15 5) (mkPtok 31 (string_of_bytes [34; 97; 9; 98; 34]%N) 4 32 6) (mkPtok 6 ")" 4 38 7)) (Some (mkPtok 43 (string_of_bytes [96; 99; 114; 108; 102; 13; 10; 108; 105; 110; 101; 96]%N) 4 40 8)) (mkPtok 40 "," 6 0 9)))); (mkFieldWithAttr (mkSpan (mkPtok 42 "uint8x" 9 0 12) (mkPtok 40 "," 11 0 15)) [] (ObjectField (mkSpan (mkPtok 42 "uint8x" 9 0 12) (mkPtok 40 "," 11 0 15)) None (mkPtok 42 "uint8x" 9 0 12) None (Some (mkPtok 43 (string_of_bytes [96; 116; 97; 98; 9; 104; 101; 114; 101; 96]%N) 10 0 13)) (mkPtok 40 "," 11 0 15))); (mkFieldWithAttr (mkSpan (mkPtok 32 "@rightPad" 11 2 16) (mkPtok 40 "," 18 0 31)) [(FAPadding (mkSpan (mkPtok 32 "@rightPad" 11 2 16) (mkPtok 6 ")" 12 0 19)) (mkPaddingAttr (mkSpan (mkPtok 32 "@rightPad" 11 2 16) (mkPtok 6 ")" 12 0 19)) (mkPtok 32 "@rightPad" 11 2 16) (mkPtok 8 "(" 11 12 17) None (mkPtok 6 ")" 12 0 19))); (FAPadding (mkSpan (mkPtok 32 "@rightPad" 13 0 20) (mkPtok 6 ")" 13 19 23)) (mkPaddingAttr (mkSpan (mkPtok 32 "@rightPad" 13 0 20) (mkPtok 6 ")" 13 19 23)) (mkPtok 32 "@rightPad" 13 0 20) (mkPtok 8 "(" 13 10 21) (Some (mkPtok 33 "'\x00'" 13 12 22)) (mkPtok 6 ")" 13 19 23)))] (LengthField (mkSpan (mkPtok 15 "string" 13 21 24) (mkPtok 40 "," 18 0 31)) (mkLengthFieldDecl (mkSpan (mkPtok 15 "string" 13 21 24) (mkPtok 40 "," 18 0 31)) (Some (TyDynamic (mkSpan (mkPtok 15 "string" 13 21 24) (mkPtok 15 "string" 13 21 24)) (mkDynamicString (mkSpan (mkPtok 15 "string" 13 21 24) (mkPtok 15 "string" 13 21 24)) (mkPtok 15 "string" 13 21 24)))) (mkPtok 42 "int" 13 28 25) (mkLengthOf (mkSpan (mkPtok 7 "@lengthOf(" 14 0 26) (mkPtok 6 ")" 17 0 30)) (mkPtok 7 "@lengthOf(" 14 0 26) (mkPtok 42 "body" 14 11 27) (mkPtok 6 ")" 17 0 30)) None (mkPtok 40 "," 18 0 31)))); (mkFieldWithAttr (mkSpan (mkPtok 42 "charz" 18 1 32) (mkPtok 40 "," 22 10 48)) [] (InerObjectField (mkSpan (mkPtok 42 "charz" 18 1 32) (mkPtok 40 "," 22 10 48)) None (InerObjectDecl (mkSpan (mkPtok 42 "charz" 18 1 32) (mkPtok 3 "}" 22 8 47)) (mkPtok 42 "charz" 18 1 32) (mkPtok 2 "{" 18 7 33) [(InerObjectField (mkSpan (mkPtok 36 "repeat" 18 9 34) (mkPtok 40 "," 22 6 46)) (Some (mkPtok 36 "repeat" 18 9 34)) (InerObjectDecl (mkSpan (mkPtok 42 "zchar" 18 16 35) (mkPtok 3 "}" 22 4 45)) (mkPtok 42 "zchar" 18 16 35) (mkPtok 2 "{" 18 21 36) [(LengthField (mkSpan (mkPtok 42 "BodyLength" 18 22 37) (mkPtok 40 "," 22 2 44)) (mkLengthFieldDecl (mkSpan (mkPtok 42 "BodyLength" 18 22 37) (mkPtok 40 "," 22 2 44)) None (mkPtok 42 "BodyLength" 18 22 37) (mkLengthOf (mkSpan (mkPtok 7 "@lengthOf(" 21 0 40) (mkPtok 6 ")" 22 0 43)) (mkPtok 7 "@lengthOf(" 21 0 40) (mkPtok 42 "int" 21 11 41) (mkPtok 6 ")" 22 0 43)) None (mkPtok 40 "," 22 2 44)))] (mkPtok 3 "}" 22 4 45)) (mkPtok 40 "," 22 6 46))] (mkPtok 3 "}" 22 8 47)) (mkPtok 40 "," 22 10 48))); (mkFieldWithAttr (mkSpan (mkPtok 32 "@rightPad" 22 12 49) (mkPtok 40 "," 25 4 57)) [(FAPadding (mkSpan (mkPtok 32 "@rightPad" 22 12 49) (mkPtok 6 ")" 23 4 52)) (mkPaddingAttr (mkSpan (mkPtok 32 "@rightPad" 22 12 49) (mkPtok 6 ")" 23 4 52)) (mkPtok 32 "@rightPad" 22 12 49) (mkPtok 8 "(" 22 22 50) (Some (mkPtok 33 "' '" 23 0 51)) (mkPtok 6 ")" 23 4 52)))] (ObjectField (mkSpan (mkPtok 36 "repeat" 23 6 53) (mkPtok 40 "," 25 4 57)) (Some (mkPtok 36 "repeat" 23 6 53)) (mkPtok 42 "asx" 24 4 54) (Some (mkPtok 42 "metadata" 24 8 55)) (Some (mkPtok 43 "`it's`" 24 18 56)) (mkPtok 40 "," 25 4 57))); (mkFieldWithAttr (mkSpan (mkPtok 29 "float64" 26 0 58) (mkPtok 40 "," 26 16 60)) [] (MetaField (mkSpan (mkPtok 29 "float64" 26 0 58) (mkPtok 40 "," 26 16 60)) None (mkMetaDecl (mkSpan (mkPtok 29 "float64" 26 0 58) (mkPtok 40 "," 26 16 60)) (TyBasic (mkSpan (mkPtok 29 "float64" 26 0 58) (mkPtok 29 "float64" 26 0 58)) (mkBasicType (mkSpan (mkPtok 29 "float64" 26 0 58) (mkPtok 29 "float64" 26 0 58)) (mkPtok 29 "float64" 26 0 58))) (mkPtok 42 "trueish" 26 8 59) None (mkPtok 40 "," 26 16 60)))); (mkFieldWithAttr (mkSpan (mkPtok 36 "repeat" 26 17 61) (mkPtok 40 "," 28 9 69)) [] (MetaField (mkSpan (mkPtok 36 "repeat" 26 17 61) (mkPtok 40 "," 28 9 69)) (Some (mkPtok 36 "repeat" 26 17 61)) (mkMetaDecl (mkSpan (mkPtok 12 "char[" 27 0 63) (mkPtok 40 "," 28 9 69)) (TyFixed (mkSpan (mkPtok 12 "char[" 27 0 63) (mkPtok 13 "]" 27 8 65)) (mkFixedString (mkSpan (mkPtok 12 "char[" 27 0 63) (mkPtok 13 "]" 27 8 65)) (mkPtok 12 "char[" 27 0 63) (mkPtok 30 "42" 27 6 64) (mkPtok 13 "]" 27 8 65))) (mkPtok 42 "body" 28 0 67) (Some (mkPtok 43 "`a\`" 28 4 68)) (mkPtok 40 "," 28 9 69)))); (mkFieldWithAttr (mkSpan (mkPtok 32 "@rightPad" 28 11 70) (mkPtok 40 "," 31 15 77)) [(FAPadding (mkSpan (mkPtok 32 "@rightPad" 28 11 70) (mkPtok 6 ")" 30 4 73)) (mkPaddingAttr (mkSpan (mkPtok 32 "@rightPad" 28 11 70) (mkPtok 6 ")" 30 4 73)) (mkPtok 32 "@rightPad" 28 11 70) (mkPtok 8 "(" 29 4 71) (Some (mkPtok 33 "'0'" 30 0 72)) (mkPtok 6 ")" 30 4 73)))] (MetaField (mkSpan (mkPtok 22 "u32" 30 5 74) (mkPtok 40 "," 31 15 77)) None (mkMetaDecl (mkSpan (mkPtok 22 "u32" 30 5 74) (mkPtok 40 "," 31 15 77)) (TyBasic (mkSpan (mkPtok 22 "u32" 30 5 74) (mkPtok 22 "u32" 30 5 74)) (mkBasicType (mkSpan (mkPtok 22 "u32" 30 5 74) (mkPtok 22 "u32" 30 5 74)) (mkPtok 22 "u32" 30 5 74))) (mkPtok 42 "body" 30 10 75) (Some (mkPtok 43 (string_of_bytes [96; 116; 97; 98; 9; 104; 101; 114; 101; 96]%N) 31 4 76)) (mkPtok 40 "," 31 15 77))))] (mkPtok 3 "}" 31 17 78))); (DPacket (mkPacketDef (mkSpan (mkPtok 35 "packet" 32 0 80) (mkPtok 3 "}" 49 21 126)) None (mkPtok 35 "packet" 32 0 80) (mkPtok 42 "chars" 32 7 81) (mkPtok 2 "{" 32 13 82) [(mkFieldWithAttr (mkSpan (mkPtok 5 "@calculatedFrom(" 32 15 83) (mkPtok 40 "," 34 4 90)) [(FACalculatedFrom (mkSpan (mkPtok 5 "@calculatedFrom(" 32 15 83) (mkPtok 6 ")" 33 13 85)) (mkCalculatedFrom (mkSpan (mkPtok 5 "@calculatedFrom(" 32 15 83) (mkPtok 6 ")" 33 13 85)) (mkPtok 5 "@calculatedFrom(" 32 15 83) (mkPtok 31 """packet""" 33 4 84) (mkPtok 6 ")" 33 13 85)))] (MetaField (mkSpan (mkPtok 14 "zchar[" 33 15 86) (mkPtok 40 "," 34 4 90)) None (mkMetaDecl (mkSpan (mkPtok 14 "zchar[" 33 15 86) (mkPtok 40 "," 34 4 90)) (TyFixed (mkSpan (mkPtok 14 "zchar[" 33 15 86) (mkPtok 13 "]" 34 0 88)) (mkFixedString (mkSpan (mkPtok 14 "zchar[" 33 15 86) (mkPtok 13 "]" 34 0 88)) (mkPtok 14 "zchar[" 33 15 86) (mkPtok 30 "65535" 33 22 87) (mkPtok 13 "]" 34 0 88))) (mkPtok 42 "_x" 34 1 89) None (mkPtok 40 "," 34 4 90)))); (mkFieldWithAttr (mkSpan (mkPtok 42 "float" 34 6 91) (mkPtok 40 "," 37 0 95)) [] (ObjectField (mkSpan (mkPtok 42 "float" 34 6 91) (mkPtok 40 "," 37 0 95)) None (mkPtok 42 "float" 34 6 91) (Some (mkPtok 42 "As" 35 4 92)) (Some (mkPtok 43 (string_of_bytes [96; 108; 105; 110; 101; 49; 10; 108; 105; 110; 101; 50; 96]%N) 35 6 93)) (mkPtok 40 "," 37 0 95))); (mkFieldWithAttr (mkSpan (mkPtok 23 "u64" 37 2 96) (mkPtok 40 "," 40 0 102)) [] (CheckSumField (mkSpan (mkPtok 23 "u64" 37 2 96) (mkPtok 40 "," 40 0 102)) (mkChecksumFieldDecl (mkSpan (mkPtok 23 "u64" 37 2 96) (mkPtok 40 "," 40 0 102)) (Some (TyBasic (mkSpan (mkPtok 23 "u64" 37 2 96) (mkPtok 23 "u64" 37 2 96)) (mkBasicType (mkSpan (mkPtok 23 "u64" 37 2 96) (mkPtok 23 "u64" 37 2 96)) (mkPtok 23 "u64" 37 2 96)))) (mkPtok 42 "asx" 37 6 97) (mkCalculatedFrom (mkSpan (mkPtok 5 "@calculatedFrom(" 37 10 98) (mkPtok 6 ")" 38 3 100)) (mkPtok 5 "@calculatedFrom(" 37 10 98) (mkPtok 31 """1""" 38 0 99) (mkPtok 6 ")" 38 3 100)) (Some (mkPtok 43 "`u8 x,`" 39 0 101)) (mkPtok 40 "," 40 0 102)))); (mkFieldWithAttr (mkSpan (mkPtok 42 "crc" 40 1 103) (mkPtok 40 "," 40 28 107)) [] (LengthField (mkSpan (mkPtok 42 "crc" 40 1 103) (mkPtok 40 "," 40 28 107)) (mkLengthFieldDecl (mkSpan (mkPtok 42 "crc" 40 1 103) (mkPtok 40 "," 40 28 107)) None (mkPtok 42 "crc" 40 1 103) (mkLengthOf (mkSpan (mkPtok 7 "@lengthOf(" 40 5 104) (mkPtok 6 ")" 40 26 106)) (mkPtok 7 "@lengthOf(" 40 5 104) (mkPtok 42 "msg_type" 40 17 105) (mkPtok 6 ")" 40 26 106)) None (mkPtok 40 "," 40 28 107)))); (mkFieldWithAttr (mkSpan (mkPtok 9 "@tag(" 41 4 108) (mkPtok 40 "," 49 19 125)) [(FATag (mkSpan (mkPtok 9 "@tag(" 41 4 108) (mkPtok 6 ")" 42 7 110)) (mkTagAttr (mkSpan (mkPtok 9 "@tag(" 41 4 108) (mkPtok 6 ")" 42 7 110)) (mkPtok 9 "@tag(" 41 4 108) (mkPtok 30 "00" 42 4 109) (mkPtok 6 ")" 42 7 110))); (FAPadding (mkSpan (mkPtok 32 "@rightPad" 43 0 112) (mkPtok 6 ")" 46 0 117)) (mkPaddingAttr (mkSpan (mkPtok 32 "@rightPad" 43 0 112) (mkPtok 6 ")" 46 0 117)) (mkPtok 32 "@rightPad" 43 0 112) (mkPtok 8 "(" 44 4 113) (Some (mkPtok 33 "' '" 45 0 115)) (mkPtok 6 ")" 46 0 117))); (FACalculatedFrom (mkSpan (mkPtok 5 "@calculatedFrom(" 47 0 119) (mkPtok 6 ")" 48 0 122)) (mkCalculatedFrom (mkSpan (mkPtok 5 "@calculatedFrom(" 47 0 119) (mkPtok 6 ")" 48 0 122)) (mkPtok 5 "@calculatedFrom(" 47 0 119) (mkPtok 31 (string_of_bytes [34; 195; 169; 116; 195; 169; 34]%N) 47 17 120) (mkPtok 6 ")" 48 0 122)))] (MetaField (mkSpan (mkPtok 20 "uint8" 48 2 123) (mkPtok 40 "," 49 19 125)) None (mkMetaDecl (mkSpan (mkPtok 20 "uint8" 48 2 123) (mkPtok 40 "," 49 19 125)) (TyBasic (mkSpan (mkPtok 20 "uint8" 48 2 123) (mkPtok 20 "uint8" 48 2 123)) (mkBasicType (mkSpan (mkPtok 20 "uint8" 48 2 123) (mkPtok 20 "uint8" 48 2 123)) (mkPtok 20 "uint8" 48 2 123))) (mkPtok 42 "calculatedFrom" 49 4 124) None (mkPtok 40 "," 49 19 125))))] (mkPtok 3 "}" 49 21 126))); (DOption (mkOptionDef (mkSpan (mkPtok 1 "options" 49 22 127) (mkPtok 3 "}" 55 0 141)) (mkPtok 1 "options" 49 22 127) (mkPtok 2 "{" 49 30 128) [(mkOptionDecl (mkSpan (mkPtok 42 "Packet" 49 33 129) (mkPtok 41 ";" 50 0 132)) (mkPtok 42 "Packet" 49 33 129) (mkPtok 4 "=" 49 40 130) (VPaddingChar (mkSpan (mkPtok 33 "' '" 49 41 131) (mkPtok 33 "' '" 49 41 131)) (mkPtok 33 "' '" 49 41 131)) (Some (mkPtok 41 ";" 50 0 132))); (mkOptionDecl (mkSpan (mkPtok 42 "Logon" 50 2 133) (mkPtok 30 "255" 53 1 137)) (mkPtok 42 "Logon" 50 2 133) (mkPtok 4 "=" 53 0 136) (VDigits (mkSpan (mkPtok 30 "255" 53 1 137) (mkPtok 30 "255" 53 1 137)) (mkPtok 30 "255" 53 1 137)) None); (mkOptionDecl (mkSpan (mkPtok 42 "BodyLength" 54 0 138) (mkPtok 31 """// no comment""" 54 12 140)) (mkPtok 42 "BodyLength" 54 0 138) (mkPtok 4 "=" 54 11 139) (VString (mkSpan (mkPtok 31 """// no comment""" 54 12 140) (mkPtok 31 """// no comment""" 54 12 140)) (mkPtok 31 """// no comment""" 54 12 140)) None)] (mkPtok 3 "}" 55 0 141))); (DOption (mkOptionDef (mkSpan (mkPtok 1 "options" 55 2 142) (mkPtok 3 "}" 61 2 161)) (mkPtok 1 "options" 55 2 142) (mkPtok 2 "{" 55 10 143) [(mkOptionDecl (mkSpan (mkPtok 42 "float" 55 12 144) (mkPtok 41 ";" 56 6 147)) (mkPtok 42 "float" 55 12 144) (mkPtok 4 "=" 55 18 145) (VString (mkSpan (mkPtok 31 (string_of_bytes [34; 97; 9; 98; 34]%N) 56 0 146) (mkPtok 31 (string_of_bytes [34; 97; 9; 98; 34]%N) 56 0 146)) (mkPtok 31 (string_of_bytes [34; 97; 9; 98; 34]%N) 56 0 146)) (Some (mkPtok 41 ";" 56 6 147))); (mkOptionDecl (mkSpan (mkPtok 42 "f32a" 56 8 148) (mkPtok 31 (string_of_bytes [34; 230; 182; 136; 230; 129; 175; 34]%N) 56 14 150)) (mkPtok 42 "f32a" 56 8 148) (mkPtok 4 "=" 56 12 149) (VString (mkSpan (mkPtok 31 (string_of_bytes [34; 230; 182; 136; 230; 129; 175; 34]%N) 56 14 150) (mkPtok 31 (string_of_bytes [34; 230; 182; 136; 230; 129; 175; 34]%N) 56 14 150)) (mkPtok 31 (string_of_bytes [34; 230; 182; 136; 230; 129; 175; 34]%N) 56 14 150)) None); (mkOptionDecl (mkSpan (mkPtok 42 "len" 58 4 152) (mkPtok 41 ";" 59 11 155)) (mkPtok 42 "len" 58 4 152) (mkPtok 4 "=" 58 8 153) (VType (mkSpan (mkPtok 23 "uint64" 59 4 154) (mkPtok 23 "uint64" 59 4 154)) (TyBasic (mkSpan (mkPtok 23 "uint64" 59 4 154) (mkPtok 23 "uint64" 59 4 154)) (mkBasicType (mkSpan (mkPtok 23 "uint64" 59 4 154) (mkPtok 23 "uint64" 59 4 154)) (mkPtok 23 "uint64" 59 4 154)))) (Some (mkPtok 41 ";" 59 11 155))); (mkOptionDecl (mkSpan (mkPtok 42 "calculatedFrom" 60 4 156) (mkPtok 41 ";" 61 0 160)) (mkPtok 42 "calculatedFrom" 60 4 156) (mkPtok 4 "=" 60 18 157) (VPaddingChar (mkSpan (mkPtok 33 "'0'" 60 19 158) (mkPtok 33 "'0'" 60 19 158)) (mkPtok 33 "'0'" 60 19 158)) (Some (mkPtok 41 ";" 61 0 160)))] (mkPtok 3 "}" 61 2 161)))])).
-Eval vm_compute in ("<<<M1368>>>" ++ check (runes_of_ascii "packet	Z9_
-{
-    @lengthOf(pack )calculatedFrom //	t
-u128 , /// triple
-@tag( 4294967296 )
-u64 options1 ,	uint16	uint8x@calculatedFrom(
-""\n""  ), //
-} packet	pack{ leftPad
-MetaDataX , @leftPad
-( )@lengthOf( packetx	)
-repeat lengthOf { f64
-repeatCount
-    @calculatedFrom( ""a\""b"" ) `tab	here` ,
-}, repeat pack body ,} options {
-u128
-//
-//	t
-=true ; }
-")).
-Eval vm_compute in ("<<<M1400>>>" ++ check (runes_of_ascii "
-root packet charz
-    { @rightPad ( '0' )
-_x	@lengthOf( asx
-) `" ++ [233]%N ++ runes_of_ascii "`
-, }
-")).
-Eval vm_compute in ("<<<M1432>>>" ++ check (runes_of_ascii "packet// c
-lengthOf
-{ matchKey `doc` , i8i8
-{ match crc  as zchar
-    {	[ 1, ""abc"" ,	0 ,
-    0123456789,
-65535 ]
-    :chars , ""\n"" : uint8x ""a\""b"":  int ,[
-""`tick`""
-    ,""a	b"" , ""a	b""
-    ,4294967296 , 4294967296	, """" , ""a\""b"" ] :
-string_ ,
-0123456789 :// @lengthOf(
-A
-    ,""packet""
-    // a // b
-    :asx  } ,char[00
-//
-//
-] u8x
-`u8 x,`, u8x { uint32 float
-@calculatedFrom( ""{,}"")
-,
-//	t
-// " ++ [128512]%N ++ runes_of_ascii " emoji
-char[
-0
-// trailing space 
-// `tick` ""quote"" 'q'
-] zchar
-    ,	}, falsey@calculatedFrom( """ ++ [128512]%N ++ runes_of_ascii """ )
-    ,} // packet A { u8 x, }
-, @calculatedFrom( ""1"" )
-zchar[
-255
-    ]
-// @lengthOf(
-//
-metadata
-@lengthOf(	packetx	) , Header @calculatedFrom(
-""CRC32"" ) ,
-// c
-// trailing space 
-float @lengthOf(crc ) ``, @tag(42 )@lengthOf(
-    A ) @lengthOf( u128) stringy// " ++ [27880; 37322]%N ++ runes_of_ascii "
-`" ++ [233]%N ++ runes_of_ascii "` ,	@leftPad ( '0')
-    char[4294967296  ]
-float , u`" ++ [233]%N ++ runes_of_ascii "` ,@lengthOf(falsey ) // @lengthOf(
-@lengthOf( /// triple
-lengthOf
-) repeat f32 matchKey `line1
-line2`
-    ,
-}
-options
-    { lengthOf= string;}packet falsey{
-@tag( 1
-)int16 repeatCount
-@lengthOf( charz
-)
-`a\` // @lengthOf(
-, repeat u64 MetaDataX `say ""hi""` , } options {  x
-    = // packet A { u8 x, }
-""abc"" }
-MetaData BodyLength {zchar[ 4294967296]	zchar ,}")).
-Eval vm_compute in ("<<<M1464>>>" ++ check (runes_of_ascii "options { Packet = u8 ; }packet  metadata // @lengthOf(
-{ charz {	match asx
-    as
-A
-{
-[ ""\n"",
+    float32 a1
+`a\`
     // " ++ [128512]%N ++ runes_of_ascii " emoji
-    ""a\""b"" ]
-:string_
-""a\\"" :float
-    // @lengthOf(
-    , [ 10 ] :
-// c
-// a // b
-leftPad ,
-255:
-Packet
-,[ ""a	b"", ""a	b"" , """ ++ [28040; 24687]%N ++ runes_of_ascii """	, 42 ,
-// " ++ [27880; 37322]%N ++ runes_of_ascii "
-// packet A { u8 x, }
-""a\\"" ] :
-    repeatCount , [  255	, """ ++ [128512]%N ++ runes_of_ascii """ ,
-0123456789 // trailing space 
-,
-""" ++ [233]%N ++ runes_of_ascii "t" ++ [233]%N ++ runes_of_ascii """ ]: a1} , } , }  packet o {@calculatedFrom( ""\n"" )
-repeat len
     ,
-// trailing space 
-//
-body Logon
+leftPad
+    // packet A { u8 x, }
+    Packet `" ++ [28040; 24687; 31867; 22411]%N ++ runes_of_ascii "`,zchar[
+4294967296 ] repeatCount, f32 x
 ,
-    }")).
-Eval vm_compute in ("<<<M1496>>>" ++ check (runes_of_ascii "options{ msg_type =
-'0' ;
-}
-// trailing space 
-// " ++ [27880; 37322]%N ++ runes_of_ascii "
-packet
-matchKey	{ @calculatedFrom( ""x y"" )
+    roots packetx`" ++ [233]%N ++ runes_of_ascii "` , }
+")).
+Eval vm_compute in ("<<<M760>>>" ++ check (runes_of_ascii "
+MetaData A { zchar falsey	`u8 x,`
+    , }MetaData
+len // " ++ [27880; 37322]%N ++ runes_of_ascii "
+{ msg_type
+Z9_ `crlf
+line`, int32 packetx
+    // trailing space 
+    , int64 matchKey ,// a // b
+f32 As ,
     zchar[
-10 ]metadata , Z9_
-@calculatedFrom(""packet"" ), zchar[ 4294967296]
-packetx `doc` ,tag
-@lengthOf(packetx
-) , // c
-@rightPad() u
-T , char[3// " ++ [128512]%N ++ runes_of_ascii " emoji
-]int , @calculatedFrom( ""CRC32""
-) repeat
-    // @lengthOf(
-    metadata {u128
-@calculatedFrom(
-"""")
-, repeat i32
-    Z9_
-    ,  repeat uint64 trueish `a\` ,
-    a1{
-    //x
-    uint8 _x // packet A { u8 x, }
-@lengthOf( _x  ) // trailing space 
-, } ,}  , match
-options1
-as leftPad  { //
-""" ++ [28040; 24687]%N ++ runes_of_ascii """
-    :
-    u8x ,1:
-body ,}/// triple
-, @calculatedFrom( ""1""
-) match T as Foo {  255 : T, } , } options{ } options { }")).
-Eval vm_compute in ("<<<M1528>>>" ++ check (runes_of_ascii "root packet string_{
-// `tick` ""quote"" 'q'
-// c
-@lengthOf(
-uint8x )
-    int16 int
-, }
-")).
-Eval vm_compute in ("<<<M1560>>>" ++ check (runes_of_ascii "root packet
-    repeatCount {@tag(1
-) @lengthOf( a1)  char[] options1, @rightPad(
-    )
-float
-    @calculatedFrom( ""1""
-) `doc` // `tick` ""quote"" 'q'
-, Foo {	roots ,
-    //	t
-    }  ,  pack Pad	, }
-")).
-Eval vm_compute in ("<<<T1560>>>" ++ terms [mkTok 34 "root" 1 0 false; mkTok 35 "packet" 1 5 false; mkTok 42 "repeatCount" 2 4 false; mkTok 2 "{" 2 16 false; mkTok 9 "@tag(" 2 17 false; mkTok 30 "1" 2 22 false; mkTok 6 ")" 3 0 false; mkTok 7 "@lengthOf(" 3 2 false; mkTok 42 "a1" 3 13 false; mkTok 6 ")" 3 15 false; mkTok 16 "char[]" 3 18 false; mkTok 42 "options1" 3 25 false; mkTok 40 "," 3 33 false; mkTok 32 "@rightPad" 3 35 false; mkTok 8 "(" 3 44 false; mkTok 6 ")" 4 4 false; mkTok 42 "float" 5 0 false; mkTok 5 "@calculatedFrom(" 6 4 false; mkTok 31 """1""" 6 21 false; mkTok 6 ")" 7 0 false; mkTok 43 "`doc`" 7 2 false; mkTok 44 "// `tick` ""quote"" 'q'" 7 8 true; mkTok 40 "," 8 0 false; mkTok 42 "Foo" 8 2 false; mkTok 2 "{" 8 6 false; mkTok 42 "roots" 8 8 false; mkTok 40 "," 8 14 false; mkTok 44 (string_of_bytes [47; 47; 9; 116]%N) 9 4 true; mkTok 3 "}" 10 4 false; mkTok 40 "," 10 7 false; mkTok 42 "pack" 10 10 false; mkTok 42 "Pad" 10 15 false; mkTok 40 "," 10 19 false; mkTok 3 "}" 10 21 false; mkTok 0 "<EOF>" 11 0 false] (mkPacket (mkPtok 34 "root" 1 0 0) (Some (mkPtok 3 "}" 10 21 33)) [(DPacket (mkPacketDef (mkSpan (mkPtok 34 "root" 1 0 0) (mkPtok 3 "}" 10 21 33)) (Some (mkPtok 34 "root" 1 0 0)) (mkPtok 35 "packet" 1 5 1) (mkPtok 42 "repeatCount" 2 4 2) (mkPtok 2 "{" 2 16 3) [(mkFieldWithAttr (mkSpan (mkPtok 9 "@tag(" 2 17 4) (mkPtok 40 "," 3 33 12)) [(FATag (mkSpan (mkPtok 9 "@tag(" 2 17 4) (mkPtok 6 ")" 3 0 6)) (mkTagAttr (mkSpan (mkPtok 9 "@tag(" 2 17 4) (mkPtok 6 ")" 3 0 6)) (mkPtok 9 "@tag(" 2 17 4) (mkPtok 30 "1" 2 22 5) (mkPtok 6 ")" 3 0 6))); (FALengthOf (mkSpan (mkPtok 7 "@lengthOf(" 3 2 7) (mkPtok 6 ")" 3 15 9)) (mkLengthOf (mkSpan (mkPtok 7 "@lengthOf(" 3 2 7) (mkPtok 6 ")" 3 15 9)) (mkPtok 7 "@lengthOf(" 3 2 7) (mkPtok 42 "a1" 3 13 8) (mkPtok 6 ")" 3 15 9)))] (MetaField (mkSpan (mkPtok 16 "char[]" 3 18 10) (mkPtok 40 "," 3 33 12)) None (mkMetaDecl (mkSpan (mkPtok 16 "char[]" 3 18 10) (mkPtok 40 "," 3 33 12)) (TyDynamic (mkSpan (mkPtok 16 "char[]" 3 18 10) (mkPtok 16 "char[]" 3 18 10)) (mkDynamicString (mkSpan (mkPtok 16 "char[]" 3 18 10) (mkPtok 16 "char[]" 3 18 10)) (mkPtok 16 "char[]" 3 18 10))) (mkPtok 42 "options1" 3 25 11) None (mkPtok 40 "," 3 33 12)))); (mkFieldWithAttr (mkSpan (mkPtok 32 "@rightPad" 3 35 13) (mkPtok 40 "," 8 0 22)) [(FAPadding (mkSpan (mkPtok 32 "@rightPad" 3 35 13) (mkPtok 6 ")" 4 4 15)) (mkPaddingAttr (mkSpan (mkPtok 32 "@rightPad" 3 35 13) (mkPtok 6 ")" 4 4 15)) (mkPtok 32 "@rightPad" 3 35 13) (mkPtok 8 "(" 3 44 14) None (mkPtok 6 ")" 4 4 15)))] (CheckSumField (mkSpan (mkPtok 42 "float" 5 0 16) (mkPtok 40 "," 8 0 22)) (mkChecksumFieldDecl (mkSpan (mkPtok 42 "float" 5 0 16) (mkPtok 40 "," 8 0 22)) None (mkPtok 42 "float" 5 0 16) (mkCalculatedFrom (mkSpan (mkPtok 5 "@calculatedFrom(" 6 4 17) (mkPtok 6 ")" 7 0 19)) (mkPtok 5 "@calculatedFrom(" 6 4 17) (mkPtok 31 """1""" 6 21 18) (mkPtok 6 ")" 7 0 19)) (Some (mkPtok 43 "`doc`" 7 2 20)) (mkPtok 40 "," 8 0 22)))); (mkFieldWithAttr (mkSpan (mkPtok 42 "Foo" 8 2 23) (mkPtok 40 "," 10 7 29)) [] (InerObjectField (mkSpan (mkPtok 42 "Foo" 8 2 23) (mkPtok 40 "," 10 7 29)) None (InerObjectDecl (mkSpan (mkPtok 42 "Foo" 8 2 23) (mkPtok 3 "}" 10 4 28)) (mkPtok 42 "Foo" 8 2 23) (mkPtok 2 "{" 8 6 24) [(ObjectField (mkSpan (mkPtok 42 "roots" 8 8 25) (mkPtok 40 "," 8 14 26)) None (mkPtok 42 "roots" 8 8 25) None None (mkPtok 40 "," 8 14 26))] (mkPtok 3 "}" 10 4 28)) (mkPtok 40 "," 10 7 29))); (mkFieldWithAttr (mkSpan (mkPtok 42 "pack" 10 10 30) (mkPtok 40 "," 10 19 32)) [] (ObjectField (mkSpan (mkPtok 42 "pack" 10 10 30) (mkPtok 40 "," 10 19 32)) None (mkPtok 42 "pack" 10 10 30) (Some (mkPtok 42 "Pad" 10 15 31)) None (mkPtok 40 "," 10 19 32)))] (mkPtok 3 "}" 10 21 33)))])).
-Eval vm_compute in ("<<<M1592>>>" ++ check (runes_of_ascii "MetaData rootA
-{}")).
-Eval vm_compute in ("<<<M1624>>>" ++ check (runes_of_ascii "root packet
-    body  { @calculatedFrom( ""`tick`"" )
-// " ++ [128512]%N ++ runes_of_ascii " emoji
-// packet A { u8 x, }
-repeat
-    string_	{  i64 Foo , match x
-    as tag { ""// no comment""
-    : pack
-    [0 ,
-255 ]
-    :roots
-, }, char[3
-] len // `tick` ""quote"" 'q'
-,
-}
-    , @lengthOf( stringy ) // " ++ [27880; 37322]%N ++ runes_of_ascii "
-f32 Foo// a // b
-,@tag(
-0123456789) //
-int64 trueish
-,	i8
-leftPad, trueish Packet `// not a comment`, repeat matchKey
-, }
-")).
-Eval vm_compute in ("<<<M1656>>>" ++ check (runes_of_ascii "MetaData
-asx {}
-    // a // b
-    packet // a // b
-float {
-// `tick` ""quote"" 'q'
-//x
-lengthOf // `tick` ""quote"" 'q'
-leftPad `say ""hi""` // packet A { u8 x, }
-, @calculatedFrom( ""CRC32"" )stringy `a\` , @calculatedFrom(  ""// no comment""
+    00] u8x
+`u8 x,` ,
+    zchar[ 0123456789 ]
+Logon `line1
+line2`  ,// a // b
+} options { Packet =//x
+""a\\"";} // @lengthOf(")).
+Eval vm_compute in ("<<<M792>>>" ++ check (runes_of_ascii "packet
+body
+{
+roots
+@lengthOf( stringy )`" ++ [28040; 24687; 31867; 22411]%N ++ runes_of_ascii "`,  @leftPad(	' ' ) @rightPad (' ' ) @leftPad () a1 @lengthOf( // trailing space 
+u
 )
-Pad@lengthOf(
-    A)
-, @leftPad (  '\x00' // @lengthOf(
-) x {zchar[
-65535 ] /// triple
-leftPad @lengthOf( //x
-repeatCount
-) `{ , }` ,_x {
-    // " ++ [128512]%N ++ runes_of_ascii " emoji
-    i16 msg_type`" ++ [28040; 24687; 31867; 22411]%N ++ runes_of_ascii "` , //
-} // `tick` ""quote"" 'q'
-, // trailing space 
-roots,} , } options
-    {}
-")).
-Eval vm_compute in ("<<<M1688>>>" ++ check (runes_of_ascii "options
-    { }
-")).
-Eval vm_compute in ("<<<M1720>>>" ++ check (runes_of_ascii "// packet A { u8 x, }
-root packet Packet
-/// triple
+// trailing space 
 // " ++ [27880; 37322]%N ++ runes_of_ascii "
-{ @calculatedFrom( ""// no comment"" )
-@lengthOf( Foo )match float
-    as stringy {
-1 : string_
-    ,
-}
-// a // b
-// packet A { u8 x, }
+,  match x as x_y_z
+    {[  255 , ""packet""
+    // packet A { u8 x, }
+    , 007 ,
+    10 ,""" ++ [233]%N ++ runes_of_ascii "t" ++ [233]%N ++ runes_of_ascii """ , 3
+    //x
+    , ""it's""
+    ] :	leftPad
+    // c
+    , }, zchar[1
+    ] i64_ ,}")).
+Eval vm_compute in ("<<<M824>>>" ++ check (runes_of_ascii "
+packet trueish
+{}root packet msg_type  {
+// 50% %s
+// " ++ [128512]%N ++ runes_of_ascii " emoji
+char[]
+u8x@lengthOf(int
+)// 50% %s
+,u128
+{
+//x
+/// triple
+Logon@calculatedFrom( ""1"" )
 ,
-    char
-    u ,repeat zchar[3  ] Header
-`crlf
-line`  ,
-repeat zchar {
-charz BodyLength ,
-    repeat
-    zchar[ 0123456789] crc
-`doc` ,	} ,
-@calculatedFrom( ""it's""
-    )
-    int32 As `doc`  ,char[ 65535] x `it's`,
-    repeat char
-roots  , repeat
+}, @lengthOf( calculatedFrom )
+repeat f32 Z9_, u16 int
+@lengthOf( i64_
+    // 50% %s
+    ) `line1
+line2` , //x
+@leftPad ('\x00') @calculatedFrom(""" ++ [28040; 24687]%N ++ runes_of_ascii """)  int8 lengthOf
+@calculatedFrom( ""x y"" ) `crlf
+line`
+,
+uint8x , @lengthOf( packetx )
+    /// triple
+    char[]
+Packet // " ++ [27880; 37322]%N ++ runes_of_ascii "
+,@leftPad	( )
+i64_	Header
+,// 50% %s
+u32 o @lengthOf(
+    falsey)
+, @lengthOf(	MetaDataX
+)match Foo as trueish
+{
+    [
+""it's"" ,10]:
+Pad , },
+    }")).
+Eval vm_compute in ("<<<M856>>>" ++ check (runes_of_ascii "// trailing space 
+ // " ++ [27880; 37322]%N)).
+Eval vm_compute in ("<<<M888>>>" ++ check (runes_of_ascii "//
+options { MetaDataX =
+    /// triple
+    """ ++ [28040; 24687]%N ++ runes_of_ascii """ ;
+chars  =
+// 50% %s
 //
-// c
-zchar[ 0 ]
-a1 // " ++ [128512]%N ++ runes_of_ascii " emoji
-,repeat zchar[ 7 ] pack , @lengthOf(zchar	) @calculatedFrom(
-""1"") char  _x
-    ,	}")).
-Eval vm_compute in ("<<<M1752>>>" ++ check (runes_of_ascii "
-")).
-Eval vm_compute in ("<<<M1784>>>" ++ check (runes_of_ascii "// c
+f64 options1 =42} root
+    packet
+    roots{ u8
+    metadata`tab	here`, BodyLength @lengthOf( body
+    ) //
+, }")).
+Eval vm_compute in ("<<<T888>>>" ++ terms [mkTok 44 "//" 1 0 true; mkTok 1 "options" 2 0 false; mkTok 2 "{" 2 8 false; mkTok 42 "MetaDataX" 2 10 false; mkTok 4 "=" 2 20 false; mkTok 44 "/// triple" 3 4 true; mkTok 31 (string_of_bytes [34; 230; 182; 136; 230; 129; 175; 34]%N) 4 4 false; mkTok 41 ";" 4 9 false; mkTok 42 "chars" 5 0 false; mkTok 4 "=" 5 7 false; mkTok 44 "// 50% %s" 6 0 true; mkTok 44 "//" 7 0 true; mkTok 29 "f64" 8 0 false; mkTok 42 "options1" 8 4 false; mkTok 4 "=" 8 13 false; mkTok 30 "42" 8 14 false; mkTok 3 "}" 8 16 false; mkTok 34 "root" 8 18 false; mkTok 35 "packet" 9 4 false; mkTok 42 "roots" 10 4 false; mkTok 2 "{" 10 9 false; mkTok 20 "u8" 10 11 false; mkTok 42 "metadata" 11 4 false; mkTok 43 (string_of_bytes [96; 116; 97; 98; 9; 104; 101; 114; 101; 96]%N) 11 12 false; mkTok 40 "," 11 22 false; mkTok 42 "BodyLength" 11 24 false; mkTok 7 "@lengthOf(" 11 35 false; mkTok 42 "body" 11 46 false; mkTok 6 ")" 12 4 false; mkTok 44 "//" 12 6 true; mkTok 40 "," 13 0 false; mkTok 3 "}" 13 2 false; mkTok 0 "<EOF>" 13 3 false] (mkPacket (mkPtok 1 "options" 2 0 1) (Some (mkPtok 3 "}" 13 2 31)) [(DOption (mkOptionDef (mkSpan (mkPtok 1 "options" 2 0 1) (mkPtok 3 "}" 8 16 16)) (mkPtok 1 "options" 2 0 1) (mkPtok 2 "{" 2 8 2) [(mkOptionDecl (mkSpan (mkPtok 42 "MetaDataX" 2 10 3) (mkPtok 41 ";" 4 9 7)) (mkPtok 42 "MetaDataX" 2 10 3) (mkPtok 4 "=" 2 20 4) (VString (mkSpan (mkPtok 31 (string_of_bytes [34; 230; 182; 136; 230; 129; 175; 34]%N) 4 4 6) (mkPtok 31 (string_of_bytes [34; 230; 182; 136; 230; 129; 175; 34]%N) 4 4 6)) (mkPtok 31 (string_of_bytes [34; 230; 182; 136; 230; 129; 175; 34]%N) 4 4 6)) (Some (mkPtok 41 ";" 4 9 7))); (mkOptionDecl (mkSpan (mkPtok 42 "chars" 5 0 8) (mkPtok 29 "f64" 8 0 12)) (mkPtok 42 "chars" 5 0 8) (mkPtok 4 "=" 5 7 9) (VType (mkSpan (mkPtok 29 "f64" 8 0 12) (mkPtok 29 "f64" 8 0 12)) (TyBasic (mkSpan (mkPtok 29 "f64" 8 0 12) (mkPtok 29 "f64" 8 0 12)) (mkBasicType (mkSpan (mkPtok 29 "f64" 8 0 12) (mkPtok 29 "f64" 8 0 12)) (mkPtok 29 "f64" 8 0 12)))) None); (mkOptionDecl (mkSpan (mkPtok 42 "options1" 8 4 13) (mkPtok 30 "42" 8 14 15)) (mkPtok 42 "options1" 8 4 13) (mkPtok 4 "=" 8 13 14) (VDigits (mkSpan (mkPtok 30 "42" 8 14 15) (mkPtok 30 "42" 8 14 15)) (mkPtok 30 "42" 8 14 15)) None)] (mkPtok 3 "}" 8 16 16))); (DPacket (mkPacketDef (mkSpan (mkPtok 34 "root" 8 18 17) (mkPtok 3 "}" 13 2 31)) (Some (mkPtok 34 "root" 8 18 17)) (mkPtok 35 "packet" 9 4 18) (mkPtok 42 "roots" 10 4 19) (mkPtok 2 "{" 10 9 20) [(mkFieldWithAttr (mkSpan (mkPtok 20 "u8" 10 11 21) (mkPtok 40 "," 11 22 24)) [] (MetaField (mkSpan (mkPtok 20 "u8" 10 11 21) (mkPtok 40 "," 11 22 24)) None (mkMetaDecl (mkSpan (mkPtok 20 "u8" 10 11 21) (mkPtok 40 "," 11 22 24)) (TyBasic (mkSpan (mkPtok 20 "u8" 10 11 21) (mkPtok 20 "u8" 10 11 21)) (mkBasicType (mkSpan (mkPtok 20 "u8" 10 11 21) (mkPtok 20 "u8" 10 11 21)) (mkPtok 20 "u8" 10 11 21))) (mkPtok 42 "metadata" 11 4 22) (Some (mkPtok 43 (string_of_bytes [96; 116; 97; 98; 9; 104; 101; 114; 101; 96]%N) 11 12 23)) (mkPtok 40 "," 11 22 24)))); (mkFieldWithAttr (mkSpan (mkPtok 42 "BodyLength" 11 24 25) (mkPtok 40 "," 13 0 30)) [] (LengthField (mkSpan (mkPtok 42 "BodyLength" 11 24 25) (mkPtok 40 "," 13 0 30)) (mkLengthFieldDecl (mkSpan (mkPtok 42 "BodyLength" 11 24 25) (mkPtok 40 "," 13 0 30)) None (mkPtok 42 "BodyLength" 11 24 25) (mkLengthOf (mkSpan (mkPtok 7 "@lengthOf(" 11 35 26) (mkPtok 6 ")" 12 4 28)) (mkPtok 7 "@lengthOf(" 11 35 26) (mkPtok 42 "body" 11 46 27) (mkPtok 6 ")" 12 4 28)) None (mkPtok 40 "," 13 0 30))))] (mkPtok 3 "}" 13 2 31)))])).
+Eval vm_compute in ("<<<M920>>>" ++ check (runes_of_ascii "packet Pad { @lengthOf( f32a )repeat u64
+    // c
+    lengthOf`it's`,
+    @calculatedFrom( //x
+""CRC32"" ) falsey {repeat  uint16 pack
+    , } , } root
+    packet
+falsey { int8 //
+falsey ,
+    } root packet
+trueish
+    {}
+//x
+// trailing space 
 root
-packet A  { }
+    packet /// triple
+calculatedFrom//
+{}")).
+Eval vm_compute in ("<<<M952>>>" ++ check (runes_of_ascii "
+root packet x{  }
+    packet
+    Foo { packetx a1 , metadata u128
+`line1
+line2` , @tag(
+0123456789 ) @calculatedFrom( //
+""// no comment""
+    // 50% %s
+    )Packet
+`// not a comment` , u32 packetx
+,	} options { i64_ = // a // b
+uint32
+    ; u128
+=
+42  Packet
+    ='\x00' i64_ = 007
+;
+Pad = char[65535 ] ;
+    } root packet
+// `tick` ""quote"" 'q'
 //
+msg_type { match	float
+    //
+    as falsey {
+// " ++ [27880; 37322]%N ++ runes_of_ascii "
+// 50% %s
+0123456789 :x ,	""abc"" : x // `tick` ""quote"" 'q'
+} // " ++ [128512]%N ++ runes_of_ascii " emoji
+, }")).
+Eval vm_compute in ("<<<M984>>>" ++ check (runes_of_ascii "packet charz //
+{ char float , //x
+} packet float {
+    // @lengthOf(
+    zchar[ 0123456789 ] trueish
+    @lengthOf( i8i8
+) , i64 Pad  , }")).
+Eval vm_compute in ("<<<M1016>>>" ++ check (runes_of_ascii "options {	u128=
+    007 f32a =// c
+7}  root
+packet uint8x { // c
+f64
+    u @lengthOf(	x )`two words`	,
+    @lengthOf( packetx) repeat float Pad `u8 x,`,int x `` , i64 crc
+@calculatedFrom( ""it's"") ,repeat	Logon ,	uint64
+o
+`it's`,@tag(
+42)
+    i32 _x@lengthOf(i8i8 ) `{ , }` // c
+, } options { float =
+    // " ++ [128512]%N ++ runes_of_ascii " emoji
+    ""\" ++ [233]%N ++ runes_of_ascii """; msg_type
+= false
+BodyLength =  ' 'u =
+' ' o = ""\n"" ;
+} MetaData	u
+{ x_y_z leftPad
+, char[
+65535 ]
+asx ,  char[] u8x , // c
+charz
+len `// not a comment`
+, } options{
+}")).
+Eval vm_compute in ("<<<M1048>>>" ++ check (runes_of_ascii "MetaData float
+    { MetaDataX
+i8i8	`it's` ,} packet x_y_z { } packet float{ }")).
+Eval vm_compute in ("<<<M1080>>>" ++ check (runes_of_ascii "options {
+    options1 =
+    char[]
+    // c
+    lengthOf
+= string Foo = 255
+body = 7
+    //x
+    ;	chars
+= true
+}")).
+Eval vm_compute in ("<<<M1112>>>" ++ check (runes_of_ascii "options
+    //
+    { roots	=i8 ;  }
 ")).
-Eval vm_compute in ("<<<T1784>>>" ++ terms [mkTok 44 "// c" 1 0 true; mkTok 34 "root" 2 0 false; mkTok 35 "packet" 3 0 false; mkTok 42 "A" 3 7 false; mkTok 2 "{" 3 10 false; mkTok 3 "}" 3 12 false; mkTok 44 "//" 4 0 true; mkTok 0 "<EOF>" 5 0 false] (mkPacket (mkPtok 34 "root" 2 0 1) (Some (mkPtok 3 "}" 3 12 5)) [(DPacket (mkPacketDef (mkSpan (mkPtok 34 "root" 2 0 1) (mkPtok 3 "}" 3 12 5)) (Some (mkPtok 34 "root" 2 0 1)) (mkPtok 35 "packet" 3 0 2) (mkPtok 42 "A" 3 7 3) (mkPtok 2 "{" 3 10 4) [] (mkPtok 3 "}" 3 12 5)))])).
-Eval vm_compute in ("<<<M1816>>>" ++ check (runes_of_ascii "// a // b
+Eval vm_compute in ("<<<T1112>>>" ++ terms [mkTok 1 "options" 1 0 false; mkTok 44 "//" 2 4 true; mkTok 2 "{" 3 4 false; mkTok 42 "roots" 3 6 false; mkTok 4 "=" 3 12 false; mkTok 24 "i8" 3 13 false; mkTok 41 ";" 3 16 false; mkTok 3 "}" 3 19 false; mkTok 0 "<EOF>" 4 0 false] (mkPacket (mkPtok 1 "options" 1 0 0) (Some (mkPtok 3 "}" 3 19 7)) [(DOption (mkOptionDef (mkSpan (mkPtok 1 "options" 1 0 0) (mkPtok 3 "}" 3 19 7)) (mkPtok 1 "options" 1 0 0) (mkPtok 2 "{" 3 4 2) [(mkOptionDecl (mkSpan (mkPtok 42 "roots" 3 6 3) (mkPtok 41 ";" 3 16 6)) (mkPtok 42 "roots" 3 6 3) (mkPtok 4 "=" 3 12 4) (VType (mkSpan (mkPtok 24 "i8" 3 13 5) (mkPtok 24 "i8" 3 13 5)) (TyBasic (mkSpan (mkPtok 24 "i8" 3 13 5) (mkPtok 24 "i8" 3 13 5)) (mkBasicType (mkSpan (mkPtok 24 "i8" 3 13 5) (mkPtok 24 "i8" 3 13 5)) (mkPtok 24 "i8" 3 13 5)))) (Some (mkPtok 41 ";" 3 16 6)))] (mkPtok 3 "}" 3 19 7)))])).
+Eval vm_compute in ("<<<M1144>>>" ++ check (runes_of_ascii "// packet A { u8 x, }
+MetaData chars { stringy falsey  ,
+    }
+")).
+Eval vm_compute in ("<<<M1176>>>" ++ check (runes_of_ascii "// " ++ [27880; 37322]%N ++ runes_of_ascii "
+ // trailing space ")).
+Eval vm_compute in ("<<<M1208>>>" ++ check (runes_of_ascii "MetaData i8i8 // a // b
+{
+char x_y_z
+    ``, i16 body
+`two words`,}
+")).
+Eval vm_compute in ("<<<M1240>>>" ++ check (runes_of_ascii "options { f32a	=
+' ' } packet // " ++ [128512]%N ++ runes_of_ascii " emoji
+metadata { @lengthOf(
+a1	)
+@calculatedFrom(  """ ++ [28040; 24687]%N ++ runes_of_ascii """) @rightPad ( '0' ) i64_ o `say ""hi""`
+, Packet @calculatedFrom(""packet"")
+,char[]
+    tag
+    , @calculatedFrom(
+    // " ++ [128512]%N ++ runes_of_ascii " emoji
+    ""a\""b"" ) match tag as BodyLength {
+    ""CRC32"" :
+asx ,10 : metadata ,
+    }, @tag( 7 ) @tag(7
+    ) @tag( 42
+    )Header { i64 // " ++ [27880; 37322]%N ++ runes_of_ascii "
+A //
+`two words`
+    , char[]Packet
+    , } , @calculatedFrom( """ ++ [28040; 24687]%N ++ runes_of_ascii """ ) @calculatedFrom( ""x y"" ) @tag( 3 )char[] Packet `tab	here`, @rightPad( '0' ) Packet, repeat Pad {match packetx
+    as charz
+// `tick` ""quote"" 'q'
+// c
+{
+//x
+//
+""a\""b"" :
+packetx [00 ,
+007 ,
+    ""1""
+    , ""it's""
+,""it's"" ]	: Packet ,
+    // " ++ [128512]%N ++ runes_of_ascii " emoji
+    ""\" ++ [233]%N ++ runes_of_ascii """: // `tick` ""quote"" 'q'
+repeatCount , [ """ ++ [233]%N ++ runes_of_ascii "t" ++ [233]%N ++ runes_of_ascii """	,
+007 , 10 ]:
+    // " ++ [128512]%N ++ runes_of_ascii " emoji
+    charz
+,  [ ""CRC32""  ] :roots ,}
+    ,  } ,@lengthOf( float  ) uint8x	,
+}
+    // " ++ [128512]%N ++ runes_of_ascii " emoji
+    options {
+len
+    = float64 ;
+    Header = '0'; Foo = string; i64_ =
+false ;}
+")).
+Eval vm_compute in ("<<<M1272>>>" ++ check (runes_of_ascii "root packet
+    falsey {int falsey , u8 Packet @lengthOf( f32a )`u8 x,` , } // `tick` ""quote"" 'q'")).
+Eval vm_compute in ("<<<M1304>>>" ++ check (runes_of_ascii "
+root packet
+zchar { @leftPad
+(
+    '\x00'
+) string
+    As
+`
+` , // 50% %s
+} packet packetx { u8 Z9_, @rightPad	(
+    ) // c
+int16 int
+`u8 x,`, @tag(3 )	@calculatedFrom( ""`tick`"")  char[255
+    // `tick` ""quote"" 'q'
+    ]stringy
+, zchar[	10
+    ] len , @tag(
+00
+)
+zchar MetaDataX ,
+}
+")).
+Eval vm_compute in ("<<<M1336>>>" ++ check (runes_of_ascii "packet
+Pad
+{ int64 body //	t
+`" ++ [28040; 24687; 31867; 22411]%N ++ runes_of_ascii "`
+    , @rightPad ( // a // b
+' '	)repeat
+f32 calculatedFrom `` , match msg_type as
+int// packet A { u8 x, }
+{ ""1"" : As
+,""a	b""
+: A , ""x y""
+:repeatCount
+    ,""" ++ [128512]%N ++ runes_of_ascii """ :u8x [  7, 65535]:lengthOf , } , @tag(
+    3 )
+@lengthOf(	asx )
+@rightPad(
+    '\x00' //	t
+) string_ body`line1
+line2` , char[ 7 ] Foo @calculatedFrom( ""// no comment"")	,@lengthOf( Pad//	t
+) trueish
+pack `a\`,  @calculatedFrom( ""{,}"" )@tag( 3
+    )
+char[ 0123456789// `tick` ""quote"" 'q'
+]roots
+    @lengthOf( //	t
+packetx )`tab	here`
+// " ++ [27880; 37322]%N ++ runes_of_ascii "
+//	t
+,@calculatedFrom( ""a	b""
+)
+match
+// " ++ [27880; 37322]%N ++ runes_of_ascii "
+// @lengthOf(
+f32a as asx { 42 :
+    lengthOf ,[	0123456789 ,1] : asx
+,
+    [ //	t
+42
+    , 0123456789
+// c
+//x
+, 00 ,
+    ""1"" ,  3  ,65535 , // trailing space 
+""it's"" , 3 ]:// packet A { u8 x, }
+msg_type	,
+    ""packet"" : repeatCount , """"
+    :  chars },
+zchar[0] u
+, }// c
+MetaData
+    // " ++ [128512]%N ++ runes_of_ascii " emoji
+    charz {
+zchar[007]Logon	`{ , }`
+,u8x
+    a1  `
+` ,
+    f32a
+i8i8
+,
+i32
+int
+,
+packetx repeatCount `
+`,
+    //x
+    } MetaData metadata{
+matchKey
+Header
+    // a // b
+    , string	o`a\`	, zchar[ 1 ]chars , i64 f32a  `100% of %d`,
+uint64  crc `tab	here` , zchar[ //	t
+10] matchKey ,  } root packet _x { @leftPad // trailing space 
+( ) char[
+00
+] BodyLength
+`" ++ [233]%N ++ runes_of_ascii "` ,}
 
 ")).
-Eval vm_compute in ("<<<M1848>>>" ++ check (runes_of_ascii "packet rootA {
+Eval vm_compute in ("<<<T1336>>>" ++ terms [mkTok 35 "packet" 1 0 false; mkTok 42 "Pad" 2 0 false; mkTok 2 "{" 3 0 false; mkTok 27 "int64" 3 2 false; mkTok 42 "body" 3 8 false; mkTok 44 (string_of_bytes [47; 47; 9; 116]%N) 3 13 true; mkTok 43 (string_of_bytes [96; 230; 182; 136; 230; 129; 175; 231; 177; 187; 229; 158; 139; 96]%N) 4 0 false; mkTok 40 "," 5 4 false; mkTok 32 "@rightPad" 5 6 false; mkTok 8 "(" 5 16 false; mkTok 44 "// a // b" 5 18 true; mkTok 33 "' '" 6 0 false; mkTok 6 ")" 6 4 false; mkTok 36 "repeat" 6 5 false; mkTok 28 "f32" 7 0 false; mkTok 42 "calculatedFrom" 7 4 false; mkTok 43 "``" 7 19 false; mkTok 40 "," 7 22 false; mkTok 38 "match" 7 24 false; mkTok 42 "msg_type" 7 30 false; mkTok 17 "as" 7 39 false; mkTok 42 "int" 8 0 false; mkTok 44 "// packet A { u8 x, }" 8 3 true; mkTok 2 "{" 9 0 false; mkTok 31 """1""" 9 2 false; mkTok 39 ":" 9 6 false; mkTok 42 "As" 9 8 false; mkTok 40 "," 10 0 false; mkTok 31 (string_of_bytes [34; 97; 9; 98; 34]%N) 10 1 false; mkTok 39 ":" 11 0 false; mkTok 42 "A" 11 2 false; mkTok 40 "," 11 4 false; mkTok 31 """x y""" 11 6 false; mkTok 39 ":" 12 0 false; mkTok 42 "repeatCount" 12 1 false; mkTok 40 "," 13 4 false; mkTok 31 (string_of_bytes [34; 240; 159; 152; 128; 34]%N) 13 5 false; mkTok 39 ":" 13 9 false; mkTok 42 "u8x" 13 10 false; mkTok 18 "[" 13 14 false; mkTok 30 "7" 13 17 false; mkTok 40 "," 13 18 false; mkTok 30 "65535" 13 20 false; mkTok 13 "]" 13 25 false; mkTok 39 ":" 13 26 false; mkTok 42 "lengthOf" 13 27 false; mkTok 40 "," 13 36 false; mkTok 3 "}" 13 38 false; mkTok 40 "," 13 40 false; mkTok 9 "@tag(" 13 42 false; mkTok 30 "3" 14 4 false; mkTok 6 ")" 14 6 false; mkTok 7 "@lengthOf(" 15 0 false; mkTok 42 "asx" 15 11 false; mkTok 6 ")" 15 15 false; mkTok 32 "@rightPad" 16 0 false; mkTok 8 "(" 16 9 false; mkTok 33 "'\x00'" 17 4 false; mkTok 44 (string_of_bytes [47; 47; 9; 116]%N) 17 11 true; mkTok 6 ")" 18 0 false; mkTok 42 "string_" 18 2 false; mkTok 42 "body" 18 10 false; mkTok 43 (string_of_bytes [96; 108; 105; 110; 101; 49; 10; 108; 105; 110; 101; 50; 96]%N) 18 14 false; mkTok 40 "," 19 7 false; mkTok 12 "char[" 19 9 false; mkTok 30 "7" 19 15 false; mkTok 13 "]" 19 17 false; mkTok 42 "Foo" 19 19 false; mkTok 5 "@calculatedFrom(" 19 23 false; mkTok 31 """// no comment""" 19 40 false; mkTok 6 ")" 19 55 false; mkTok 40 "," 19 57 false; mkTok 7 "@lengthOf(" 19 58 false; mkTok 42 "Pad" 19 69 false; mkTok 44 (string_of_bytes [47; 47; 9; 116]%N) 19 72 true; mkTok 6 ")" 20 0 false; mkTok 42 "trueish" 20 2 false; mkTok 42 "pack" 21 0 false; mkTok 43 "`a\`" 21 5 false; mkTok 40 "," 21 9 false; mkTok 5 "@calculatedFrom(" 21 12 false; mkTok 31 """{,}""" 21 29 false; mkTok 6 ")" 21 35 false; mkTok 9 "@tag(" 21 36 false; mkTok 30 "3" 21 42 false; mkTok 6 ")" 22 4 false; mkTok 12 "char[" 23 0 false; mkTok 30 "0123456789" 23 6 false; mkTok 44 "// `tick` ""quote"" 'q'" 23 16 true; mkTok 13 "]" 24 0 false; mkTok 42 "roots" 24 1 false; mkTok 7 "@lengthOf(" 25 4 false; mkTok 44 (string_of_bytes [47; 47; 9; 116]%N) 25 15 true; mkTok 42 "packetx" 26 0 false; mkTok 6 ")" 26 8 false; mkTok 43 (string_of_bytes [96; 116; 97; 98; 9; 104; 101; 114; 101; 96]%N) 26 9 false; mkTok 44 (string_of_bytes [47; 47; 32; 230; 179; 168; 233; 135; 138]%N) 27 0 true; mkTok 44 (string_of_bytes [47; 47; 9; 116]%N) 28 0 true; mkTok 40 "," 29 0 false; mkTok 5 "@calculatedFrom(" 29 1 false; mkTok 31 (string_of_bytes [34; 97; 9; 98; 34]%N) 29 18 false; mkTok 6 ")" 30 0 false; mkTok 38 "match" 31 0 false; mkTok 44 (string_of_bytes [47; 47; 32; 230; 179; 168; 233; 135; 138]%N) 32 0 true; mkTok 44 "// @lengthOf(" 33 0 true; mkTok 42 "f32a" 34 0 false; mkTok 17 "as" 34 5 false; mkTok 42 "asx" 34 8 false; mkTok 2 "{" 34 12 false; mkTok 30 "42" 34 14 false; mkTok 39 ":" 34 17 false; mkTok 42 "lengthOf" 35 4 false; mkTok 40 "," 35 13 false; mkTok 18 "[" 35 14 false; mkTok 30 "0123456789" 35 16 false; mkTok 40 "," 35 27 false; mkTok 30 "1" 35 28 false; mkTok 13 "]" 35 29 false; mkTok 39 ":" 35 31 false; mkTok 42 "asx" 35 33 false; mkTok 40 "," 36 0 false; mkTok 18 "[" 37 4 false; mkTok 44 (string_of_bytes [47; 47; 9; 116]%N) 37 6 true; mkTok 30 "42" 38 0 false; mkTok 40 "," 39 4 false; mkTok 30 "0123456789" 39 6 false; mkTok 44 "// c" 40 0 true; mkTok 44 "//x" 41 0 true; mkTok 40 "," 42 0 false; mkTok 30 "00" 42 2 false; mkTok 40 "," 42 5 false; mkTok 31 """1""" 43 4 false; mkTok 40 "," 43 8 false; mkTok 30 "3" 43 11 false; mkTok 40 "," 43 14 false; mkTok 30 "65535" 43 15 false; mkTok 40 "," 43 21 false; mkTok 44 "// trailing space " 43 23 true; mkTok 31 """it's""" 44 0 false; mkTok 40 "," 44 7 false; mkTok 30 "3" 44 9 false; mkTok 13 "]" 44 11 false; mkTok 39 ":" 44 12 false; mkTok 44 "// packet A { u8 x, }" 44 13 true; mkTok 42 "msg_type" 45 0 false; mkTok 40 "," 45 9 false; mkTok 31 """packet""" 46 4 false; mkTok 39 ":" 46 13 false; mkTok 42 "repeatCount" 46 15 false; mkTok 40 "," 46 27 false; mkTok 31 """""" 46 29 false; mkTok 39 ":" 47 4 false; mkTok 42 "chars" 47 7 false; mkTok 3 "}" 47 13 false; mkTok 40 "," 47 14 false; mkTok 14 "zchar[" 48 0 false; mkTok 30 "0" 48 6 false; mkTok 13 "]" 48 7 false; mkTok 42 "u" 48 9 false; mkTok 40 "," 49 0 false; mkTok 3 "}" 49 2 false; mkTok 44 "// c" 49 3 true; mkTok 37 "MetaData" 50 0 false; mkTok 44 (string_of_bytes [47; 47; 32; 240; 159; 152; 128; 32; 101; 109; 111; 106; 105]%N) 51 4 true; mkTok 42 "charz" 52 4 false; mkTok 2 "{" 52 10 false; mkTok 14 "zchar[" 53 0 false; mkTok 30 "007" 53 6 false; mkTok 13 "]" 53 9 false; mkTok 42 "Logon" 53 10 false; mkTok 43 "`{ , }`" 53 16 false; mkTok 40 "," 54 0 false; mkTok 42 "u8x" 54 1 false; mkTok 42 "a1" 55 4 false; mkTok 43 (string_of_bytes [96; 10; 96]%N) 55 8 false; mkTok 40 "," 56 2 false; mkTok 42 "f32a" 57 4 false; mkTok 42 "i8i8" 58 0 false; mkTok 40 "," 59 0 false; mkTok 26 "i32" 60 0 false; mkTok 42 "int" 61 0 false; mkTok 40 "," 62 0 false; mkTok 42 "packetx" 63 0 false; mkTok 42 "repeatCount" 63 8 false; mkTok 43 (string_of_bytes [96; 10; 96]%N) 63 20 false; mkTok 40 "," 64 1 false; mkTok 44 "//x" 65 4 true; mkTok 3 "}" 66 4 false; mkTok 37 "MetaData" 66 6 false; mkTok 42 "metadata" 66 15 false; mkTok 2 "{" 66 23 false; mkTok 42 "matchKey" 67 0 false; mkTok 42 "Header" 68 0 false; mkTok 44 "// a // b" 69 4 true; mkTok 40 "," 70 4 false; mkTok 15 "string" 70 6 false; mkTok 42 "o" 70 13 false; mkTok 43 "`a\`" 70 14 false; mkTok 40 "," 70 19 false; mkTok 14 "zchar[" 70 21 false; mkTok 30 "1" 70 28 false; mkTok 13 "]" 70 30 false; mkTok 42 "chars" 70 31 false; mkTok 40 "," 70 37 false; mkTok 27 "i64" 70 39 false; mkTok 42 "f32a" 70 43 false; mkTok 43 "`100% of %d`" 70 49 false; mkTok 40 "," 70 61 false; mkTok 23 "uint64" 71 0 false; mkTok 42 "crc" 71 8 false; mkTok 43 (string_of_bytes [96; 116; 97; 98; 9; 104; 101; 114; 101; 96]%N) 71 12 false; mkTok 40 "," 71 23 false; mkTok 14 "zchar[" 71 25 false; mkTok 44 (string_of_bytes [47; 47; 9; 116]%N) 71 32 true; mkTok 30 "10" 72 0 false; mkTok 13 "]" 72 2 false; mkTok 42 "matchKey" 72 4 false; mkTok 40 "," 72 13 false; mkTok 3 "}" 72 16 false; mkTok 34 "root" 72 18 false; mkTok 35 "packet" 72 23 false; mkTok 42 "_x" 72 30 false; mkTok 2 "{" 72 33 false; mkTok 32 "@leftPad" 72 35 false; mkTok 44 "// trailing space " 72 44 true; mkTok 8 "(" 73 0 false; mkTok 6 ")" 73 2 false; mkTok 12 "char[" 73 4 false; mkTok 30 "00" 74 0 false; mkTok 13 "]" 75 0 false; mkTok 42 "BodyLength" 75 2 false; mkTok 43 (string_of_bytes [96; 195; 169; 96]%N) 76 0 false; mkTok 40 "," 76 4 false; mkTok 3 "}" 76 5 false; mkTok 0 "<EOF>" 78 0 false] (mkPacket (mkPtok 35 "packet" 1 0 0) (Some (mkPtok 3 "}" 76 5 233)) [(DPacket (mkPacketDef (mkSpan (mkPtok 35 "packet" 1 0 0) (mkPtok 3 "}" 49 2 160)) None (mkPtok 35 "packet" 1 0 0) (mkPtok 42 "Pad" 2 0 1) (mkPtok 2 "{" 3 0 2) [(mkFieldWithAttr (mkSpan (mkPtok 27 "int64" 3 2 3) (mkPtok 40 "," 5 4 7)) [] (MetaField (mkSpan (mkPtok 27 "int64" 3 2 3) (mkPtok 40 "," 5 4 7)) None (mkMetaDecl (mkSpan (mkPtok 27 "int64" 3 2 3) (mkPtok 40 "," 5 4 7)) (TyBasic (mkSpan (mkPtok 27 "int64" 3 2 3) (mkPtok 27 "int64" 3 2 3)) (mkBasicType (mkSpan (mkPtok 27 "int64" 3 2 3) (mkPtok 27 "int64" 3 2 3)) (mkPtok 27 "int64" 3 2 3))) (mkPtok 42 "body" 3 8 4) (Some (mkPtok 43 (string_of_bytes [96; 230; 182; 136; 230; 129; 175; 231; 177; 187; 229; 158; 139; 96]%N) 4 0 6)) (mkPtok 40 "," 5 4 7)))); (mkFieldWithAttr (mkSpan (mkPtok 32 "@rightPad" 5 6 8) (mkPtok 40 "," 7 22 17)) [(FAPadding (mkSpan (mkPtok 32 "@rightPad" 5 6 8) (mkPtok 6 ")" 6 4 12)) (mkPaddingAttr (mkSpan (mkPtok 32 "@rightPad" 5 6 8) (mkPtok 6 ")" 6 4 12)) (mkPtok 32 "@rightPad" 5 6 8) (mkPtok 8 "(" 5 16 9) (Some (mkPtok 33 "' '" 6 0 11)) (mkPtok 6 ")" 6 4 12)))] (MetaField (mkSpan (mkPtok 36 "repeat" 6 5 13) (mkPtok 40 "," 7 22 17)) (Some (mkPtok 36 "repeat" 6 5 13)) (mkMetaDecl (mkSpan (mkPtok 28 "f32" 7 0 14) (mkPtok 40 "," 7 22 17)) (TyBasic (mkSpan (mkPtok 28 "f32" 7 0 14) (mkPtok 28 "f32" 7 0 14)) (mkBasicType (mkSpan (mkPtok 28 "f32" 7 0 14) (mkPtok 28 "f32" 7 0 14)) (mkPtok 28 "f32" 7 0 14))) (mkPtok 42 "calculatedFrom" 7 4 15) (Some (mkPtok 43 "``" 7 19 16)) (mkPtok 40 "," 7 22 17)))); (mkFieldWithAttr (mkSpan (mkPtok 38 "match" 7 24 18) (mkPtok 40 "," 13 40 48)) [] (MatchField (mkSpan (mkPtok 38 "match" 7 24 18) (mkPtok 40 "," 13 40 48)) (mkMatchFieldDecl (mkSpan (mkPtok 38 "match" 7 24 18) (mkPtok 3 "}" 13 38 47)) (mkPtok 38 "match" 7 24 18) (mkPtok 42 "msg_type" 7 30 19) (mkPtok 17 "as" 7 39 20) (mkPtok 42 "int" 8 0 21) (mkPtok 2 "{" 9 0 23) [(mkMatchPair (mkSpan (mkPtok 31 """1""" 9 2 24) (mkPtok 40 "," 10 0 27)) (MKString (mkPtok 31 """1""" 9 2 24)) (mkPtok 39 ":" 9 6 25) (mkPtok 42 "As" 9 8 26) (Some (mkPtok 40 "," 10 0 27))); (mkMatchPair (mkSpan (mkPtok 31 (string_of_bytes [34; 97; 9; 98; 34]%N) 10 1 28) (mkPtok 40 "," 11 4 31)) (MKString (mkPtok 31 (string_of_bytes [34; 97; 9; 98; 34]%N) 10 1 28)) (mkPtok 39 ":" 11 0 29) (mkPtok 42 "A" 11 2 30) (Some (mkPtok 40 "," 11 4 31))); (mkMatchPair (mkSpan (mkPtok 31 """x y""" 11 6 32) (mkPtok 40 "," 13 4 35)) (MKString (mkPtok 31 """x y""" 11 6 32)) (mkPtok 39 ":" 12 0 33) (mkPtok 42 "repeatCount" 12 1 34) (Some (mkPtok 40 "," 13 4 35))); (mkMatchPair (mkSpan (mkPtok 31 (string_of_bytes [34; 240; 159; 152; 128; 34]%N) 13 5 36) (mkPtok 42 "u8x" 13 10 38)) (MKString (mkPtok 31 (string_of_bytes [34; 240; 159; 152; 128; 34]%N) 13 5 36)) (mkPtok 39 ":" 13 9 37) (mkPtok 42 "u8x" 13 10 38) None); (mkMatchPair (mkSpan (mkPtok 18 "[" 13 14 39) (mkPtok 40 "," 13 36 46)) (MKList (mkKeyList (mkSpan (mkPtok 18 "[" 13 14 39) (mkPtok 13 "]" 13 25 43)) (mkPtok 18 "[" 13 14 39) (mkPtok 30 "7" 13 17 40) [((mkPtok 40 "," 13 18 41), (mkPtok 30 "65535" 13 20 42))] (mkPtok 13 "]" 13 25 43))) (mkPtok 39 ":" 13 26 44) (mkPtok 42 "lengthOf" 13 27 45) (Some (mkPtok 40 "," 13 36 46)))] (mkPtok 3 "}" 13 38 47)) (mkPtok 40 "," 13 40 48))); (mkFieldWithAttr (mkSpan (mkPtok 9 "@tag(" 13 42 49) (mkPtok 40 "," 19 7 63)) [(FATag (mkSpan (mkPtok 9 "@tag(" 13 42 49) (mkPtok 6 ")" 14 6 51)) (mkTagAttr (mkSpan (mkPtok 9 "@tag(" 13 42 49) (mkPtok 6 ")" 14 6 51)) (mkPtok 9 "@tag(" 13 42 49) (mkPtok 30 "3" 14 4 50) (mkPtok 6 ")" 14 6 51))); (FALengthOf (mkSpan (mkPtok 7 "@lengthOf(" 15 0 52) (mkPtok 6 ")" 15 15 54)) (mkLengthOf (mkSpan (mkPtok 7 "@lengthOf(" 15 0 52) (mkPtok 6 ")" 15 15 54)) (mkPtok 7 "@lengthOf(" 15 0 52) (mkPtok 42 "asx" 15 11 53) (mkPtok 6 ")" 15 15 54))); (FAPadding (mkSpan (mkPtok 32 "@rightPad" 16 0 55) (mkPtok 6 ")" 18 0 59)) (mkPaddingAttr (mkSpan (mkPtok 32 "@rightPad" 16 0 55) (mkPtok 6 ")" 18 0 59)) (mkPtok 32 "@rightPad" 16 0 55) (mkPtok 8 "(" 16 9 56) (Some (mkPtok 33 "'\x00'" 17 4 57)) (mkPtok 6 ")" 18 0 59)))] (ObjectField (mkSpan (mkPtok 42 "string_" 18 2 60) (mkPtok 40 "," 19 7 63)) None (mkPtok 42 "string_" 18 2 60) (Some (mkPtok 42 "body" 18 10 61)) (Some (mkPtok 43 (string_of_bytes [96; 108; 105; 110; 101; 49; 10; 108; 105; 110; 101; 50; 96]%N) 18 14 62)) (mkPtok 40 "," 19 7 63))); (mkFieldWithAttr (mkSpan (mkPtok 12 "char[" 19 9 64) (mkPtok 40 "," 19 57 71)) [] (CheckSumField (mkSpan (mkPtok 12 "char[" 19 9 64) (mkPtok 40 "," 19 57 71)) (mkChecksumFieldDecl (mkSpan (mkPtok 12 "char[" 19 9 64) (mkPtok 40 "," 19 57 71)) (Some (TyFixed (mkSpan (mkPtok 12 "char[" 19 9 64) (mkPtok 13 "]" 19 17 66)) (mkFixedString (mkSpan (mkPtok 12 "char[" 19 9 64) (mkPtok 13 "]" 19 17 66)) (mkPtok 12 "char[" 19 9 64) (mkPtok 30 "7" 19 15 65) (mkPtok 13 "]" 19 17 66)))) (mkPtok 42 "Foo" 19 19 67) (mkCalculatedFrom (mkSpan (mkPtok 5 "@calculatedFrom(" 19 23 68) (mkPtok 6 ")" 19 55 70)) (mkPtok 5 "@calculatedFrom(" 19 23 68) (mkPtok 31 """// no comment""" 19 40 69) (mkPtok 6 ")" 19 55 70)) None (mkPtok 40 "," 19 57 71)))); (mkFieldWithAttr (mkSpan (mkPtok 7 "@lengthOf(" 19 58 72) (mkPtok 40 "," 21 9 79)) [(FALengthOf (mkSpan (mkPtok 7 "@lengthOf(" 19 58 72) (mkPtok 6 ")" 20 0 75)) (mkLengthOf (mkSpan (mkPtok 7 "@lengthOf(" 19 58 72) (mkPtok 6 ")" 20 0 75)) (mkPtok 7 "@lengthOf(" 19 58 72) (mkPtok 42 "Pad" 19 69 73) (mkPtok 6 ")" 20 0 75)))] (ObjectField (mkSpan (mkPtok 42 "trueish" 20 2 76) (mkPtok 40 "," 21 9 79)) None (mkPtok 42 "trueish" 20 2 76) (Some (mkPtok 42 "pack" 21 0 77)) (Some (mkPtok 43 "`a\`" 21 5 78)) (mkPtok 40 "," 21 9 79))); (mkFieldWithAttr (mkSpan (mkPtok 5 "@calculatedFrom(" 21 12 80) (mkPtok 40 "," 29 0 98)) [(FACalculatedFrom (mkSpan (mkPtok 5 "@calculatedFrom(" 21 12 80) (mkPtok 6 ")" 21 35 82)) (mkCalculatedFrom (mkSpan (mkPtok 5 "@calculatedFrom(" 21 12 80) (mkPtok 6 ")" 21 35 82)) (mkPtok 5 "@calculatedFrom(" 21 12 80) (mkPtok 31 """{,}""" 21 29 81) (mkPtok 6 ")" 21 35 82))); (FATag (mkSpan (mkPtok 9 "@tag(" 21 36 83) (mkPtok 6 ")" 22 4 85)) (mkTagAttr (mkSpan (mkPtok 9 "@tag(" 21 36 83) (mkPtok 6 ")" 22 4 85)) (mkPtok 9 "@tag(" 21 36 83) (mkPtok 30 "3" 21 42 84) (mkPtok 6 ")" 22 4 85)))] (LengthField (mkSpan (mkPtok 12 "char[" 23 0 86) (mkPtok 40 "," 29 0 98)) (mkLengthFieldDecl (mkSpan (mkPtok 12 "char[" 23 0 86) (mkPtok 40 "," 29 0 98)) (Some (TyFixed (mkSpan (mkPtok 12 "char[" 23 0 86) (mkPtok 13 "]" 24 0 89)) (mkFixedString (mkSpan (mkPtok 12 "char[" 23 0 86) (mkPtok 13 "]" 24 0 89)) (mkPtok 12 "char[" 23 0 86) (mkPtok 30 "0123456789" 23 6 87) (mkPtok 13 "]" 24 0 89)))) (mkPtok 42 "roots" 24 1 90) (mkLengthOf (mkSpan (mkPtok 7 "@lengthOf(" 25 4 91) (mkPtok 6 ")" 26 8 94)) (mkPtok 7 "@lengthOf(" 25 4 91) (mkPtok 42 "packetx" 26 0 93) (mkPtok 6 ")" 26 8 94)) (Some (mkPtok 43 (string_of_bytes [96; 116; 97; 98; 9; 104; 101; 114; 101; 96]%N) 26 9 95)) (mkPtok 40 "," 29 0 98)))); (mkFieldWithAttr (mkSpan (mkPtok 5 "@calculatedFrom(" 29 1 99) (mkPtok 40 "," 47 14 154)) [(FACalculatedFrom (mkSpan (mkPtok 5 "@calculatedFrom(" 29 1 99) (mkPtok 6 ")" 30 0 101)) (mkCalculatedFrom (mkSpan (mkPtok 5 "@calculatedFrom(" 29 1 99) (mkPtok 6 ")" 30 0 101)) (mkPtok 5 "@calculatedFrom(" 29 1 99) (mkPtok 31 (string_of_bytes [34; 97; 9; 98; 34]%N) 29 18 100) (mkPtok 6 ")" 30 0 101)))] (MatchField (mkSpan (mkPtok 38 "match" 31 0 102) (mkPtok 40 "," 47 14 154)) (mkMatchFieldDecl (mkSpan (mkPtok 38 "match" 31 0 102) (mkPtok 3 "}" 47 13 153)) (mkPtok 38 "match" 31 0 102) (mkPtok 42 "f32a" 34 0 105) (mkPtok 17 "as" 34 5 106) (mkPtok 42 "asx" 34 8 107) (mkPtok 2 "{" 34 12 108) [(mkMatchPair (mkSpan (mkPtok 30 "42" 34 14 109) (mkPtok 40 "," 35 13 112)) (MKDigits (mkPtok 30 "42" 34 14 109)) (mkPtok 39 ":" 34 17 110) (mkPtok 42 "lengthOf" 35 4 111) (Some (mkPtok 40 "," 35 13 112))); (mkMatchPair (mkSpan (mkPtok 18 "[" 35 14 113) (mkPtok 40 "," 36 0 120)) (MKList (mkKeyList (mkSpan (mkPtok 18 "[" 35 14 113) (mkPtok 13 "]" 35 29 117)) (mkPtok 18 "[" 35 14 113) (mkPtok 30 "0123456789" 35 16 114) [((mkPtok 40 "," 35 27 115), (mkPtok 30 "1" 35 28 116))] (mkPtok 13 "]" 35 29 117))) (mkPtok 39 ":" 35 31 118) (mkPtok 42 "asx" 35 33 119) (Some (mkPtok 40 "," 36 0 120))); (mkMatchPair (mkSpan (mkPtok 18 "[" 37 4 121) (mkPtok 40 "," 45 9 145)) (MKList (mkKeyList (mkSpan (mkPtok 18 "[" 37 4 121) (mkPtok 13 "]" 44 11 141)) (mkPtok 18 "[" 37 4 121) (mkPtok 30 "42" 38 0 123) [((mkPtok 40 "," 39 4 124), (mkPtok 30 "0123456789" 39 6 125)); ((mkPtok 40 "," 42 0 128), (mkPtok 30 "00" 42 2 129)); ((mkPtok 40 "," 42 5 130), (mkPtok 31 """1""" 43 4 131)); ((mkPtok 40 "," 43 8 132), (mkPtok 30 "3" 43 11 133)); ((mkPtok 40 "," 43 14 134), (mkPtok 30 "65535" 43 15 135)); ((mkPtok 40 "," 43 21 136), (mkPtok 31 """it's""" 44 0 138)); ((mkPtok 40 "," 44 7 139), (mkPtok 30 "3" 44 9 140))] (mkPtok 13 "]" 44 11 141))) (mkPtok 39 ":" 44 12 142) (mkPtok 42 "msg_type" 45 0 144) (Some (mkPtok 40 "," 45 9 145))); (mkMatchPair (mkSpan (mkPtok 31 """packet""" 46 4 146) (mkPtok 40 "," 46 27 149)) (MKString (mkPtok 31 """packet""" 46 4 146)) (mkPtok 39 ":" 46 13 147) (mkPtok 42 "repeatCount" 46 15 148) (Some (mkPtok 40 "," 46 27 149))); (mkMatchPair (mkSpan (mkPtok 31 """""" 46 29 150) (mkPtok 42 "chars" 47 7 152)) (MKString (mkPtok 31 """""" 46 29 150)) (mkPtok 39 ":" 47 4 151) (mkPtok 42 "chars" 47 7 152) None)] (mkPtok 3 "}" 47 13 153)) (mkPtok 40 "," 47 14 154))); (mkFieldWithAttr (mkSpan (mkPtok 14 "zchar[" 48 0 155) (mkPtok 40 "," 49 0 159)) [] (MetaField (mkSpan (mkPtok 14 "zchar[" 48 0 155) (mkPtok 40 "," 49 0 159)) None (mkMetaDecl (mkSpan (mkPtok 14 "zchar[" 48 0 155) (mkPtok 40 "," 49 0 159)) (TyFixed (mkSpan (mkPtok 14 "zchar[" 48 0 155) (mkPtok 13 "]" 48 7 157)) (mkFixedString (mkSpan (mkPtok 14 "zchar[" 48 0 155) (mkPtok 13 "]" 48 7 157)) (mkPtok 14 "zchar[" 48 0 155) (mkPtok 30 "0" 48 6 156) (mkPtok 13 "]" 48 7 157))) (mkPtok 42 "u" 48 9 158) None (mkPtok 40 "," 49 0 159))))] (mkPtok 3 "}" 49 2 160))); (DMeta (mkMetaDef (mkSpan (mkPtok 37 "MetaData" 50 0 162) (mkPtok 3 "}" 66 4 187)) (mkPtok 37 "MetaData" 50 0 162) (mkPtok 42 "charz" 52 4 164) (mkPtok 2 "{" 52 10 165) [(MIDecl (mkMetaDecl (mkSpan (mkPtok 14 "zchar[" 53 0 166) (mkPtok 40 "," 54 0 171)) (TyFixed (mkSpan (mkPtok 14 "zchar[" 53 0 166) (mkPtok 13 "]" 53 9 168)) (mkFixedString (mkSpan (mkPtok 14 "zchar[" 53 0 166) (mkPtok 13 "]" 53 9 168)) (mkPtok 14 "zchar[" 53 0 166) (mkPtok 30 "007" 53 6 167) (mkPtok 13 "]" 53 9 168))) (mkPtok 42 "Logon" 53 10 169) (Some (mkPtok 43 "`{ , }`" 53 16 170)) (mkPtok 40 "," 54 0 171))); (MIRef (mkRefMetaDecl (mkSpan (mkPtok 42 "u8x" 54 1 172) (mkPtok 40 "," 56 2 175)) (mkPtok 42 "u8x" 54 1 172) (mkPtok 42 "a1" 55 4 173) (Some (mkPtok 43 (string_of_bytes [96; 10; 96]%N) 55 8 174)) (mkPtok 40 "," 56 2 175))); (MIRef (mkRefMetaDecl (mkSpan (mkPtok 42 "f32a" 57 4 176) (mkPtok 40 "," 59 0 178)) (mkPtok 42 "f32a" 57 4 176) (mkPtok 42 "i8i8" 58 0 177) None (mkPtok 40 "," 59 0 178))); (MIDecl (mkMetaDecl (mkSpan (mkPtok 26 "i32" 60 0 179) (mkPtok 40 "," 62 0 181)) (TyBasic (mkSpan (mkPtok 26 "i32" 60 0 179) (mkPtok 26 "i32" 60 0 179)) (mkBasicType (mkSpan (mkPtok 26 "i32" 60 0 179) (mkPtok 26 "i32" 60 0 179)) (mkPtok 26 "i32" 60 0 179))) (mkPtok 42 "int" 61 0 180) None (mkPtok 40 "," 62 0 181))); (MIRef (mkRefMetaDecl (mkSpan (mkPtok 42 "packetx" 63 0 182) (mkPtok 40 "," 64 1 185)) (mkPtok 42 "packetx" 63 0 182) (mkPtok 42 "repeatCount" 63 8 183) (Some (mkPtok 43 (string_of_bytes [96; 10; 96]%N) 63 20 184)) (mkPtok 40 "," 64 1 185)))] (mkPtok 3 "}" 66 4 187))); (DMeta (mkMetaDef (mkSpan (mkPtok 37 "MetaData" 66 6 188) (mkPtok 3 "}" 72 16 218)) (mkPtok 37 "MetaData" 66 6 188) (mkPtok 42 "metadata" 66 15 189) (mkPtok 2 "{" 66 23 190) [(MIRef (mkRefMetaDecl (mkSpan (mkPtok 42 "matchKey" 67 0 191) (mkPtok 40 "," 70 4 194)) (mkPtok 42 "matchKey" 67 0 191) (mkPtok 42 "Header" 68 0 192) None (mkPtok 40 "," 70 4 194))); (MIDecl (mkMetaDecl (mkSpan (mkPtok 15 "string" 70 6 195) (mkPtok 40 "," 70 19 198)) (TyDynamic (mkSpan (mkPtok 15 "string" 70 6 195) (mkPtok 15 "string" 70 6 195)) (mkDynamicString (mkSpan (mkPtok 15 "string" 70 6 195) (mkPtok 15 "string" 70 6 195)) (mkPtok 15 "string" 70 6 195))) (mkPtok 42 "o" 70 13 196) (Some (mkPtok 43 "`a\`" 70 14 197)) (mkPtok 40 "," 70 19 198))); (MIDecl (mkMetaDecl (mkSpan (mkPtok 14 "zchar[" 70 21 199) (mkPtok 40 "," 70 37 203)) (TyFixed (mkSpan (mkPtok 14 "zchar[" 70 21 199) (mkPtok 13 "]" 70 30 201)) (mkFixedString (mkSpan (mkPtok 14 "zchar[" 70 21 199) (mkPtok 13 "]" 70 30 201)) (mkPtok 14 "zchar[" 70 21 199) (mkPtok 30 "1" 70 28 200) (mkPtok 13 "]" 70 30 201))) (mkPtok 42 "chars" 70 31 202) None (mkPtok 40 "," 70 37 203))); (MIDecl (mkMetaDecl (mkSpan (mkPtok 27 "i64" 70 39 204) (mkPtok 40 "," 70 61 207)) (TyBasic (mkSpan (mkPtok 27 "i64" 70 39 204) (mkPtok 27 "i64" 70 39 204)) (mkBasicType (mkSpan (mkPtok 27 "i64" 70 39 204) (mkPtok 27 "i64" 70 39 204)) (mkPtok 27 "i64" 70 39 204))) (mkPtok 42 "f32a" 70 43 205) (Some (mkPtok 43 "`100% of %d`" 70 49 206)) (mkPtok 40 "," 70 61 207))); (MIDecl (mkMetaDecl (mkSpan (mkPtok 23 "uint64" 71 0 208) (mkPtok 40 "," 71 23 211)) (TyBasic (mkSpan (mkPtok 23 "uint64" 71 0 208) (mkPtok 23 "uint64" 71 0 208)) (mkBasicType (mkSpan (mkPtok 23 "uint64" 71 0 208) (mkPtok 23 "uint64" 71 0 208)) (mkPtok 23 "uint64" 71 0 208))) (mkPtok 42 "crc" 71 8 209) (Some (mkPtok 43 (string_of_bytes [96; 116; 97; 98; 9; 104; 101; 114; 101; 96]%N) 71 12 210)) (mkPtok 40 "," 71 23 211))); (MIDecl (mkMetaDecl (mkSpan (mkPtok 14 "zchar[" 71 25 212) (mkPtok 40 "," 72 13 217)) (TyFixed (mkSpan (mkPtok 14 "zchar[" 71 25 212) (mkPtok 13 "]" 72 2 215)) (mkFixedString (mkSpan (mkPtok 14 "zchar[" 71 25 212) (mkPtok 13 "]" 72 2 215)) (mkPtok 14 "zchar[" 71 25 212) (mkPtok 30 "10" 72 0 214) (mkPtok 13 "]" 72 2 215))) (mkPtok 42 "matchKey" 72 4 216) None (mkPtok 40 "," 72 13 217)))] (mkPtok 3 "}" 72 16 218))); (DPacket (mkPacketDef (mkSpan (mkPtok 34 "root" 72 18 219) (mkPtok 3 "}" 76 5 233)) (Some (mkPtok 34 "root" 72 18 219)) (mkPtok 35 "packet" 72 23 220) (mkPtok 42 "_x" 72 30 221) (mkPtok 2 "{" 72 33 222) [(mkFieldWithAttr (mkSpan (mkPtok 32 "@leftPad" 72 35 223) (mkPtok 40 "," 76 4 232)) [(FAPadding (mkSpan (mkPtok 32 "@leftPad" 72 35 223) (mkPtok 6 ")" 73 2 226)) (mkPaddingAttr (mkSpan (mkPtok 32 "@leftPad" 72 35 223) (mkPtok 6 ")" 73 2 226)) (mkPtok 32 "@leftPad" 72 35 223) (mkPtok 8 "(" 73 0 225) None (mkPtok 6 ")" 73 2 226)))] (MetaField (mkSpan (mkPtok 12 "char[" 73 4 227) (mkPtok 40 "," 76 4 232)) None (mkMetaDecl (mkSpan (mkPtok 12 "char[" 73 4 227) (mkPtok 40 "," 76 4 232)) (TyFixed (mkSpan (mkPtok 12 "char[" 73 4 227) (mkPtok 13 "]" 75 0 229)) (mkFixedString (mkSpan (mkPtok 12 "char[" 73 4 227) (mkPtok 13 "]" 75 0 229)) (mkPtok 12 "char[" 73 4 227) (mkPtok 30 "00" 74 0 228) (mkPtok 13 "]" 75 0 229))) (mkPtok 42 "BodyLength" 75 2 230) (Some (mkPtok 43 (string_of_bytes [96; 195; 169; 96]%N) 76 0 231)) (mkPtok 40 "," 76 4 232))))] (mkPtok 3 "}" 76 5 233)))])).
+Eval vm_compute in ("<<<M1368>>>" ++ check (runes_of_ascii "options{  o = """ ++ [28040; 24687]%N ++ runes_of_ascii """float = ' ' leftPad =
+    ""a\\""
+;
+}  MetaData u8x { u8
 //
-// " ++ [27880; 37322]%N ++ runes_of_ascii "
-o
-    ,
-    // trailing space 
-    } /// triple")).
-Eval vm_compute in ("<<<M1880>>>" ++ check (runes_of_ascii "packet msg_type
-{@leftPad
-    (
-    ' ' //
-)
-@tag(
-    42) @lengthOf( chars ) match tag as body
-    { ""`tick`""
-    :
-rootA [	""\n""
-] : i64_ , // a // b
-""\n""
-:
-f32a
-    , ""`tick`"" :
-    // @lengthOf(
-    lengthOf ,
-    //x
-    10 :// " ++ [128512]%N ++ runes_of_ascii " emoji
-falsey
-    ,
-    255 :	falsey ,
-}
-    ,uint8x  `two words` ,
-    @leftPad( '\x00')
-    match msg_type as
-    body {
-    // trailing space 
-    1
-    /// triple
-    : Header,
+// " ++ [128512]%N ++ runes_of_ascii " emoji
+zchar ,A repeatCount ,repeatCount MetaDataX , // @lengthOf(
+char[]// @lengthOf(
+string_ ,
+    packetx Foo , uint64 i8i8`{ , }`//x
+,}packet
+x { //	t
+@leftPad( '0' )
+T { int32
 //	t
-//
-}  , uint32 Foo
-,
-u8  T
-    @lengthOf( string_ )`u8 x,`  ,
-@calculatedFrom(
-""`tick`"" ) zchar[0123456789] charz `" ++ [233]%N ++ runes_of_ascii "` ,} options
-    // packet A { u8 x, }
-    {
-repeatCount = ""CRC32""
-; }packet o { char[3 //
-] MetaDataX`" ++ [233]%N ++ runes_of_ascii "`,	i8 falsey `
-` ,f32
-chars `a\`	,} root packet string_	{
-float64 uint8x ,match T as
-    _x { [	""it's"" ,
-""\n"" ,""1""//	t
-, 42 ,0123456789 ,
-3
-,
-// @lengthOf(
 // packet A { u8 x, }
-255 ]
-    :BodyLength }  ,@calculatedFrom(""x y""
-) trueish zchar
+i8i8 `it's`,
+char[]
+rootA `line1
+line2` ,  zchar[  7 //	t
+]	leftPad
 //
-// trailing space 
-, repeat
-char[] BodyLength
-    , }options {
-Header
-    = zchar[7
-    ] ; } 	 ")).
-Eval vm_compute in ("<<<M1912>>>" ++ check (runes_of_ascii "root
-    packet roots
-    {// " ++ [27880; 37322]%N ++ runes_of_ascii "
+// @lengthOf(
+, }
+,// packet A { u8 x, }
 }
 ")).
-Eval vm_compute in ("<<<M1944>>>" ++ check (@nil rune)).
-Eval vm_compute in ("<<<M1976>>>" ++ check (runes_of_ascii "
-packet As	{
-i64 roots @lengthOf(o// c
-) ,@calculatedFrom( ""1"" )@tag( 0123456789
+Eval vm_compute in ("<<<M1400>>>" ++ check (runes_of_ascii "root packet
+// " ++ [27880; 37322]%N ++ runes_of_ascii "
+// `tick` ""quote"" 'q'
+x {
+}
+    packet trueish{ @rightPad(' '  )
+    repeat u16 As `tab	here`
+, }
+    root  packet Packet { falsey
+    @calculatedFrom( """ ++ [28040; 24687]%N ++ runes_of_ascii """) //	t
+, @lengthOf(	u128
+    ) repeat zchar[	42]
+calculatedFrom `it's`
+, u64 options1 @lengthOf( repeatCount )	, @rightPad
+    (' '
     )
-    @leftPad( '0'
-    ) //	t
-metadata , @lengthOf(
-    x_y_z ) string_ BodyLength
-,@lengthOf(int ) string Logon
-    ,
-repeat lengthOf crc `" ++ [233]%N ++ runes_of_ascii "` ,@lengthOf(calculatedFrom
+    @calculatedFrom( ""x y"" ) @rightPad ( '\x00') msg_type {
+string A @calculatedFrom(  ""`tick`"" ) // trailing space 
+, i16  Pad
+@calculatedFrom( """ ++ [233]%N ++ runes_of_ascii "t" ++ [233]%N ++ runes_of_ascii """) `line1
+line2` , float64
+roots  @lengthOf(
+body // `tick` ""quote"" 'q'
+), }
+    , @tag( // 50% %s
+007 )f32 BodyLength  @lengthOf( float ) ,	Pad Foo  ,char[] chars `it's` , @calculatedFrom( """ ++ [233]%N ++ runes_of_ascii "t" ++ [233]%N ++ runes_of_ascii """
     )
-char[]
-    MetaDataX @lengthOf(
-o )
-, @tag( 10) u32
-len
-,	repeat
-x_y_z	`it's`
-, int
-    x , repeat Foo {
-char[ 0 ] T
-@lengthOf(T ), }	,}  packet stringy
-{u8x @calculatedFrom( ""\" ++ [233]%N ++ runes_of_ascii """ ) ,
-@calculatedFrom( ""CRC32""
-// packet A { u8 x, }
-/// triple
-) @leftPad (
-    '0' )	match stringy
-    as Header {  255 :
-    Z9_ ,[ """ ++ [233]%N ++ runes_of_ascii "t" ++ [233]%N ++ runes_of_ascii """,
-    ""{,}"" , 255,10, ""it's""  , // a // b
-""\n"" ] : o,[
-""""
-, ""1"" , 3
-    ] : Pad , [ ""{,}""
-,
-""{,}"" ] : _x , [65535	, // " ++ [27880; 37322]%N ++ runes_of_ascii "
-""// no comment"", ""a\\"" , //	t
-0123456789 ,""" ++ [28040; 24687]%N ++ runes_of_ascii """
-] :u128, [
-    3 ,
-    10
-//	t
-/// triple
-, ""1"", 00
-    // packet A { u8 x, }
-    ,7 ]  : len } ,
-    @rightPad ( ' ' ) zchar[
-    // packet A { u8 x, }
-    65535 ]tag `a\`
-    ,
-int32 len , i8 len
-`doc` ,zchar[
-255 ] i64_@lengthOf( x_y_z)`" ++ [233]%N ++ runes_of_ascii "` ,@lengthOf( crc) char[
-4294967296	]tag
-    @lengthOf( BodyLength ) ,@rightPad
-    ( //x
-)
+Pad
+{ repeat BodyLength
+uint8x , match Pad
+    as Foo{""packet""
+    : i64_ ,
+[
+4294967296 ,""{,}"" ]
+:BodyLength 10 :repeatCount
+    ,[
+0123456789 ,3 , 42
+, ""\n""	, ""x y""]: Logon ,  [  10 , ""`tick`""
+, 0123456789]: tag ,42
+: trueish	} , repeat
+//
+// trailing space 
+zchar[ 4294967296
+] Foo `it's`,
+}
+    , } packet float
+    {	@tag(1 ) u64 options1@calculatedFrom(""a\""b"" )
+    ,}")).
+Eval vm_compute in ("<<<M1432>>>" ++ check (runes_of_ascii "packet msg_type{} packet // @lengthOf(
+tag /// triple
+{
+@tag( 1 ) @tag( 7
+    )
+trueish
+@calculatedFrom(
+    ""{,}"" )`a\` ,@calculatedFrom(""\n"") string BodyLength
+, @lengthOf(
+x) @calculatedFrom(
+""abc"" )
 @tag(
-    10 ) float  @calculatedFrom(
-    ""abc""
-) `it's` ,} options{  len= ""1""} options {
-T
-    = ""{,}""	;  }
+3 // @lengthOf(
+) char[0123456789 ] a1 @calculatedFrom( ""\n"" ) ,  @leftPad
+    ( // packet A { u8 x, }
+'\x00' )
+repeat i16 repeatCount, match int	as u{
+3 :
+    x	[ 3 ,""`tick`"" , ""`tick`""	]  : a1 ,
+    [10 , 4294967296  ]
+: string_,} , string_
+    x ,u64// trailing space 
+matchKey`line1
+line2`, repeat len {int Foo ,
+zchar[ 007 ] BodyLength`// not a comment` ,repeat packetx crc
+    `tab	here` , } ,}root packet /// triple
+chars
+{@tag(
+    00	) repeat uint64 i8i8
+,zchar[ 7 ] matchKey`line1
+line2`
+, Z9_ @lengthOf( options1 )  , @calculatedFrom(
+""{,}""
+) int @calculatedFrom( //
+""it's""	), @rightPad ( ) @leftPad
+    ( ' ' ) // " ++ [27880; 37322]%N ++ runes_of_ascii "
+@lengthOf(crc)
+    // " ++ [27880; 37322]%N ++ runes_of_ascii "
+    u128	stringy , // 50% %s
+@lengthOf( //	t
+options1
+)uint32 options1
+`// not a comment`
+,repeat uint8x  zchar`" ++ [233]%N ++ runes_of_ascii "` , // " ++ [128512]%N ++ runes_of_ascii " emoji
+}
+")).
+Eval vm_compute in ("<<<M1464>>>" ++ check (runes_of_ascii "// packet A { u8 x, }
+packet	lengthOf
+{@lengthOf(matchKey ) @leftPad ( '0'
+)@lengthOf( x_y_z)	uint32 packetx@calculatedFrom(  ""x y""
+) `{ , }`
+, //
+u16 i64_ @calculatedFrom( ""a\""b""	)`100% of %d`, }
+    packet u8x { repeat repeatCount `crlf
+line` , match T
+//
+// packet A { u8 x, }
+as float {
+[ 42,//	t
+65535 ,
+65535
+    // " ++ [128512]%N ++ runes_of_ascii " emoji
+    , 255 ,
+3,"""" ,
+""x y""
+]
+: trueish ,4294967296 : Z9_ ,	[ 65535
+,	3 , 0	, 3 ,
+    255 , 3  ] :
+msg_type
+, //	t
+4294967296 : i8i8  , //	t
+[ 42 ,
+    /// triple
+    0123456789, 10/// triple
+]
+:metadata , }
+    , zchar[ 65535	] asx @lengthOf(
+Packet )  , } packet // " ++ [27880; 37322]%N ++ runes_of_ascii "
+Header {}
+
+")).
+Eval vm_compute in ("<<<M1496>>>" ++ check (runes_of_ascii "
+
+")).
+Eval vm_compute in ("<<<M1528>>>" ++ check (runes_of_ascii "packet
+x { @lengthOf(metadata ) /// triple
+repeat lengthOf ,	a1
+    {
+trueish
+/// triple
+// " ++ [128512]%N ++ runes_of_ascii " emoji
+, repeat MetaDataX , }
+,zchar[ 42// packet A { u8 x, }
+]
+rootA
+, repeat trueish //
+{ int32 charz , // `tick` ""quote"" 'q'
+} , @leftPad (
+' '	)
+    int32 f32a @calculatedFrom( """" )`tab	here` , // trailing space 
+@calculatedFrom(  """ ++ [233]%N ++ runes_of_ascii "t" ++ [233]%N ++ runes_of_ascii """
+)
+    MetaDataX{ f32
+    // packet A { u8 x, }
+    options1 @lengthOf(	pack) `` , chars A `u8 x,` , repeat
+    uint32
+_x
+,	},	char[ 00
+    ]stringy@lengthOf( len )// @lengthOf(
+`tab	here`  ,
+@lengthOf( Foo
+    ) @leftPad ( )  char[ 0123456789 ]
+i8i8 ,
+match uint8x  as int
+{""\" ++ [233]%N ++ runes_of_ascii """ :
+    f32a ,// `tick` ""quote"" 'q'
+""x y"" :
+    uint8x ,// a // b
+""x y""
+    : Pad
+, [3 ]  :
+    // 50% %s
+    charz
+,  [ ""packet"" ]: // " ++ [27880; 37322]%N ++ runes_of_ascii "
+Packet , }  ,
 // @lengthOf(
+//x
+} // packet A { u8 x, }")).
+Eval vm_compute in ("<<<M1560>>>" ++ check (@nil rune)).
+Eval vm_compute in ("<<<T1560>>>" ++ terms [mkTok 0 "<EOF>" 1 0 false] (mkPacket (mkPtok 0 "<EOF>" 1 0 0) None [])).
+Eval vm_compute in ("<<<M1592>>>" ++ check (runes_of_ascii "// " ++ [128512]%N ++ runes_of_ascii " emoji
+packet	u128 { calculatedFrom @lengthOf( u8x )`" ++ [28040; 24687; 31867; 22411]%N ++ runes_of_ascii "`
+    , body @lengthOf( f32a ) `crlf
+line`
+,char[]metadata
+`" ++ [233]%N ++ runes_of_ascii "` ,falsey Z9_	,
+    match Foo as
+Pad
+{ // packet A { u8 x, }
+""CRC32"" //	t
+: calculatedFrom	""1"" // @lengthOf(
+: matchKey // a // b
+, 3 : Foo
+,0 : repeatCount,65535 :body ,[ ""// no comment""	, 4294967296
+    ,
+0 , 007 , ""a\\"" ,""it's""	,
+42 , ""x y""
+// @lengthOf(
+// packet A { u8 x, }
+] :
+    lengthOf} , float32
+repeatCount , repeat int
+    //x
+    x_y_z `u8 x,`,
+    }	MetaData
+    metadata
+//	t
+// packet A { u8 x, }
+{
+uint16
+packetx`{ , }`
+    ,	zchar[
+0123456789] chars
+    ,
+i8
+roots  ,
+    float64 u
+// " ++ [128512]%N ++ runes_of_ascii " emoji
+//x
+,char[
+    42 ] crc `crlf
+line`	,
+uint16 x_y_z
+, } packet u128{
+    @rightPad (
+    // " ++ [128512]%N ++ runes_of_ascii " emoji
+    ' ' )@tag( 1)
+@lengthOf(
+    roots)
+u32 crc  ,
+}")).
+Eval vm_compute in ("<<<M1624>>>" ++ check (runes_of_ascii "options { } options
+{ int =// `tick` ""quote"" 'q'
+'0'x	= true ; charz =char[
+1
+    ] crc= zchar[ 007 ]
+;
+    }")).
+Eval vm_compute in ("<<<M1656>>>" ++ check (runes_of_ascii "packet options1
+    {@calculatedFrom(
+    /// triple
+    """" ) @calculatedFrom(//	t
+""\n""	) @tag(  1	)string i8i8 , @calculatedFrom(
+""1"") Packet Foo ,
+@lengthOf(tag
+    )
+char[ 3
+]	u128`" ++ [28040; 24687; 31867; 22411]%N ++ runes_of_ascii "` , @calculatedFrom( ""// no comment""  )_x
+    @lengthOf( leftPad), } root	packet
+calculatedFrom { u8	lengthOf
+,// c
+@lengthOf( rootA )msg_type
+    @calculatedFrom(	""a\""b"" ) , @rightPad
+// @lengthOf(
+// trailing space 
+(
+    '0' )packetx
+    @calculatedFrom( ""abc"" ),}")).
+Eval vm_compute in ("<<<M1688>>>" ++ check (runes_of_ascii "packet int { @lengthOf( msg_type
+    ) uint8 Packet @lengthOf(  As
+)
+`100% of %d` , u {
+    As ,  } ,
+@calculatedFrom( ""`tick`"" ) repeat A /// triple
+len
+    // " ++ [27880; 37322]%N ++ runes_of_ascii "
+    `a\` // 50% %s
+, }
+")).
+Eval vm_compute in ("<<<M1720>>>" ++ check (runes_of_ascii "options { Header = false; Z9_ =65535 ; x_y_z =
+""\n"";
+Logon
+= true // trailing space 
+Header
+//
+// " ++ [128512]%N ++ runes_of_ascii " emoji
+=// @lengthOf(
+char[]}
+")).
+Eval vm_compute in ("<<<M1752>>>" ++ check (runes_of_ascii "root
+packet f32a
+{
+    @rightPad ( '0')
+    @tag( 42
+    // " ++ [128512]%N ++ runes_of_ascii " emoji
+    ) @calculatedFrom( ""1"" ) u8 // c
+crc//x
+, // 50% %s
+}
+")).
+Eval vm_compute in ("<<<M1784>>>" ++ check (runes_of_ascii "
+packet
+string_  {
+    match stringy as u { 007	:
+    chars  , }
+    , A
+, @lengthOf( x_y_z )char[]
+//x
+// @lengthOf(
+options1
+    @lengthOf(// c
+Logon )
+`a\` , char[
+// @lengthOf(
+// c
+1
+]  A // packet A { u8 x, }
+@calculatedFrom( ""1"" // " ++ [128512]%N ++ runes_of_ascii " emoji
+) `say ""hi""` , @calculatedFrom( ""a	b""
+    ) Z9_ // trailing space 
+chars
+,}
+MetaData
+    float{ float64 packetx, int64 u8x ,
+    asx string_ ,u32 float
+, falsey string_ , Header
+f32a
+`a\` ,} options { crc= true }
+")).
+Eval vm_compute in ("<<<T1784>>>" ++ terms [mkTok 35 "packet" 2 0 false; mkTok 42 "string_" 3 0 false; mkTok 2 "{" 3 9 false; mkTok 38 "match" 4 4 false; mkTok 42 "stringy" 4 10 false; mkTok 17 "as" 4 18 false; mkTok 42 "u" 4 21 false; mkTok 2 "{" 4 23 false; mkTok 30 "007" 4 25 false; mkTok 39 ":" 4 29 false; mkTok 42 "chars" 5 4 false; mkTok 40 "," 5 11 false; mkTok 3 "}" 5 13 false; mkTok 40 "," 6 4 false; mkTok 42 "A" 6 6 false; mkTok 40 "," 7 0 false; mkTok 7 "@lengthOf(" 7 2 false; mkTok 42 "x_y_z" 7 13 false; mkTok 6 ")" 7 19 false; mkTok 16 "char[]" 7 20 false; mkTok 44 "//x" 8 0 true; mkTok 44 "// @lengthOf(" 9 0 true; mkTok 42 "options1" 10 0 false; mkTok 7 "@lengthOf(" 11 4 false; mkTok 44 "// c" 11 14 true; mkTok 42 "Logon" 12 0 false; mkTok 6 ")" 12 6 false; mkTok 43 "`a\`" 13 0 false; mkTok 40 "," 13 5 false; mkTok 12 "char[" 13 7 false; mkTok 44 "// @lengthOf(" 14 0 true; mkTok 44 "// c" 15 0 true; mkTok 30 "1" 16 0 false; mkTok 13 "]" 17 0 false; mkTok 42 "A" 17 3 false; mkTok 44 "// packet A { u8 x, }" 17 5 true; mkTok 5 "@calculatedFrom(" 18 0 false; mkTok 31 """1""" 18 17 false; mkTok 44 (string_of_bytes [47; 47; 32; 240; 159; 152; 128; 32; 101; 109; 111; 106; 105]%N) 18 21 true; mkTok 6 ")" 19 0 false; mkTok 43 "`say ""hi""`" 19 2 false; mkTok 40 "," 19 13 false; mkTok 5 "@calculatedFrom(" 19 15 false; mkTok 31 (string_of_bytes [34; 97; 9; 98; 34]%N) 19 32 false; mkTok 6 ")" 20 4 false; mkTok 42 "Z9_" 20 6 false; mkTok 44 "// trailing space " 20 10 true; mkTok 42 "chars" 21 0 false; mkTok 40 "," 22 0 false; mkTok 3 "}" 22 1 false; mkTok 37 "MetaData" 23 0 false; mkTok 42 "float" 24 4 false; mkTok 2 "{" 24 9 false; mkTok 29 "float64" 24 11 false; mkTok 42 "packetx" 24 19 false; mkTok 40 "," 24 26 false; mkTok 27 "int64" 24 28 false; mkTok 42 "u8x" 24 34 false; mkTok 40 "," 24 38 false; mkTok 42 "asx" 25 4 false; mkTok 42 "string_" 25 8 false; mkTok 40 "," 25 16 false; mkTok 22 "u32" 25 17 false; mkTok 42 "float" 25 21 false; mkTok 40 "," 26 0 false; mkTok 42 "falsey" 26 2 false; mkTok 42 "string_" 26 9 false; mkTok 40 "," 26 17 false; mkTok 42 "Header" 26 19 false; mkTok 42 "f32a" 27 0 false; mkTok 43 "`a\`" 28 0 false; mkTok 40 "," 28 5 false; mkTok 3 "}" 28 6 false; mkTok 1 "options" 28 8 false; mkTok 2 "{" 28 16 false; mkTok 42 "crc" 28 18 false; mkTok 4 "=" 28 21 false; mkTok 10 "true" 28 23 false; mkTok 3 "}" 28 28 false; mkTok 0 "<EOF>" 29 0 false] (mkPacket (mkPtok 35 "packet" 2 0 0) (Some (mkPtok 3 "}" 28 28 78)) [(DPacket (mkPacketDef (mkSpan (mkPtok 35 "packet" 2 0 0) (mkPtok 3 "}" 22 1 49)) None (mkPtok 35 "packet" 2 0 0) (mkPtok 42 "string_" 3 0 1) (mkPtok 2 "{" 3 9 2) [(mkFieldWithAttr (mkSpan (mkPtok 38 "match" 4 4 3) (mkPtok 40 "," 6 4 13)) [] (MatchField (mkSpan (mkPtok 38 "match" 4 4 3) (mkPtok 40 "," 6 4 13)) (mkMatchFieldDecl (mkSpan (mkPtok 38 "match" 4 4 3) (mkPtok 3 "}" 5 13 12)) (mkPtok 38 "match" 4 4 3) (mkPtok 42 "stringy" 4 10 4) (mkPtok 17 "as" 4 18 5) (mkPtok 42 "u" 4 21 6) (mkPtok 2 "{" 4 23 7) [(mkMatchPair (mkSpan (mkPtok 30 "007" 4 25 8) (mkPtok 40 "," 5 11 11)) (MKDigits (mkPtok 30 "007" 4 25 8)) (mkPtok 39 ":" 4 29 9) (mkPtok 42 "chars" 5 4 10) (Some (mkPtok 40 "," 5 11 11)))] (mkPtok 3 "}" 5 13 12)) (mkPtok 40 "," 6 4 13))); (mkFieldWithAttr (mkSpan (mkPtok 42 "A" 6 6 14) (mkPtok 40 "," 7 0 15)) [] (ObjectField (mkSpan (mkPtok 42 "A" 6 6 14) (mkPtok 40 "," 7 0 15)) None (mkPtok 42 "A" 6 6 14) None None (mkPtok 40 "," 7 0 15))); (mkFieldWithAttr (mkSpan (mkPtok 7 "@lengthOf(" 7 2 16) (mkPtok 40 "," 13 5 28)) [(FALengthOf (mkSpan (mkPtok 7 "@lengthOf(" 7 2 16) (mkPtok 6 ")" 7 19 18)) (mkLengthOf (mkSpan (mkPtok 7 "@lengthOf(" 7 2 16) (mkPtok 6 ")" 7 19 18)) (mkPtok 7 "@lengthOf(" 7 2 16) (mkPtok 42 "x_y_z" 7 13 17) (mkPtok 6 ")" 7 19 18)))] (LengthField (mkSpan (mkPtok 16 "char[]" 7 20 19) (mkPtok 40 "," 13 5 28)) (mkLengthFieldDecl (mkSpan (mkPtok 16 "char[]" 7 20 19) (mkPtok 40 "," 13 5 28)) (Some (TyDynamic (mkSpan (mkPtok 16 "char[]" 7 20 19) (mkPtok 16 "char[]" 7 20 19)) (mkDynamicString (mkSpan (mkPtok 16 "char[]" 7 20 19) (mkPtok 16 "char[]" 7 20 19)) (mkPtok 16 "char[]" 7 20 19)))) (mkPtok 42 "options1" 10 0 22) (mkLengthOf (mkSpan (mkPtok 7 "@lengthOf(" 11 4 23) (mkPtok 6 ")" 12 6 26)) (mkPtok 7 "@lengthOf(" 11 4 23) (mkPtok 42 "Logon" 12 0 25) (mkPtok 6 ")" 12 6 26)) (Some (mkPtok 43 "`a\`" 13 0 27)) (mkPtok 40 "," 13 5 28)))); (mkFieldWithAttr (mkSpan (mkPtok 12 "char[" 13 7 29) (mkPtok 40 "," 19 13 41)) [] (CheckSumField (mkSpan (mkPtok 12 "char[" 13 7 29) (mkPtok 40 "," 19 13 41)) (mkChecksumFieldDecl (mkSpan (mkPtok 12 "char[" 13 7 29) (mkPtok 40 "," 19 13 41)) (Some (TyFixed (mkSpan (mkPtok 12 "char[" 13 7 29) (mkPtok 13 "]" 17 0 33)) (mkFixedString (mkSpan (mkPtok 12 "char[" 13 7 29) (mkPtok 13 "]" 17 0 33)) (mkPtok 12 "char[" 13 7 29) (mkPtok 30 "1" 16 0 32) (mkPtok 13 "]" 17 0 33)))) (mkPtok 42 "A" 17 3 34) (mkCalculatedFrom (mkSpan (mkPtok 5 "@calculatedFrom(" 18 0 36) (mkPtok 6 ")" 19 0 39)) (mkPtok 5 "@calculatedFrom(" 18 0 36) (mkPtok 31 """1""" 18 17 37) (mkPtok 6 ")" 19 0 39)) (Some (mkPtok 43 "`say ""hi""`" 19 2 40)) (mkPtok 40 "," 19 13 41)))); (mkFieldWithAttr (mkSpan (mkPtok 5 "@calculatedFrom(" 19 15 42) (mkPtok 40 "," 22 0 48)) [(FACalculatedFrom (mkSpan (mkPtok 5 "@calculatedFrom(" 19 15 42) (mkPtok 6 ")" 20 4 44)) (mkCalculatedFrom (mkSpan (mkPtok 5 "@calculatedFrom(" 19 15 42) (mkPtok 6 ")" 20 4 44)) (mkPtok 5 "@calculatedFrom(" 19 15 42) (mkPtok 31 (string_of_bytes [34; 97; 9; 98; 34]%N) 19 32 43) (mkPtok 6 ")" 20 4 44)))] (ObjectField (mkSpan (mkPtok 42 "Z9_" 20 6 45) (mkPtok 40 "," 22 0 48)) None (mkPtok 42 "Z9_" 20 6 45) (Some (mkPtok 42 "chars" 21 0 47)) None (mkPtok 40 "," 22 0 48)))] (mkPtok 3 "}" 22 1 49))); (DMeta (mkMetaDef (mkSpan (mkPtok 37 "MetaData" 23 0 50) (mkPtok 3 "}" 28 6 72)) (mkPtok 37 "MetaData" 23 0 50) (mkPtok 42 "float" 24 4 51) (mkPtok 2 "{" 24 9 52) [(MIDecl (mkMetaDecl (mkSpan (mkPtok 29 "float64" 24 11 53) (mkPtok 40 "," 24 26 55)) (TyBasic (mkSpan (mkPtok 29 "float64" 24 11 53) (mkPtok 29 "float64" 24 11 53)) (mkBasicType (mkSpan (mkPtok 29 "float64" 24 11 53) (mkPtok 29 "float64" 24 11 53)) (mkPtok 29 "float64" 24 11 53))) (mkPtok 42 "packetx" 24 19 54) None (mkPtok 40 "," 24 26 55))); (MIDecl (mkMetaDecl (mkSpan (mkPtok 27 "int64" 24 28 56) (mkPtok 40 "," 24 38 58)) (TyBasic (mkSpan (mkPtok 27 "int64" 24 28 56) (mkPtok 27 "int64" 24 28 56)) (mkBasicType (mkSpan (mkPtok 27 "int64" 24 28 56) (mkPtok 27 "int64" 24 28 56)) (mkPtok 27 "int64" 24 28 56))) (mkPtok 42 "u8x" 24 34 57) None (mkPtok 40 "," 24 38 58))); (MIRef (mkRefMetaDecl (mkSpan (mkPtok 42 "asx" 25 4 59) (mkPtok 40 "," 25 16 61)) (mkPtok 42 "asx" 25 4 59) (mkPtok 42 "string_" 25 8 60) None (mkPtok 40 "," 25 16 61))); (MIDecl (mkMetaDecl (mkSpan (mkPtok 22 "u32" 25 17 62) (mkPtok 40 "," 26 0 64)) (TyBasic (mkSpan (mkPtok 22 "u32" 25 17 62) (mkPtok 22 "u32" 25 17 62)) (mkBasicType (mkSpan (mkPtok 22 "u32" 25 17 62) (mkPtok 22 "u32" 25 17 62)) (mkPtok 22 "u32" 25 17 62))) (mkPtok 42 "float" 25 21 63) None (mkPtok 40 "," 26 0 64))); (MIRef (mkRefMetaDecl (mkSpan (mkPtok 42 "falsey" 26 2 65) (mkPtok 40 "," 26 17 67)) (mkPtok 42 "falsey" 26 2 65) (mkPtok 42 "string_" 26 9 66) None (mkPtok 40 "," 26 17 67))); (MIRef (mkRefMetaDecl (mkSpan (mkPtok 42 "Header" 26 19 68) (mkPtok 40 "," 28 5 71)) (mkPtok 42 "Header" 26 19 68) (mkPtok 42 "f32a" 27 0 69) (Some (mkPtok 43 "`a\`" 28 0 70)) (mkPtok 40 "," 28 5 71)))] (mkPtok 3 "}" 28 6 72))); (DOption (mkOptionDef (mkSpan (mkPtok 1 "options" 28 8 73) (mkPtok 3 "}" 28 28 78)) (mkPtok 1 "options" 28 8 73) (mkPtok 2 "{" 28 16 74) [(mkOptionDecl (mkSpan (mkPtok 42 "crc" 28 18 75) (mkPtok 10 "true" 28 23 77)) (mkPtok 42 "crc" 28 18 75) (mkPtok 4 "=" 28 21 76) (VTrue (mkSpan (mkPtok 10 "true" 28 23 77) (mkPtok 10 "true" 28 23 77)) (mkPtok 10 "true" 28 23 77)) None)] (mkPtok 3 "}" 28 28 78)))])).
+Eval vm_compute in ("<<<M1816>>>" ++ check (runes_of_ascii "options{ i8i8
+=
+""" ++ [28040; 24687]%N ++ runes_of_ascii """ ;
+    }")).
+Eval vm_compute in ("<<<M1848>>>" ++ check (runes_of_ascii "MetaData packetx {  } 	 ")).
+Eval vm_compute in ("<<<M1880>>>" ++ check (runes_of_ascii "
+packet	A{
+// trailing space 
+// @lengthOf(
+f64	stringy `100% of %d` , @calculatedFrom(""it's""
+    )
+@tag( 3
+    ) @lengthOf(  repeatCount)char[] /// triple
+u
+@calculatedFrom(//x
+""// no comment"" )
+    ,
+string uint8x `line1
+line2` , } root packet MetaDataX
+{u32 // c
+matchKey`` // a // b
+, @tag(3 ) metadata	{ zchar[
+65535 ]  lengthOf , } , zchar[0123456789 ]T , repeat leftPad {match
+    u128
+as calculatedFrom { ""abc"":
+    int
+,
+65535
+    :_x
+    , ""x y"" :
+Z9_,
+[ ""a	b""]:pack
+, }
+    ,pack
+    { // @lengthOf(
+zchar[ 4294967296] asx `u8 x,` ,
+    char[] Z9_`{ , }`
+,}// trailing space 
+, match
+    crc as T { 1// packet A { u8 x, }
+: tag 7 : x_y_z ,
+    ""x y""
+// " ++ [128512]%N ++ runes_of_ascii " emoji
+// a // b
+:
+calculatedFrom, }, i8 MetaDataX
+    @lengthOf( metadata) , }, @lengthOf(u8x
+) Packet { repeat i8i8 u8x// trailing space 
+`{ , }` ,}
+    ,
+match
+    Logon as /// triple
+Foo {007:Foo ,}
+,  @lengthOf( roots )
+i64_ { zchar[ 255 ] rootA `doc`,char[10	]
+msg_type // `tick` ""quote"" 'q'
+`a\` ,
+u8x@lengthOf( tag ) `// not a comment`, }
+    ,
+}
+")).
+Eval vm_compute in ("<<<M1912>>>" ++ check (runes_of_ascii "packet asx {
+repeatCount
+    @lengthOf( Header ) , repeat
+    zchar[ 65535 //
+]// 50% %s
+int`say ""hi""`
+, @tag( 65535 ) int8
+asx``
+    , @rightPad (
+    )@tag( 42)
+    @lengthOf( BodyLength )match u
+as// 50% %s
+int // a // b
+{ ""\n"" :  lengthOf } // a // b
+,}
+")).
+Eval vm_compute in ("<<<M1944>>>" ++ check (runes_of_ascii "MetaData
+u128
+{
+// @lengthOf(
+// trailing space 
+u128 float
+`" ++ [28040; 24687; 31867; 22411]%N ++ runes_of_ascii "` , }
+// trailing space 
+")).
+Eval vm_compute in ("<<<M1976>>>" ++ check (runes_of_ascii "root// packet A { u8 x, }
+packet
+tag
+    {float32 pack , repeat string
+chars
+    `say ""hi""` ,} root packet pack
+{
+    } packet msg_type {@tag( 42 ) T{ Z9_ , char[ 1  ] MetaDataX @calculatedFrom(""a\""b"")`{ , }` ,
+repeat uint64 metadata, },  @lengthOf(Z9_) uint64
+uint8x
+,  }MetaData options1 { zchar[/// triple
+00
+    ] calculatedFrom `it's`
+    , zchar[ 00] MetaDataX `say ""hi""` , uint32
+// packet A { u8 x, }
+//x
+chars , lengthOf int , uint64
+f32a , chars roots `100% of %d` , }
+    MetaData
+options1 {
+u8x pack  , body
+falsey ,Packet zchar `tab	here` , pack uint8x /// triple
+, }
 ")).
 Eval vm_compute in ("<<<M2008>>>" ++ check (runes_of_ascii "root packet SimpleMessage {
 	uint16 MsgType `" ++ [28040; 24687; 31867; 22411]%N ++ runes_of_ascii "`,
 	string JsonBody `Json" ++ [23383; 31526; 20018; 28040; 24687; 20307]%N ++ runes_of_ascii "`,
 }")).
 Eval vm_compute in ("<<<T2008>>>" ++ terms [mkTok 34 "root" 1 0 false; mkTok 35 "packet" 1 5 false; mkTok 42 "SimpleMessage" 1 12 false; mkTok 2 "{" 1 26 false; mkTok 21 "uint16" 2 1 false; mkTok 42 "MsgType" 2 8 false; mkTok 43 (string_of_bytes [96; 230; 182; 136; 230; 129; 175; 231; 177; 187; 229; 158; 139; 96]%N) 2 16 false; mkTok 40 "," 2 22 false; mkTok 15 "string" 3 1 false; mkTok 42 "JsonBody" 3 8 false; mkTok 43 (string_of_bytes [96; 74; 115; 111; 110; 229; 173; 151; 231; 172; 166; 228; 184; 178; 230; 182; 136; 230; 129; 175; 228; 189; 147; 96]%N) 3 17 false; mkTok 40 "," 3 29 false; mkTok 3 "}" 4 0 false; mkTok 0 "<EOF>" 4 1 false] (mkPacket (mkPtok 34 "root" 1 0 0) (Some (mkPtok 3 "}" 4 0 12)) [(DPacket (mkPacketDef (mkSpan (mkPtok 34 "root" 1 0 0) (mkPtok 3 "}" 4 0 12)) (Some (mkPtok 34 "root" 1 0 0)) (mkPtok 35 "packet" 1 5 1) (mkPtok 42 "SimpleMessage" 1 12 2) (mkPtok 2 "{" 1 26 3) [(mkFieldWithAttr (mkSpan (mkPtok 21 "uint16" 2 1 4) (mkPtok 40 "," 2 22 7)) [] (MetaField (mkSpan (mkPtok 21 "uint16" 2 1 4) (mkPtok 40 "," 2 22 7)) None (mkMetaDecl (mkSpan (mkPtok 21 "uint16" 2 1 4) (mkPtok 40 "," 2 22 7)) (TyBasic (mkSpan (mkPtok 21 "uint16" 2 1 4) (mkPtok 21 "uint16" 2 1 4)) (mkBasicType (mkSpan (mkPtok 21 "uint16" 2 1 4) (mkPtok 21 "uint16" 2 1 4)) (mkPtok 21 "uint16" 2 1 4))) (mkPtok 42 "MsgType" 2 8 5) (Some (mkPtok 43 (string_of_bytes [96; 230; 182; 136; 230; 129; 175; 231; 177; 187; 229; 158; 139; 96]%N) 2 16 6)) (mkPtok 40 "," 2 22 7)))); (mkFieldWithAttr (mkSpan (mkPtok 15 "string" 3 1 8) (mkPtok 40 "," 3 29 11)) [] (MetaField (mkSpan (mkPtok 15 "string" 3 1 8) (mkPtok 40 "," 3 29 11)) None (mkMetaDecl (mkSpan (mkPtok 15 "string" 3 1 8) (mkPtok 40 "," 3 29 11)) (TyDynamic (mkSpan (mkPtok 15 "string" 3 1 8) (mkPtok 15 "string" 3 1 8)) (mkDynamicString (mkSpan (mkPtok 15 "string" 3 1 8) (mkPtok 15 "string" 3 1 8)) (mkPtok 15 "string" 3 1 8))) (mkPtok 42 "JsonBody" 3 8 9) (Some (mkPtok 43 (string_of_bytes [96; 74; 115; 111; 110; 229; 173; 151; 231; 172; 166; 228; 184; 178; 230; 182; 136; 230; 129; 175; 228; 189; 147; 96]%N) 3 17 10)) (mkPtok 40 "," 3 29 11))))] (mkPtok 3 "}" 4 0 12)))])).
-Eval vm_compute in ("<<<M2040>>>" ++ check (runes_of_ascii "options{ i64_ = string ; trueish trueish =
-    '\x00'
-    leftPad = ""a\\"" /// triple
-; crc
-    = 255; uint8x
-=
-""abc""
-    ;}")).
-Eval vm_compute in ("<<<M2072>>>" ++ check (runes_of_ascii "options{ i64_ = string ; trueish =
-    '\x00'
-    leftPad = ""a\\"" /// triple
-true crc
-    = 255; uint8x
-=
-""abc""
-    ;}")).
-Eval vm_compute in ("<<<M2104>>>" ++ check (runes_of_ascii "options{ i64_ = string ; trueish =
-    '\x00'
-    leftPad = ""a\\"" /// triple
-; crc
-    = 255; uint8x
-=
-
-    ;}")).
-Eval vm_compute in ("<<<M2136>>>" ++ check (runes_of_ascii "options{ i64_ = stri'1'ng ; trueish =
-    '\x00'
-    leftPad = ""a\\"" /// triple
-; crc
-    = 255; uint8x
-=
-""abc""
-    ;}")).
-Eval vm_compute in ("<<<M2168>>>" ++ check (runes_of_ascii "  packet
-asx
-{
-/// triple
-// @lengthOf(
-u32 stringy
-{ ,} MetaData
-    A {string  _x, zchar Header `a\`
-// @lengthOf(
+Eval vm_compute in ("<<<M2040>>>" ++ check (runes_of_ascii "MetaData repeatCount { float64 packetx,
+} } root packet  metadata {
+char _x @lengthOf( trueish ), @leftPad
+( ' '// " ++ [27880; 37322]%N ++ runes_of_ascii "
+)/// triple
+char[] len`doc` , // packet A { u8 x, }
+repeatCount , }
+")).
+Eval vm_compute in ("<<<M2072>>>" ++ check (runes_of_ascii "MetaData repeatCount { float64 packetx,
+} root packet  metadata {
+char string @lengthOf( trueish ), @leftPad
+( ' '// " ++ [27880; 37322]%N ++ runes_of_ascii "
+)/// triple
+char[] len`doc` , // packet A { u8 x, }
+repeatCount , }
+")).
+Eval vm_compute in ("<<<M2104>>>" ++ check (runes_of_ascii "MetaData repeatCount { float64 packetx,
+} root packet  metadata {
+char _x @lengthOf( trueish ), @leftPad
+( // " ++ [27880; 37322]%N ++ runes_of_ascii "
+)/// triple
+char[] len`doc` , // packet A { u8 x, }
+repeatCount , }
+")).
+Eval vm_compute in ("<<<M2136>>>" ++ check (runes_of_ascii "MetaData repeatCount { float64 packetx,
+} root packet  metadata {
+char _x @lengthOf( trueish ), @leftPad
+( ' '// " ++ [27880; 37322]%N ++ runes_of_ascii "
+)/// triple
+char[] len`doc` , // packet A { u8 x, }
+, repeatCount }
+")).
+Eval vm_compute in ("<<<M2168>>>" ++ check (runes_of_ascii "MetaData repeatCount { float64 packetx,
+} root packet  metadata {
+char _x @lengthOf( trueish ), @leftPad
+( ' '// " ++ [27880; 37322]%N ++ runes_of_ascii "
+)/// triple
+char[] len`doc` , // packet A { u8 x, }
+" ++ [252]%N ++ runes_of_ascii "ber , }
+")).
+Eval vm_compute in ("<<<M2200>>>" ++ check (runes_of_ascii "options{
+leftPad
+    =65535
+;
+ = true ; packetx=  '\x00' ; packetx
+=  """ ++ [28040; 24687]%N ++ runes_of_ascii """MetaDataX= // " ++ [27880; 37322]%N ++ runes_of_ascii "
+false }root // c
+packet // packet A { u8 x, }
+Pad { repeat
+u8 Header
 // packet A { u8 x, }
-, char[] MetaDataX
-,zchar[ 1 ]
-    matchKey
-    , char[] //
-u,	char[0123456789 ]
-    matchKey
-    `{ , }`, }
+//	t
+`{ , }`
+// a // b
+//x
+, }
 ")).
-Eval vm_compute in ("<<<M2200>>>" ++ check (runes_of_ascii "  packet
-asx
-{
-/// triple
-// @lengthOf(
-u32 stringy
-`" ++ [28040; 24687; 31867; 22411]%N ++ runes_of_ascii "` ,} MetaData
-    A {string  , zchar Header `a\`
-// @lengthOf(
+Eval vm_compute in ("<<<M2232>>>" ++ check (runes_of_ascii "options{
+leftPad
+    =65535
+;
+a1 = true ; packetx=  ; '\x00' packetx
+=  """ ++ [28040; 24687]%N ++ runes_of_ascii """MetaDataX= // " ++ [27880; 37322]%N ++ runes_of_ascii "
+false }root // c
+packet // packet A { u8 x, }
+Pad { repeat
+u8 Header
 // packet A { u8 x, }
-, char[] MetaDataX
-,zchar[ 1 ]
-    matchKey
-    , char[] //
-u,	char[0123456789 ]
-    matchKey
-    `{ , }`, }
+//	t
+`{ , }`
+// a // b
+//x
+, }
 ")).
-Eval vm_compute in ("<<<M2232>>>" ++ check (runes_of_ascii "  packet
-asx
-{
-/// triple
-// @lengthOf(
-u32 stringy
-`" ++ [28040; 24687; 31867; 22411]%N ++ runes_of_ascii "` ,} MetaData
-    A {string  _x, zchar Header `a\`
-// @lengthOf(
+Eval vm_compute in ("<<<M2264>>>" ++ check (runes_of_ascii "options{
+leftPad
+    =65535
+;
+a1 = true ; packetx=  '\x00' ; packetx
+=  """ ++ [28040; 24687]%N ++ runes_of_ascii """MetaDataX")).
+Eval vm_compute in ("<<<M2296>>>" ++ check (runes_of_ascii "options{
+leftPad
+    =65535
+;
+a1 = true ; packetx=  '\x00' ; packetx
+=  """ ++ [28040; 24687]%N ++ runes_of_ascii """MetaDataX= // " ++ [27880; 37322]%N ++ runes_of_ascii "
+false }root // c
+packet // packet A { u8 x, }
+Pad { repeat repeat
+u8 Header
 // packet A { u8 x, }
-, MetaDataX char[]
-,zchar[ 1 ]
-    matchKey
-    , char[] //
-u,	char[0123456789 ]
-    matchKey
-    `{ , }`, }
+//	t
+`{ , }`
+// a // b
+//x
+, }
 ")).
-Eval vm_compute in ("<<<M2264>>>" ++ check (runes_of_ascii "  packet
-asx
-{
-/// triple
-// @lengthOf(
-u32 stringy
-`" ++ [28040; 24687; 31867; 22411]%N ++ runes_of_ascii "` ,} MetaData
-    A {string  _x, zchar Header `a\`
-// @lengthOf(
-// packet A { u8 x, }
-, char[] MetaDataX
-,zchar[ 1 ]")).
-Eval vm_compute in ("<<<M2296>>>" ++ check (runes_of_ascii "  packet
-asx
-{
-/// triple
-// @lengthOf(
-u32 stringy
-`" ++ [28040; 24687; 31867; 22411]%N ++ runes_of_ascii "` ,} MetaData
-    A {string  _x, zchar Header `a\`
-// @lengthOf(
-// packet A { u8 x, }
-, char[] MetaDataX
-,zchar[ 1 ]
-    matchKey
-    , char[] //
-u,	char[0123456789 ] ]
-    matchKey
-    `{ , }`, }
-")).
-Eval vm_compute in ("<<<M2328>>>" ++ check (runes_of_ascii "  packet
-asx
-{
-/// triple
-// @lengthOf(
-u32 stringy
-`" ++ [28040; 24687; 31867; 22411]%N ++ runes_of_ascii "` ,'\x01'} MetaData
-    A {string  _x, zchar Header `a\`
-// @lengthOf(
-// packet A { u8 x, }
-, char[] MetaDataX
-,zchar[ 1 ]
-    matchKey
-    , char[] //
-u,	char[0123456789 ]
-    matchKey
-    `{ , }`, }
-")).
-Eval vm_compute in ("<<<M2360>>>" ++ check (runes_of_ascii "root
-    packet
-Packet")).
-Eval vm_compute in ("<<<M2392>>>" ++ check (runes_of_ascii "root
-    packet
-Packet
-{ // trailing space \
-matchKey `tab	here` ,}")).
-Eval vm_compute in ("<<<M2424>>>" ++ check (runes_of_ascii "options{ falsey // a // b
-=
-    } '0' options { repeatCount =
-true ; string_// a // b
-=
-// c
-// " ++ [27880; 37322]%N ++ runes_of_ascii "
-int64
-// trailing space 
-/// triple
-; } // @lengthOf(")).
-Eval vm_compute in ("<<<M2456>>>" ++ check (runes_of_ascii "options{ falsey // a // b
-=
-    '0' } options { repeatCount =")).
-Eval vm_compute in ("<<<M2488>>>" ++ check (runes_of_ascii "options{ falsey // a // b
-=
-    '0' } options { repeatCount =
-true ")).
-Eval vm_compute in ("<<<M2520>>>" ++ check (runes_of_ascii "options{root} packet
-metadata {
-@lengthOf(x ) float32
-body ``, }
-    MetaData
-Z9_
-    {
-    string string_ , Logon x
-,
-uint32
-    // packet A { u8 x, }
-    Z9_,asx
-_x
-    `tab	here` , }
-")).
-Eval vm_compute in ("<<<M2552>>>" ++ check (runes_of_ascii "options{}root packet
-metadata {
-@lengthOf(")).
-Eval vm_compute in ("<<<M2584>>>" ++ check (runes_of_ascii "options{}root packet
-metadata {
-@lengthOf(x ) float32
-body ``, }
-    MetaData MetaData
-Z9_
-    {
-    string string_ , Logon x
-,
-uint32
-    // packet A { u8 x, }
-    Z9_,asx
-_x
-    `tab	here` , }
-")).
-Eval vm_compute in ("<<<M2616>>>" ++ check (runes_of_ascii "options{}root packet
-metadata {
-@lengthOf(x ) float32
-body ``, }
-    MetaData
-Z9_
-    {
-    string string_ , @tag( x
-,
-uint32
-    // packet A { u8 x, }
-    Z9_,asx
-_x
-    `tab	here` , }
-")).
-Eval vm_compute in ("<<<M2648>>>" ++ check (runes_of_ascii "options{}root packet
-metadata {
-@lengthOf(x ) float32
-body ``, }
-    MetaData
-Z9_
-    {
-    string string_ , Logon x
-,
-uint32
-    // packet A { u8 x, }
-    Z9_,asx
-
-    `tab	here` , }
-")).
-Eval vm_compute in ("<<<M2680>>>" ++ check (runes_of_ascii "options{}root packet
-" ++ [0]%N ++ runes_of_ascii "metadata {
-@lengthOf(x ) float32
-body ``, }
-    MetaData
-Z9_
-    {
-    string string_ , Logon x
-,
-uint32
-    // packet A { u8 x, }
-    Z9_,asx
-_x
-    `tab	here` , }
-")).
-Eval vm_compute in ("<<<M2712>>>" ++ check (runes_of_ascii "options {
-    falsey=
-uint8 ; }")).
-Eval vm_compute in ("<<<T2712>>>" ++ terms [mkTok 1 "options" 1 0 false; mkTok 2 "{" 1 8 false; mkTok 42 "falsey" 2 4 false; mkTok 4 "=" 2 10 false; mkTok 20 "uint8" 3 0 false; mkTok 41 ";" 3 6 false; mkTok 3 "}" 3 8 false; mkTok 0 "<EOF>" 3 9 false] (mkPacket (mkPtok 1 "options" 1 0 0) (Some (mkPtok 3 "}" 3 8 6)) [(DOption (mkOptionDef (mkSpan (mkPtok 1 "options" 1 0 0) (mkPtok 3 "}" 3 8 6)) (mkPtok 1 "options" 1 0 0) (mkPtok 2 "{" 1 8 1) [(mkOptionDecl (mkSpan (mkPtok 42 "falsey" 2 4 2) (mkPtok 41 ";" 3 6 5)) (mkPtok 42 "falsey" 2 4 2) (mkPtok 4 "=" 2 10 3) (VType (mkSpan (mkPtok 20 "uint8" 3 0 4) (mkPtok 20 "uint8" 3 0 4)) (TyBasic (mkSpan (mkPtok 20 "uint8" 3 0 4) (mkPtok 20 "uint8" 3 0 4)) (mkBasicType (mkSpan (mkPtok 20 "uint8" 3 0 4) (mkPtok 20 "uint8" 3 0 4)) (mkPtok 20 "uint8" 3 0 4)))) (Some (mkPtok 41 ";" 3 6 5)))] (mkPtok 3 "}" 3 8 6)))])).
-Eval vm_compute in ("<<<M2744>>>" ++ check (runes_of_ascii "options {
-    " ++ [21517; 23383]%N ++ runes_of_ascii "=
-""a\\"" ; }")).
-Eval vm_compute in ("<<<M2776>>>" ++ check (runes_of_ascii "MetaData f32a
-{
-    //	t
-    }root
-    packet tag tag  {
+Eval vm_compute in ("<<<M2328>>>" ++ check (runes_of_ascii "options{
+leftPad
+    =65535
+;
+a1 = true ; packetx=  '\x00' ; packetx
+=  """ ++ [28040; 24687]%N ++ runes_of_ascii """MetaDataX= // " ++ [27880; 37322]%N ++ runes_of_ascii "
+false }root // c
+pack")).
+Eval vm_compute in ("<<<M2360>>>" ++ check (runes_of_ascii "
+packet float")).
+Eval vm_compute in ("<<<M2392>>>" ++ check (runes_of_ascii "
+packet float
+{	@calculatedFrom( """ ++ [233]%N ++ runes_of_ascii "t" ++ [233]%N ++ runes_of_ascii """ )
+@rightPad ( '\x00' ) )
+    @calculatedFrom( ""x y"" ) string chars  ,
+    // a // b
+    char[0 ]
+    u	@lengthOf( i8i8 ) `{ , }` ,repeat char[] o //x
+`// not a comment`, } // c")).
+Eval vm_compute in ("<<<M2424>>>" ++ check (runes_of_ascii "
+packet float
+{	@calculatedFrom( """ ++ [233]%N ++ runes_of_ascii "t" ++ [233]%N ++ runes_of_ascii """ )
+@rightPad ( '\x00' )
+    @calculatedFrom( ""x y"" ) string chars  =
+    // a // b
+    char[0 ]
+    u	@lengthOf( i8i8 ) `{ , }` ,repeat char[] o //x
+`// not a comment`, } // c")).
+Eval vm_compute in ("<<<M2456>>>" ++ check (runes_of_ascii "
+packet float
+{	@calculatedFrom( """ ++ [233]%N ++ runes_of_ascii "t" ++ [233]%N ++ runes_of_ascii """ )
+@rightPad ( '\x00' )
+    @calculatedFrom( ""x y"" ) string chars  ,
+    // a // b
+    char[0 ]
+    u	@lengthOf( i8i8  `{ , }` ,repeat char[] o //x
+`// not a comment`, } // c")).
+Eval vm_compute in ("<<<M2488>>>" ++ check (runes_of_ascii "
+packet float
+{	@calculatedFrom( """ ++ [233]%N ++ runes_of_ascii "t" ++ [233]%N ++ runes_of_ascii """ )
+@rightPad ( '\x00' )
+    @calculatedFrom( ""x y"" ) string chars  ,
+    // a // b
+    char[0 ]
+    u	@lengthOf( i8i8 ) `{ , }` ,repeat char[] o //x
+,`// not a comment` } // c")).
+Eval vm_compute in ("<<<M2520>>>" ++ check (runes_of_ascii "
+packet float
+{	@calculatedFrom( """ ++ [233]%N ++ runes_of_ascii "t" ++ [233]%N ++ runes_of_ascii """ )
+@rightPad ( '\x00' )
+    @calculatedFrom( ""x y"" ) string chars  ,
+    // a // b
+    char[0 ]
+    u	@lengthOf( " ++ [252]%N ++ runes_of_ascii "ber ) `{ , }` ,repeat char[] o //x
+`// not a comment`, } // c")).
+Eval vm_compute in ("<<<M2552>>>" ++ check (runes_of_ascii "root packet u128{
+    repeat
+    zchar[  ] u `" ++ [28040; 24687; 31867; 22411]%N ++ runes_of_ascii "` ,// `tick` ""quote"" 'q'
+} packet i64_ {repeatCount
+    `
+` ,	} // " ++ [128512]%N ++ runes_of_ascii " emoji")).
+Eval vm_compute in ("<<<M2584>>>" ++ check (runes_of_ascii "root packet u128{
+    repeat
+    zchar[ 65535 ] u `" ++ [28040; 24687; 31867; 22411]%N ++ runes_of_ascii "` ,// `tick` ""quote"" 'q'
+} i64_ packet {repeatCount
+    `
+` ,	} // " ++ [128512]%N ++ runes_of_ascii " emoji")).
+Eval vm_compute in ("<<<M2616>>>" ++ check (runes_of_ascii "root packet u128{
+    repeat
+    zchar[ 65535 ] u `" ++ [28040; 24687; 31867; 22411]%N ++ runes_of_ascii "` ,// `tick` ""quote"" 'q'
+} packet ")).
+Eval vm_compute in ("<<<M2648>>>" ++ check (runes_of_ascii "
+MetaData
+roots  int8
+    BodyLength ,//	t
 }
 ")).
-Eval vm_compute in ("<<<M2808>>>" ++ check (runes_of_ascii "MetaData f32a
-{
-    //	t
-    }root
-    packet na" ++ [239]%N ++ runes_of_ascii "ve  {
+Eval vm_compute in ("<<<M2680>>>" ++ check (runes_of_ascii "
+MetaData
+roots { int8
+ /   BodyLength ,//	t
 }
 ")).
+Eval vm_compute in ("<<<M2712>>>" ++ check (runes_of_ascii "options {Packet ""1"" ""CRC32""i8i8 = false; leftPad =
+    '\x00'
+    // `tick` ""quote"" 'q'
+    ; o=255  ;
+    // packet A { u8 x, }
+    }")).
+Eval vm_compute in ("<<<M2744>>>" ++ check (runes_of_ascii "options {Packet = ""CRC32""i8i8 = false; leftPad 
+    '\x00'
+    // `tick` ""quote"" 'q'
+    ; o=255  ;
+    // packet A { u8 x, }
+    }")).
+Eval vm_compute in ("<<<M2776>>>" ++ check (runes_of_ascii "options {Packet = ""CRC32""i8i8 = false; leftPad =
+    '\x00'
+    // `tick` ""quote"" 'q'
+    ; o=255  }
+    // packet A { u8 x, }
+    ;")).
+Eval vm_compute in ("<<<M2808>>>" ++ check (runes_of_ascii "
+int8 metadata { @rightPad (
+    // packet A { u8 x, }
+    ' ' ) repeat u32	A
+,matchKey ,
+    @lengthOf( string_ ) @lengthOf( body )
+    // a // b
+    @lengthOf(float  )	repeat
+int32 u8x
+    // c
+    `tab	here`
+, } // a // b")).
 Eval vm_compute in ("<<<M2840>>>" ++ check (runes_of_ascii "
-options
-    {msg_type =
-    float32")).
+packet metadata { @rightPad (
+    // packet A { u8 x, }
+    ' ' )  u32	A
+,matchKey ,
+    @lengthOf( string_ ) @lengthOf( body )
+    // a // b
+    @lengthOf(float  )	repeat
+int32 u8x
+    // c
+    `tab	here`
+, } // a // b")).
 Eval vm_compute in ("<<<M2872>>>" ++ check (runes_of_ascii "
-options
-    {msg_type =
-    float32  }root
-packet Z9_{ char /// triple
-crc @lengthOf( @lengthOf(
-options1 ) //
-,} MetaData a1{}
-")).
+packet metadata { @rightPad (
+    // packet A { u8 x, }
+    ' ' ) repeat u32	A
+,matchKey ,
+    string_ @lengthOf( ) @lengthOf( body )
+    // a // b
+    @lengthOf(float  )	repeat
+int32 u8x
+    // c
+    `tab	here`
+, } // a // b")).
 Eval vm_compute in ("<<<M2904>>>" ++ check (runes_of_ascii "
-options
-    {msg_type =
-    float32  }root
-packet Z9_{ char /// triple
-crc @lengthOf(
-options1 ) //
-,} MetaData i64{}
-")).
+packet metadata { @rightPad (
+    // packet A { u8 x, }
+    ' ' ) repeat u32	A
+,matchKey ,
+    @lengthOf( string_ ) @lengthOf( body )")).
 Eval vm_compute in ("<<<M2936>>>" ++ check (runes_of_ascii "
-options
-    {na" ++ [239]%N ++ runes_of_ascii "ve =
-    float32  }root
-packet Z9_{ char /// triple
-crc @lengthOf(
-options1 ) //
-,} MetaData a1{}
+packet metadata { @rightPad (
+    // packet A { u8 x, }
+    ' ' ) repeat u32	A
+,matchKey ,
+    @lengthOf( string_ ) @lengthOf( body )
+    // a // b
+    @lengthOf(float  )	repeat
+int32 u8x
+    // c
+    `tab	here`
+, , } // a // b")).
+Eval vm_compute in ("<<<M2968>>>" ++ check (runes_of_ascii "x packet{
+string
+zchar , //	t
+}
 ")).
-Eval vm_compute in ("<<<M2968>>>" ++ check (runes_of_ascii "packet crc{ // " ++ [128512]%N ++ runes_of_ascii " emoji
-repeat string i8i8
-`a\` `a\`, }
-")).
-Eval vm_compute in ("<<<M3000>>>" ++ check (runes_of_ascii "packet crc{ // " ++ [128512]%N ++ runes_of_ascii " emoji
-repeat string " ++ [252]%N ++ runes_of_ascii "ber
-`a\`, }
-")).
-Eval vm_compute in ("<<<M3032>>>" ++ check (runes_of_ascii "packet BodyLength {} MetaData")).
-Eval vm_compute in ("<<<M3064>>>" ++ check (runes_of_ascii "packet BodyLength {} MetaData zchar{ zchar[// @lengthOf(
-42 ]
-    pack , string_ string_
-A , char[]crc , _x trueish ,
-// " ++ [27880; 37322]%N ++ runes_of_ascii "
-// " ++ [128512]%N ++ runes_of_ascii " emoji
-zchar[
-    3 ]	T // trailing space 
-, } packet body
+Eval vm_compute in ("<<<M3000>>>" ++ check (runes_of_ascii "packet x{
+string
+zcha")).
+Eval vm_compute in ("<<<M3032>>>" ++ check (runes_of_ascii "
+MetaData Logon
+ // c
+}root packet
+    Pad {
+    } options
 {
-    }
-")).
-Eval vm_compute in ("<<<M3096>>>" ++ check (runes_of_ascii "packet BodyLength {} MetaData zchar{ zchar[// @lengthOf(
-42 ]
-    pack , string_
-A , char[]crc , `// not a comment` trueish ,
-// " ++ [27880; 37322]%N ++ runes_of_ascii "
-// " ++ [128512]%N ++ runes_of_ascii " emoji
-zchar[
-    3 ]	T // trailing space 
-, } packet body
+u
+    =
+    ""CRC32""
+    // " ++ [128512]%N ++ runes_of_ascii " emoji
+    i64_ = u16;
+T =65535 x = ' '
+    ; u128
+= true ; }")).
+Eval vm_compute in ("<<<M3064>>>" ++ check (runes_of_ascii "
+MetaData Logon
+{ // c
+}root packet
+    Pad {
+    options }
 {
-    }
-")).
-Eval vm_compute in ("<<<M3128>>>" ++ check (runes_of_ascii "packet BodyLength {} MetaData zchar{ zchar[// @lengthOf(
-42 ]
-    pack , string_
-A , char[]crc , _x trueish ,
-// " ++ [27880; 37322]%N ++ runes_of_ascii "
-// " ++ [128512]%N ++ runes_of_ascii " emoji
-zchar[
-    3 ]	T // trailing space 
- } packet body
+u
+    =
+    ""CRC32""
+    // " ++ [128512]%N ++ runes_of_ascii " emoji
+    i64_ = u16;
+T =65535 x = ' '
+    ; u128
+= true ; }")).
+Eval vm_compute in ("<<<M3096>>>" ++ check (runes_of_ascii "
+MetaData Logon
+{ // c
+}root packet
+    Pad {
+    } options
 {
-    }
+u
+    =
+    ""CRC32""")).
+Eval vm_compute in ("<<<M3128>>>" ++ check (runes_of_ascii "
+MetaData Logon
+{ // c
+}root packet
+    Pad {
+    } options
+{
+u
+    =
+    ""CRC32""
+    // " ++ [128512]%N ++ runes_of_ascii " emoji
+    i64_ = u16;
+T =65535 x x = ' '
+    ; u128
+= true ; }")).
+Eval vm_compute in ("<<<M3160>>>" ++ check (runes_of_ascii "
+MetaData Logon
+{ // c
+}root packet
+    Pad {
+    } options
+{
+u
+    =
+    ""CRC32""
+    // " ++ [128512]%N ++ runes_of_ascii " emoji
+    i64_ = u16;
+T =65535 x = ' '
+    ; u128
+= packet ; }")).
+Eval vm_compute in ("<<<M3192>>>" ++ check (runes_of_ascii "
+MetaData Logon
+{ // c
+}root packet
+    Pad {
+    } options
+{
+a" ++ [769]%N ++ runes_of_ascii "b
+    =
+    ""CRC32""
+    // " ++ [128512]%N ++ runes_of_ascii " emoji
+    i64_ = u16;
+T =65535 x = ' '
+    ; u128
+= true ; }")).
+Eval vm_compute in ("<<<M3224>>>" ++ check (runes_of_ascii "MetaData body{}
+packet	Packet { { x_y_z @calculatedFrom(  ""a\\"")// `tick` ""quote"" 'q'
+, }
 ")).
-Eval vm_compute in ("<<<M3160>>>" ++ check (runes_of_ascii "packet BodyLength {} MetaData zchar")).
-Eval vm_compute in ("<<<M3192>>>" ++ check (runes_of_ascii "packet
-string_ }@lengthOf( int ) match packetx as f32a {
-    1 :	calculatedFrom , }  ,
-    } packet len
-    //	t
-    { @calculatedFrom( """ ++ [233]%N ++ runes_of_ascii "t" ++ [233]%N ++ runes_of_ascii """ ) body Header , char[] lengthOf  `two words` ,chars{repeat string_ matchKey ,
-    } ,
-    }
+Eval vm_compute in ("<<<M3256>>>" ++ check (runes_of_ascii "MetaData body{}
+packet	Packet { x_y_z @calculatedFrom(  ""a\\"")// `tick` ""quote"" 'q'
+,")).
+Eval vm_compute in ("<<<M3288>>>" ++ check (runes_of_ascii "packet")).
+Eval vm_compute in ("<<<M3320>>>" ++ check (runes_of_ascii "packet f32a {} root packet len {repeat repeat u // " ++ [128512]%N ++ runes_of_ascii " emoji
+`{ , }` , }
 ")).
-Eval vm_compute in ("<<<M3224>>>" ++ check (runes_of_ascii "packet
-string_ {@lengthOf( int ) match packetx as  {
-    1 :	calculatedFrom , }  ,
-    } packet len
-    //	t
-    { @calculatedFrom( """ ++ [233]%N ++ runes_of_ascii "t" ++ [233]%N ++ runes_of_ascii """ ) body Header , char[] lengthOf  `two words` ,chars{repeat string_ matchKey ,
-    } ,
-    }
+Eval vm_compute in ("<<<M3352>>>" ++ check ([0]%N ++ runes_of_ascii "packet f32a {} root packet len {repeat u // " ++ [128512]%N ++ runes_of_ascii " emoji
+`{ , }` , }
 ")).
-Eval vm_compute in ("<<<M3256>>>" ++ check (runes_of_ascii "packet
-string_ {@lengthOf( int ) match packetx as f32a {
-    1 :	calculatedFrom , ,  }
-    } packet len
-    //	t
-    { @calculatedFrom( """ ++ [233]%N ++ runes_of_ascii "t" ++ [233]%N ++ runes_of_ascii """ ) body Header , char[] lengthOf  `two words` ,chars{repeat string_ matchKey ,
-    } ,
-    }
-")).
-Eval vm_compute in ("<<<M3288>>>" ++ check (runes_of_ascii "packet
-string_ {@lengthOf( int ) match packetx as f32a {
-    1 :	calculatedFrom , }  ,
-    } packet len
-    //	t
-    {")).
-Eval vm_compute in ("<<<M3320>>>" ++ check (runes_of_ascii "packet
-string_ {@lengthOf( int ) match packetx as f32a {
-    1 :	calculatedFrom , }  ,
-    } packet len
-    //	t
-    { @calculatedFrom( """ ++ [233]%N ++ runes_of_ascii "t" ++ [233]%N ++ runes_of_ascii """ ) body Header , char[] lengthOf lengthOf  `two words` ,chars{repeat string_ matchKey ,
-    } ,
-    }
-")).
-Eval vm_compute in ("<<<M3352>>>" ++ check (runes_of_ascii "packet
-string_ {@lengthOf( int ) match packetx as f32a {
-    1 :	calculatedFrom , }  ,
-    } packet len
-    //	t
-    { @calculatedFrom( """ ++ [233]%N ++ runes_of_ascii "t" ++ [233]%N ++ runes_of_ascii """ ) body Header , char[] lengthOf  `two words` ,chars{repeat ) matchKey ,
-    } ,
-    }
-")).
-Eval vm_compute in ("<<<M3384>>>" ++ check (runes_of_ascii "packet
-string_ {@lengthOf( int ) match packetx as f32a {
-    1 :	calculatedFrom , }  ,
-    } packet len
-    //	t
-    { @calculatedFrom( """ ++ [233]%N ++ runes_of_ascii "t" ++ [233]%N ++ runes_of_ascii """ ) body Header , char[] lengthOf  `two words` ,chars{repeat string_ matchKey ,
-    } ,
- <   }
-")).
-Eval vm_compute in ("<<<M3416>>>" ++ check (runes_of_ascii "/// triple
-root
-packet // packet A { u8 x, }
-chars { charz@lengthOf( )
-stringy,  @tag(  0 ) // a // b
-asx
-    As
-,
-// trailing space 
-// trailing space 
-x_y_z {
-repeat i16 charz , } ,	int16  crc ,}
-")).
-Eval vm_compute in ("<<<M3448>>>" ++ check (runes_of_ascii "/// triple
-root
-packet // packet A { u8 x, }
-chars { @lengthOf(charz )
-stringy,  ;  0 ) // a // b
-asx
-    As
-,
-// trailing space 
-// trailing space 
-x_y_z {
-repeat i16 charz , } ,	int16  crc ,}
-")).
-Eval vm_compute in ("<<<M3480>>>" ++ check (runes_of_ascii "/// triple
-root
-packet // packet A { u8 x, }
-chars { @lengthOf(charz )
-stringy,  @tag(  0 ) // a // b
-asx`
-    As
-,
-// trailing space 
-// trailing space 
-x_y_z {
-repeat i16 charz , } ,	int16  crc ,}
-")).
+Eval vm_compute in ("<<<M3384>>>" ++ check (runes_of_ascii "options{ _x=""\" ++ [233]%N ++ runes_of_ascii """;
+    Logon = 10	; Foo= 7 i64_
+;= char[]} options {
+matchKey = ""// no comment"" // a // b
+falsey = string
+; trueish =
+    4294967296
+options1=
+    ""it's"" string_	= true } options {
+    /// triple
+    }")).
+Eval vm_compute in ("<<<M3416>>>" ++ check (runes_of_ascii "options{ _x=""\" ++ [233]%N ++ runes_of_ascii """;
+    Logon = 10	; Foo= 7;
+i64_= char[]} options {
+matchKey = ""// no comment"" // a // b
+falsey = 
+; trueish =
+    4294967296
+options1=
+    ""it's"" string_	= true } options {
+    /// triple
+    }")).
+Eval vm_compute in ("<<<M3448>>>" ++ check (runes_of_ascii "options{ _x=""\" ++ [233]%N ++ runes_of_ascii """;
+    Logon = 10	; Foo= ;7
+i64_= char[]} options {
+matchKey = ""// no comment"" // a // b
+falsey = string
+; trueish =
+    4294967296
+options1=
+    ""it's"" string_	= true } options {
+    /// triple
+    }")).
+Eval vm_compute in ("<<<M3480>>>" ++ check (runes_of_ascii "options{ _x=""\" ++ [233]%N ++ runes_of_ascii """;
+    Logon = 10	; Foo= 7;
+i64_= char[]} options {
+matchKey = ""// no comment"" // a // b
+falsey = string
+; trueish =
+    4294967296
+options1=
+    ""it's"" string_	= true")).
 Eval vm_compute in ("<<<M3512>>>" ++ check (runes_of_ascii "trueish")).
 Eval vm_compute in ("<<<M3544>>>" ++ check (runes_of_ascii "'0")).
 Eval vm_compute in ("<<<M3576>>>" ++ check (runes_of_ascii """a\""")).
@@ -1707,12 +2016,12 @@ Eval vm_compute in ("<<<M3640>>>" ++ check (runes_of_ascii "packet A { x `d`, }"
 Eval vm_compute in ("<<<M3672>>>" ++ check (runes_of_ascii "packet A { match k as n { 1 : B 2 : C ""s"" : D [1] : E }, }")).
 Eval vm_compute in ("<<<M3704>>>" ++ check (runes_of_ascii "packet A")).
 Eval vm_compute in ("<<<M3736>>>" ++ check (runes_of_ascii "options { a = [1]; }")).
-Eval vm_compute in ("<<<M3768>>>" ++ check ([65533]%N ++ runes_of_ascii "(" ++ [65533; 65533]%N ++ runes_of_ascii "M" ++ [65533]%N ++ runes_of_ascii "b" ++ [65533]%N ++ runes_of_ascii "q" ++ [30; 65533; 4]%N ++ runes_of_ascii "x5" ++ [65533; 65533; 18]%N ++ runes_of_ascii "zT" ++ [65533; 65533; 65533; 1537; 65533]%N ++ runes_of_ascii "h1" ++ [65533]%N)).
-Eval vm_compute in ("<<<M3800>>>" ++ check (runes_of_ascii "7" ++ [65533]%N ++ runes_of_ascii "b" ++ [65533; 65533]%N ++ runes_of_ascii "
-" ++ [65533; 547; 65533; 65533; 65533; 65533]%N ++ runes_of_ascii "pO" ++ [65533; 65533]%N ++ runes_of_ascii ";" ++ [65533; 65533; 20; 65533]%N ++ runes_of_ascii "d0P" ++ [22]%N ++ runes_of_ascii "o")).
-Eval vm_compute in ("<<<M3832>>>" ++ check (runes_of_ascii "(" ++ [19]%N ++ runes_of_ascii "Du " ++ [65533; 65533; 65533; 65533; 65533]%N ++ runes_of_ascii ":a1" ++ [65533]%N ++ runes_of_ascii "-" ++ [15]%N ++ runes_of_ascii "X" ++ [65533; 7; 65533; 0; 65533; 65533; 65533]%N ++ runes_of_ascii "\r" ++ [65533; 65533]%N ++ runes_of_ascii "(" ++ [65533]%N)).
-Eval vm_compute in ("<<<M3864>>>" ++ check (runes_of_ascii "j" ++ [65533]%N ++ runes_of_ascii "[" ++ [65533]%N)).
-Eval vm_compute in ("<<<M3896>>>" ++ check ([65533]%N ++ runes_of_ascii "'T" ++ [65533; 65533; 65533]%N ++ runes_of_ascii "r" ++ [65533; 65533]%N ++ runes_of_ascii "F" ++ [65533; 65533; 65533; 65533; 28]%N ++ runes_of_ascii " " ++ [65533; 65533; 65533; 65533; 65533]%N ++ runes_of_ascii "P" ++ [839]%N ++ runes_of_ascii "F" ++ [65533; 65533; 65533]%N ++ runes_of_ascii "4" ++ [6; 65533; 65533]%N)).
-Eval vm_compute in ("<<<M3928>>>" ++ check ([4]%N ++ runes_of_ascii "IR" ++ [65533]%N ++ runes_of_ascii "}$" ++ [65533; 65533; 65533]%N ++ runes_of_ascii "BL2" ++ [65533]%N ++ runes_of_ascii "vW" ++ [1921; 65533]%N)).
-Eval vm_compute in ("<<<M3960>>>" ++ check (runes_of_ascii " " ++ [65533]%N ++ runes_of_ascii "_")).
-Eval vm_compute in ("<<<M3992>>>" ++ check (runes_of_ascii "=")).
+Eval vm_compute in ("<<<M3768>>>" ++ check ([65533]%N ++ runes_of_ascii "
+" ++ [65533; 6]%N ++ runes_of_ascii "Z" ++ [65533; 30; 65533; 65533; 65533; 22; 65533; 65533]%N ++ runes_of_ascii "c" ++ [15]%N ++ runes_of_ascii "c" ++ [65533; 65533; 65533; 14]%N ++ runes_of_ascii "[" ++ [65533; 65533; 65533; 65533; 65533; 5; 65533]%N ++ runes_of_ascii "J)")).
+Eval vm_compute in ("<<<M3800>>>" ++ check (runes_of_ascii "q" ++ [65533; 1941]%N ++ runes_of_ascii "\" ++ [65533]%N ++ runes_of_ascii "1" ++ [65533; 65533]%N ++ runes_of_ascii "S" ++ [65533]%N ++ runes_of_ascii "J" ++ [65533]%N)).
+Eval vm_compute in ("<<<M3832>>>" ++ check ([28; 65533; 65533; 65533; 65533]%N)).
+Eval vm_compute in ("<<<M3864>>>" ++ check ([65533; 65533]%N ++ runes_of_ascii "N6" ++ [65533]%N)).
+Eval vm_compute in ("<<<M3896>>>" ++ check (runes_of_ascii "3" ++ [65533; 65533; 48108; 65533; 0; 65533]%N ++ runes_of_ascii ">}" ++ [65533]%N ++ runes_of_ascii "x" ++ [65533]%N ++ runes_of_ascii ":/%" ++ [65533; 65533; 65533]%N ++ runes_of_ascii "z" ++ [65533; 65533]%N ++ runes_of_ascii "z@7")).
+Eval vm_compute in ("<<<M3928>>>" ++ check ([65533; 65533]%N ++ runes_of_ascii "c" ++ [65533; 65533; 65533]%N ++ runes_of_ascii "9" ++ [65533; 19; 23]%N ++ runes_of_ascii "B'" ++ [65533]%N ++ runes_of_ascii "!" ++ [65533; 65533]%N ++ runes_of_ascii "&h" ++ [1697; 65533; 65533]%N ++ runes_of_ascii ")." ++ [65533; 65533]%N ++ runes_of_ascii "2j" ++ [5]%N ++ runes_of_ascii "Mk" ++ [65533]%N)).
+Eval vm_compute in ("<<<M3960>>>" ++ check ([65533; 127; 65533; 65533]%N ++ runes_of_ascii "'" ++ [65533; 17; 65533]%N ++ runes_of_ascii ",u" ++ [65533; 65533]%N ++ runes_of_ascii "'bE" ++ [65533; 65533; 65533; 65533; 65533]%N ++ runes_of_ascii "U" ++ [65533; 14]%N ++ runes_of_ascii "^:" ++ [65533]%N ++ runes_of_ascii "Z" ++ [6]%N ++ runes_of_ascii "/" ++ [65533; 1; 65533]%N ++ runes_of_ascii "aC$" ++ [65533]%N ++ runes_of_ascii "u" ++ [65533; 65533; 65533]%N)).
+Eval vm_compute in ("<<<M3992>>>" ++ check (runes_of_ascii "H" ++ [65533; 65533]%N ++ runes_of_ascii "b" ++ [65533; 11]%N ++ runes_of_ascii "7@" ++ [65533]%N ++ runes_of_ascii "0U" ++ [65533]%N ++ runes_of_ascii "g_" ++ [30; 65533]%N ++ runes_of_ascii "J" ++ [65533; 22; 65533; 12; 65533; 65533]%N ++ runes_of_ascii "tu" ++ [1788]%N ++ runes_of_ascii "U" ++ [291; 568]%N ++ runes_of_ascii "^")).
